@@ -20,6 +20,8 @@ mod verif_c01_step_read {
     const E_PARENT_HUGE: u8 = 2;
     /// the leaf slot holds a table pointer: some Err, the documentation does not say which
     const E_NO_SUCH_MAPPING: u8 = 3;
+    /// the leaf slot holds P | PS with a frame address that is not aligned to the page size
+    const E_INVALID_FRAME: u8 = 4;
 
     fn model_outcome(sh: Shape, pre: &Pre, l: usize) -> u8 {
         match model_reach(sh, pre, l) {
@@ -28,6 +30,7 @@ mod verif_c01_step_read {
             _ => match entry_kind(sh, pre, l) {
                 E_ABSENT => E_NOT_MAPPED,
                 E_LEAF => OK,
+                E_MISALIGNED => E_INVALID_FRAME,
                 _ => E_NO_SUCH_MAPPING,
             },
         }
@@ -57,33 +60,39 @@ mod verif_c01_step_read {
             let res = Mapper::<$S>::translate_page(&mapper, page);
 
             let outcome = model_outcome(sh, &pre, LV);
-            match &res {
-                Ok(f) => {
-                    kani::assert(outcome != E_NO_SUCH_MAPPING, ob!("C02", "translate_page", $sz, $shape, "no_success_for_nonexistent_size: no mapping of this size exists, the call must not succeed"));
-                    kani::assert(outcome == OK, ob!("C02", "translate_page", $sz, $shape, "documented_outcome: Ok only for a mapped page of this size"));
-                    kani::assert(
-                        w_in.kind == MAPPED && w_in.size == <$S as Sz>::BYTES && f.start_address().as_u64() == w_in.phys & !(<$S as Sz>::BYTES - 1),
-                        ob!("C01", "translate_page", $sz, $shape, "agrees_with_walk: Ok(frame) iff the hardware walk maps every address of the page into that frame at this size"),
-                    );
-                }
-                Err(e) => {
-                    let documented = match e {
-                        TranslateError::PageNotMapped => outcome == E_NOT_MAPPED || outcome == E_NO_SUCH_MAPPING,
-                        TranslateError::ParentEntryHugePage => outcome == E_PARENT_HUGE || outcome == E_NO_SUCH_MAPPING,
-                        TranslateError::InvalidFrameAddress(_) => outcome == E_NO_SUCH_MAPPING,
-                    };
-                    kani::assert(documented, ob!("C02", "translate_page", $sz, $shape, "documented_outcome: PageNotMapped iff an entry on the path is absent, ParentEntryHugePage iff the page lies inside a larger huge page"));
-                    let walk_says = match e {
-                        TranslateError::PageNotMapped => outcome == E_NO_SUCH_MAPPING || w_in.kind == NOT_MAPPED,
-                        TranslateError::ParentEntryHugePage => outcome == E_NO_SUCH_MAPPING || (w_in.kind == MAPPED && w_in.size > <$S as Sz>::BYTES),
-                        TranslateError::InvalidFrameAddress(_) => true,
-                    };
-                    kani::assert(walk_says, ob!("C01", "translate_page", $sz, $shape, "agrees_with_walk: PageNotMapped iff the walk finds nothing, ParentEntryHugePage iff it ends in a larger page"));
-                }
-            }
+            // ---- every clause is evaluated first, then each is checked on its own path (each!)
+            let ok = res.is_ok();
+            let bogus = ok && outcome == E_NO_SUCH_MAPPING;
+            let c_nosuch = !bogus;
+            let bytes = <$S as Sz>::BYTES;
+            let outcome_ok = bogus
+                || match &res {
+                    Ok(_) => outcome == OK,
+                    Err(TranslateError::PageNotMapped) => outcome == E_NOT_MAPPED || outcome == E_NO_SUCH_MAPPING,
+                    Err(TranslateError::ParentEntryHugePage) => outcome == E_PARENT_HUGE || outcome == E_NO_SUCH_MAPPING,
+                    Err(TranslateError::InvalidFrameAddress(a)) => outcome == E_NO_SUCH_MAPPING || (outcome == E_INVALID_FRAME && a.as_u64() == pre.e[LV] & ADDR),
+                };
+            let walk_ok = bogus
+                || outcome == E_NO_SUCH_MAPPING
+                || outcome == E_INVALID_FRAME
+                || match &res {
+                    Ok(f) => w_in.kind == MAPPED && w_in.size == bytes && f.start_address().as_u64() == w_in.phys & !(bytes - 1),
+                    Err(TranslateError::PageNotMapped) => w_in.kind == NOT_MAPPED,
+                    Err(TranslateError::ParentEntryHugePage) => w_in.kind == MAPPED && w_in.size > bytes,
+                    Err(TranslateError::InvalidFrameAddress(_)) => false,
+                };
             let f_post = pool.rd(fk, fs);
-            kani::assert(f_pre == f_post, ob!("C09", "translate_page", $sz, $shape, "writes_nothing: every word of every table unchanged"));
-            kani::assert(ghost().seq == 0 && ghost().zero_elsewhere == 0, ob!("C09", "translate_page", $sz, $shape, "no_frames_requested_or_zeroed"));
+            let c_frame = f_pre == f_post;
+            let c_noalloc = ghost().seq == 0 && ghost().zero_elsewhere == 0;
+            let c_outside = ghost().outside == 0;
+            each! {
+                c_nosuch => ob!("C02", "translate_page", $sz, $shape, "no_success_for_nonexistent_size: no mapping of this size exists, the call must not succeed"),
+                outcome_ok => ob!("C02", "translate_page", $sz, $shape, "documented_outcome: Ok for a mapped page of this size, PageNotMapped iff an entry on the path is absent, ParentEntryHugePage iff the page lies inside a larger huge page, InvalidFrameAddress(entry address) iff the leaf frame is misaligned"),
+                walk_ok => ob!("C01", "translate_page", $sz, $shape, "agrees_with_walk: Ok(frame) iff the hardware walk maps every address of the page into that frame at this size; PageNotMapped iff it finds nothing; ParentEntryHugePage iff it ends in a larger page"),
+                c_frame => ob!("C09", "translate_page", $sz, $shape, "writes_nothing: every word of every table unchanged"),
+                c_noalloc => ob!("C09", "translate_page", $sz, $shape, "no_frames_requested_or_zeroed"),
+                c_outside => ob!("C09", "translate_page", $sz, $shape, "no_access_outside_page_tables: no pointer was requested for a frame that is not a page table of the hierarchy"),
+            }
             kani::cover(outcome == OK, concat!("translate_page_", $sz, " ", $shape, ": Ok"));
             kani::cover(outcome == E_NOT_MAPPED, concat!("translate_page_", $sz, " ", $shape, ": PageNotMapped"));
             kani::cover(outcome == E_PARENT_HUGE, concat!("translate_page_", $sz, " ", $shape, ": ParentEntryHugePage"));
@@ -111,25 +120,32 @@ mod verif_c01_step_read {
             let a_in = mapper.translate_addr(VirtAddr::new(inside));
             let a_pr = mapper.translate_addr(VirtAddr::new(probe));
 
-            kani::assert(translate_agrees(&t_in, &w_in, inside), ob!("C01", "translate", $sz, $shape, "target_agrees_with_walk: frame, size, offset and leaf flags of an address on the target path"));
-            kani::assert(translate_agrees(&t_pr, &w_pr, probe), ob!("C01", "translate", $sz, $shape, "probe_agrees_with_walk: frame, size, offset and leaf flags of an arbitrary address"));
-            kani::assert(
-                translate_addr_agrees(&a_in, &w_in) && translate_addr_agrees(&a_pr, &w_pr),
-                ob!("C01", "translate_addr", $sz, $shape, "agrees_with_walk: Some(physical address of the walk) or None"),
-            );
+            let c_in = translate_agrees(&t_in, &w_in, inside);
+            let c_pr = translate_agrees(&t_pr, &w_pr, probe);
+            let c_addr = translate_addr_agrees(&a_in, &w_in) && translate_addr_agrees(&a_pr, &w_pr);
             let f_post = pool.rd(fk, fs);
-            kani::assert(f_pre == f_post, ob!("C09", "translate", $sz, $shape, "writes_nothing: every word of every table unchanged"));
-            kani::assert(ghost().seq == 0 && ghost().zero_elsewhere == 0, ob!("C09", "translate", $sz, $shape, "no_frames_requested_or_zeroed"));
+            let c_frame = f_pre == f_post;
+            let c_noalloc = ghost().seq == 0 && ghost().zero_elsewhere == 0;
+            let c_outside = ghost().outside == 0;
+            each! {
+                c_in => ob!("C01", "translate", $sz, $shape, "target_agrees_with_walk: frame, size, offset and leaf flags of an address on the target path"),
+                c_pr => ob!("C01", "translate", $sz, $shape, "probe_agrees_with_walk: frame, size, offset and leaf flags of an arbitrary address"),
+                c_addr => ob!("C01", "translate_addr", $sz, $shape, "agrees_with_walk: Some(physical address of the walk) or None"),
+                c_frame => ob!("C09", "translate", $sz, $shape, "writes_nothing: every word of every table unchanged"),
+                c_noalloc => ob!("C09", "translate", $sz, $shape, "no_frames_requested_or_zeroed"),
+                c_outside => ob!("C09", "translate", $sz, $shape, "no_access_outside_page_tables: no pointer was requested for a frame that is not a page table of the hierarchy"),
+            }
             kani::cover(w_in.kind == MAPPED, concat!("translate ", $shape, ": target mapped"));
             kani::cover(w_pr.kind == MAPPED && w_pr.size == SZ_2M, concat!("translate ", $shape, ": probe in a 2 MiB neighbour"));
             kani::cover(w_pr.kind == MAPPED && w_pr.size == SZ_1G, concat!("translate ", $shape, ": probe in a 1 GiB neighbour"));
         }};
     }
 
-    //@ obligation C01 C01.translate_page_4kib.shape_p4_absent.agrees_with_walk tier=thorough bounded="pool of 7 tables (4 path + 3 allocatable); tree-shaped sparse pre-state (target path, one neighbour word per path table, garbage in allocatable frames); page-table indices (0,0,0,0)"
-    //@ obligation C02 C02.translate_page_4kib.shape_p4_absent.documented_outcome tier=thorough bounded="pool of 7 tables (4 path + 3 allocatable); tree-shaped sparse pre-state (target path, one neighbour word per path table, garbage in allocatable frames); page-table indices (0,0,0,0)"
-    //@ obligation C09 C09.translate_page_4kib.shape_p4_absent.writes_nothing tier=thorough bounded="pool of 7 tables (4 path + 3 allocatable); tree-shaped sparse pre-state (target path, one neighbour word per path table, garbage in allocatable frames); page-table indices (0,0,0,0)"
-    //@ obligation C09 C09.translate_page_4kib.shape_p4_absent.no_frames_requested_or_zeroed tier=thorough bounded="pool of 7 tables (4 path + 3 allocatable); tree-shaped sparse pre-state (target path, one neighbour word per path table, garbage in allocatable frames); page-table indices (0,0,0,0)"
+    //@ obligation C01 C01.translate_page_4kib.shape_p4_absent.agrees_with_walk tier=thorough bounded="pool of 7 tables (4 path + 3 allocatable); tree-shaped sparse pre-state (target path, one neighbour word per path table, garbage in allocatable frames); page-table indices (0,1,511,2)"
+    //@ obligation C02 C02.translate_page_4kib.shape_p4_absent.documented_outcome tier=thorough bounded="pool of 7 tables (4 path + 3 allocatable); tree-shaped sparse pre-state (target path, one neighbour word per path table, garbage in allocatable frames); page-table indices (0,1,511,2)"
+    //@ obligation C09 C09.translate_page_4kib.shape_p4_absent.writes_nothing tier=thorough bounded="pool of 7 tables (4 path + 3 allocatable); tree-shaped sparse pre-state (target path, one neighbour word per path table, garbage in allocatable frames); page-table indices (0,1,511,2)"
+    //@ obligation C09 C09.translate_page_4kib.shape_p4_absent.no_frames_requested_or_zeroed tier=thorough bounded="pool of 7 tables (4 path + 3 allocatable); tree-shaped sparse pre-state (target path, one neighbour word per path table, garbage in allocatable frames); page-table indices (0,1,511,2)"
+    //@ obligation C09 C09.translate_page_4kib.shape_p4_absent.no_access_outside_page_tables tier=thorough bounded="pool of 7 tables (4 path + 3 allocatable); tree-shaped sparse pre-state (target path, one neighbour word per path table, garbage in allocatable frames); page-table indices (0,1,511,2)"
     #[kani::proof]
     #[kani::stub(PageTable::zero, zero_stub)]
     fn c01_translate_page_4kib_p4_absent_lo() {
@@ -137,10 +153,11 @@ mod verif_c01_step_read {
         kani::cover!(true, "c01_translate_page_4kib_p4_absent_lo: reachable");
     }
 
-    //@ obligation C01 C01.translate_page_4kib.shape_p4_absent.agrees_with_walk tier=thorough bounded="pool of 7 tables (4 path + 3 allocatable); tree-shaped sparse pre-state (target path, one neighbour word per path table, garbage in allocatable frames); page-table indices (511,511,511,511)"
-    //@ obligation C02 C02.translate_page_4kib.shape_p4_absent.documented_outcome tier=thorough bounded="pool of 7 tables (4 path + 3 allocatable); tree-shaped sparse pre-state (target path, one neighbour word per path table, garbage in allocatable frames); page-table indices (511,511,511,511)"
-    //@ obligation C09 C09.translate_page_4kib.shape_p4_absent.writes_nothing tier=thorough bounded="pool of 7 tables (4 path + 3 allocatable); tree-shaped sparse pre-state (target path, one neighbour word per path table, garbage in allocatable frames); page-table indices (511,511,511,511)"
-    //@ obligation C09 C09.translate_page_4kib.shape_p4_absent.no_frames_requested_or_zeroed tier=thorough bounded="pool of 7 tables (4 path + 3 allocatable); tree-shaped sparse pre-state (target path, one neighbour word per path table, garbage in allocatable frames); page-table indices (511,511,511,511)"
+    //@ obligation C01 C01.translate_page_4kib.shape_p4_absent.agrees_with_walk tier=thorough bounded="pool of 7 tables (4 path + 3 allocatable); tree-shaped sparse pre-state (target path, one neighbour word per path table, garbage in allocatable frames); page-table indices (511,510,1,0)"
+    //@ obligation C02 C02.translate_page_4kib.shape_p4_absent.documented_outcome tier=thorough bounded="pool of 7 tables (4 path + 3 allocatable); tree-shaped sparse pre-state (target path, one neighbour word per path table, garbage in allocatable frames); page-table indices (511,510,1,0)"
+    //@ obligation C09 C09.translate_page_4kib.shape_p4_absent.writes_nothing tier=thorough bounded="pool of 7 tables (4 path + 3 allocatable); tree-shaped sparse pre-state (target path, one neighbour word per path table, garbage in allocatable frames); page-table indices (511,510,1,0)"
+    //@ obligation C09 C09.translate_page_4kib.shape_p4_absent.no_frames_requested_or_zeroed tier=thorough bounded="pool of 7 tables (4 path + 3 allocatable); tree-shaped sparse pre-state (target path, one neighbour word per path table, garbage in allocatable frames); page-table indices (511,510,1,0)"
+    //@ obligation C09 C09.translate_page_4kib.shape_p4_absent.no_access_outside_page_tables tier=thorough bounded="pool of 7 tables (4 path + 3 allocatable); tree-shaped sparse pre-state (target path, one neighbour word per path table, garbage in allocatable frames); page-table indices (511,510,1,0)"
     #[kani::proof]
     #[kani::stub(PageTable::zero, zero_stub)]
     fn c01_translate_page_4kib_p4_absent_hi() {
@@ -148,10 +165,11 @@ mod verif_c01_step_read {
         kani::cover!(true, "c01_translate_page_4kib_p4_absent_hi: reachable");
     }
 
-    //@ obligation C01 C01.translate_page_4kib.shape_p4_absent.agrees_with_walk tier=thorough bounded="pool of 7 tables (4 path + 3 allocatable); tree-shaped sparse pre-state (target path, one neighbour word per path table, garbage in allocatable frames); page-table indices (255,511,0,1)"
-    //@ obligation C02 C02.translate_page_4kib.shape_p4_absent.documented_outcome tier=thorough bounded="pool of 7 tables (4 path + 3 allocatable); tree-shaped sparse pre-state (target path, one neighbour word per path table, garbage in allocatable frames); page-table indices (255,511,0,1)"
-    //@ obligation C09 C09.translate_page_4kib.shape_p4_absent.writes_nothing tier=thorough bounded="pool of 7 tables (4 path + 3 allocatable); tree-shaped sparse pre-state (target path, one neighbour word per path table, garbage in allocatable frames); page-table indices (255,511,0,1)"
-    //@ obligation C09 C09.translate_page_4kib.shape_p4_absent.no_frames_requested_or_zeroed tier=thorough bounded="pool of 7 tables (4 path + 3 allocatable); tree-shaped sparse pre-state (target path, one neighbour word per path table, garbage in allocatable frames); page-table indices (255,511,0,1)"
+    //@ obligation C01 C01.translate_page_4kib.shape_p4_absent.agrees_with_walk tier=thorough bounded="pool of 7 tables (4 path + 3 allocatable); tree-shaped sparse pre-state (target path, one neighbour word per path table, garbage in allocatable frames); page-table indices (255,511,0,256)"
+    //@ obligation C02 C02.translate_page_4kib.shape_p4_absent.documented_outcome tier=thorough bounded="pool of 7 tables (4 path + 3 allocatable); tree-shaped sparse pre-state (target path, one neighbour word per path table, garbage in allocatable frames); page-table indices (255,511,0,256)"
+    //@ obligation C09 C09.translate_page_4kib.shape_p4_absent.writes_nothing tier=thorough bounded="pool of 7 tables (4 path + 3 allocatable); tree-shaped sparse pre-state (target path, one neighbour word per path table, garbage in allocatable frames); page-table indices (255,511,0,256)"
+    //@ obligation C09 C09.translate_page_4kib.shape_p4_absent.no_frames_requested_or_zeroed tier=thorough bounded="pool of 7 tables (4 path + 3 allocatable); tree-shaped sparse pre-state (target path, one neighbour word per path table, garbage in allocatable frames); page-table indices (255,511,0,256)"
+    //@ obligation C09 C09.translate_page_4kib.shape_p4_absent.no_access_outside_page_tables tier=thorough bounded="pool of 7 tables (4 path + 3 allocatable); tree-shaped sparse pre-state (target path, one neighbour word per path table, garbage in allocatable frames); page-table indices (255,511,0,256)"
     #[kani::proof]
     #[kani::stub(PageTable::zero, zero_stub)]
     fn c01_translate_page_4kib_p4_absent_mid() {
@@ -159,10 +177,11 @@ mod verif_c01_step_read {
         kani::cover!(true, "c01_translate_page_4kib_p4_absent_mid: reachable");
     }
 
-    //@ obligation C01 C01.translate_page_4kib.shape_p4_absent.agrees_with_walk tier=thorough bounded="pool of 7 tables (4 path + 3 allocatable); tree-shaped sparse pre-state (target path, one neighbour word per path table, garbage in allocatable frames); page-table indices (256,1,510,255)"
-    //@ obligation C02 C02.translate_page_4kib.shape_p4_absent.documented_outcome tier=thorough bounded="pool of 7 tables (4 path + 3 allocatable); tree-shaped sparse pre-state (target path, one neighbour word per path table, garbage in allocatable frames); page-table indices (256,1,510,255)"
-    //@ obligation C09 C09.translate_page_4kib.shape_p4_absent.writes_nothing tier=thorough bounded="pool of 7 tables (4 path + 3 allocatable); tree-shaped sparse pre-state (target path, one neighbour word per path table, garbage in allocatable frames); page-table indices (256,1,510,255)"
-    //@ obligation C09 C09.translate_page_4kib.shape_p4_absent.no_frames_requested_or_zeroed tier=thorough bounded="pool of 7 tables (4 path + 3 allocatable); tree-shaped sparse pre-state (target path, one neighbour word per path table, garbage in allocatable frames); page-table indices (256,1,510,255)"
+    //@ obligation C01 C01.translate_page_4kib.shape_p4_absent.agrees_with_walk tier=thorough bounded="pool of 7 tables (4 path + 3 allocatable); tree-shaped sparse pre-state (target path, one neighbour word per path table, garbage in allocatable frames); page-table indices (256,0,510,511)"
+    //@ obligation C02 C02.translate_page_4kib.shape_p4_absent.documented_outcome tier=thorough bounded="pool of 7 tables (4 path + 3 allocatable); tree-shaped sparse pre-state (target path, one neighbour word per path table, garbage in allocatable frames); page-table indices (256,0,510,511)"
+    //@ obligation C09 C09.translate_page_4kib.shape_p4_absent.writes_nothing tier=thorough bounded="pool of 7 tables (4 path + 3 allocatable); tree-shaped sparse pre-state (target path, one neighbour word per path table, garbage in allocatable frames); page-table indices (256,0,510,511)"
+    //@ obligation C09 C09.translate_page_4kib.shape_p4_absent.no_frames_requested_or_zeroed tier=thorough bounded="pool of 7 tables (4 path + 3 allocatable); tree-shaped sparse pre-state (target path, one neighbour word per path table, garbage in allocatable frames); page-table indices (256,0,510,511)"
+    //@ obligation C09 C09.translate_page_4kib.shape_p4_absent.no_access_outside_page_tables tier=thorough bounded="pool of 7 tables (4 path + 3 allocatable); tree-shaped sparse pre-state (target path, one neighbour word per path table, garbage in allocatable frames); page-table indices (256,0,510,511)"
     #[kani::proof]
     #[kani::stub(PageTable::zero, zero_stub)]
     fn c01_translate_page_4kib_p4_absent_up() {
@@ -170,10 +189,11 @@ mod verif_c01_step_read {
         kani::cover!(true, "c01_translate_page_4kib_p4_absent_up: reachable");
     }
 
-    //@ obligation C01 C01.translate_page_4kib.shape_p3_absent.agrees_with_walk tier=thorough bounded="pool of 7 tables (4 path + 3 allocatable); tree-shaped sparse pre-state (target path, one neighbour word per path table, garbage in allocatable frames); page-table indices (0,0,0,0)"
-    //@ obligation C02 C02.translate_page_4kib.shape_p3_absent.documented_outcome tier=thorough bounded="pool of 7 tables (4 path + 3 allocatable); tree-shaped sparse pre-state (target path, one neighbour word per path table, garbage in allocatable frames); page-table indices (0,0,0,0)"
-    //@ obligation C09 C09.translate_page_4kib.shape_p3_absent.writes_nothing tier=thorough bounded="pool of 7 tables (4 path + 3 allocatable); tree-shaped sparse pre-state (target path, one neighbour word per path table, garbage in allocatable frames); page-table indices (0,0,0,0)"
-    //@ obligation C09 C09.translate_page_4kib.shape_p3_absent.no_frames_requested_or_zeroed tier=thorough bounded="pool of 7 tables (4 path + 3 allocatable); tree-shaped sparse pre-state (target path, one neighbour word per path table, garbage in allocatable frames); page-table indices (0,0,0,0)"
+    //@ obligation C01 C01.translate_page_4kib.shape_p3_absent.agrees_with_walk tier=thorough bounded="pool of 7 tables (4 path + 3 allocatable); tree-shaped sparse pre-state (target path, one neighbour word per path table, garbage in allocatable frames); page-table indices (0,1,511,2)"
+    //@ obligation C02 C02.translate_page_4kib.shape_p3_absent.documented_outcome tier=thorough bounded="pool of 7 tables (4 path + 3 allocatable); tree-shaped sparse pre-state (target path, one neighbour word per path table, garbage in allocatable frames); page-table indices (0,1,511,2)"
+    //@ obligation C09 C09.translate_page_4kib.shape_p3_absent.writes_nothing tier=thorough bounded="pool of 7 tables (4 path + 3 allocatable); tree-shaped sparse pre-state (target path, one neighbour word per path table, garbage in allocatable frames); page-table indices (0,1,511,2)"
+    //@ obligation C09 C09.translate_page_4kib.shape_p3_absent.no_frames_requested_or_zeroed tier=thorough bounded="pool of 7 tables (4 path + 3 allocatable); tree-shaped sparse pre-state (target path, one neighbour word per path table, garbage in allocatable frames); page-table indices (0,1,511,2)"
+    //@ obligation C09 C09.translate_page_4kib.shape_p3_absent.no_access_outside_page_tables tier=thorough bounded="pool of 7 tables (4 path + 3 allocatable); tree-shaped sparse pre-state (target path, one neighbour word per path table, garbage in allocatable frames); page-table indices (0,1,511,2)"
     #[kani::proof]
     #[kani::stub(PageTable::zero, zero_stub)]
     fn c01_translate_page_4kib_p3_absent_lo() {
@@ -181,10 +201,11 @@ mod verif_c01_step_read {
         kani::cover!(true, "c01_translate_page_4kib_p3_absent_lo: reachable");
     }
 
-    //@ obligation C01 C01.translate_page_4kib.shape_p3_absent.agrees_with_walk tier=thorough bounded="pool of 7 tables (4 path + 3 allocatable); tree-shaped sparse pre-state (target path, one neighbour word per path table, garbage in allocatable frames); page-table indices (511,511,511,511)"
-    //@ obligation C02 C02.translate_page_4kib.shape_p3_absent.documented_outcome tier=thorough bounded="pool of 7 tables (4 path + 3 allocatable); tree-shaped sparse pre-state (target path, one neighbour word per path table, garbage in allocatable frames); page-table indices (511,511,511,511)"
-    //@ obligation C09 C09.translate_page_4kib.shape_p3_absent.writes_nothing tier=thorough bounded="pool of 7 tables (4 path + 3 allocatable); tree-shaped sparse pre-state (target path, one neighbour word per path table, garbage in allocatable frames); page-table indices (511,511,511,511)"
-    //@ obligation C09 C09.translate_page_4kib.shape_p3_absent.no_frames_requested_or_zeroed tier=thorough bounded="pool of 7 tables (4 path + 3 allocatable); tree-shaped sparse pre-state (target path, one neighbour word per path table, garbage in allocatable frames); page-table indices (511,511,511,511)"
+    //@ obligation C01 C01.translate_page_4kib.shape_p3_absent.agrees_with_walk tier=thorough bounded="pool of 7 tables (4 path + 3 allocatable); tree-shaped sparse pre-state (target path, one neighbour word per path table, garbage in allocatable frames); page-table indices (511,510,1,0)"
+    //@ obligation C02 C02.translate_page_4kib.shape_p3_absent.documented_outcome tier=thorough bounded="pool of 7 tables (4 path + 3 allocatable); tree-shaped sparse pre-state (target path, one neighbour word per path table, garbage in allocatable frames); page-table indices (511,510,1,0)"
+    //@ obligation C09 C09.translate_page_4kib.shape_p3_absent.writes_nothing tier=thorough bounded="pool of 7 tables (4 path + 3 allocatable); tree-shaped sparse pre-state (target path, one neighbour word per path table, garbage in allocatable frames); page-table indices (511,510,1,0)"
+    //@ obligation C09 C09.translate_page_4kib.shape_p3_absent.no_frames_requested_or_zeroed tier=thorough bounded="pool of 7 tables (4 path + 3 allocatable); tree-shaped sparse pre-state (target path, one neighbour word per path table, garbage in allocatable frames); page-table indices (511,510,1,0)"
+    //@ obligation C09 C09.translate_page_4kib.shape_p3_absent.no_access_outside_page_tables tier=thorough bounded="pool of 7 tables (4 path + 3 allocatable); tree-shaped sparse pre-state (target path, one neighbour word per path table, garbage in allocatable frames); page-table indices (511,510,1,0)"
     #[kani::proof]
     #[kani::stub(PageTable::zero, zero_stub)]
     fn c01_translate_page_4kib_p3_absent_hi() {
@@ -192,10 +213,11 @@ mod verif_c01_step_read {
         kani::cover!(true, "c01_translate_page_4kib_p3_absent_hi: reachable");
     }
 
-    //@ obligation C01 C01.translate_page_4kib.shape_p3_absent.agrees_with_walk tier=thorough bounded="pool of 7 tables (4 path + 3 allocatable); tree-shaped sparse pre-state (target path, one neighbour word per path table, garbage in allocatable frames); page-table indices (255,511,0,1)"
-    //@ obligation C02 C02.translate_page_4kib.shape_p3_absent.documented_outcome tier=thorough bounded="pool of 7 tables (4 path + 3 allocatable); tree-shaped sparse pre-state (target path, one neighbour word per path table, garbage in allocatable frames); page-table indices (255,511,0,1)"
-    //@ obligation C09 C09.translate_page_4kib.shape_p3_absent.writes_nothing tier=thorough bounded="pool of 7 tables (4 path + 3 allocatable); tree-shaped sparse pre-state (target path, one neighbour word per path table, garbage in allocatable frames); page-table indices (255,511,0,1)"
-    //@ obligation C09 C09.translate_page_4kib.shape_p3_absent.no_frames_requested_or_zeroed tier=thorough bounded="pool of 7 tables (4 path + 3 allocatable); tree-shaped sparse pre-state (target path, one neighbour word per path table, garbage in allocatable frames); page-table indices (255,511,0,1)"
+    //@ obligation C01 C01.translate_page_4kib.shape_p3_absent.agrees_with_walk tier=thorough bounded="pool of 7 tables (4 path + 3 allocatable); tree-shaped sparse pre-state (target path, one neighbour word per path table, garbage in allocatable frames); page-table indices (255,511,0,256)"
+    //@ obligation C02 C02.translate_page_4kib.shape_p3_absent.documented_outcome tier=thorough bounded="pool of 7 tables (4 path + 3 allocatable); tree-shaped sparse pre-state (target path, one neighbour word per path table, garbage in allocatable frames); page-table indices (255,511,0,256)"
+    //@ obligation C09 C09.translate_page_4kib.shape_p3_absent.writes_nothing tier=thorough bounded="pool of 7 tables (4 path + 3 allocatable); tree-shaped sparse pre-state (target path, one neighbour word per path table, garbage in allocatable frames); page-table indices (255,511,0,256)"
+    //@ obligation C09 C09.translate_page_4kib.shape_p3_absent.no_frames_requested_or_zeroed tier=thorough bounded="pool of 7 tables (4 path + 3 allocatable); tree-shaped sparse pre-state (target path, one neighbour word per path table, garbage in allocatable frames); page-table indices (255,511,0,256)"
+    //@ obligation C09 C09.translate_page_4kib.shape_p3_absent.no_access_outside_page_tables tier=thorough bounded="pool of 7 tables (4 path + 3 allocatable); tree-shaped sparse pre-state (target path, one neighbour word per path table, garbage in allocatable frames); page-table indices (255,511,0,256)"
     #[kani::proof]
     #[kani::stub(PageTable::zero, zero_stub)]
     fn c01_translate_page_4kib_p3_absent_mid() {
@@ -203,10 +225,11 @@ mod verif_c01_step_read {
         kani::cover!(true, "c01_translate_page_4kib_p3_absent_mid: reachable");
     }
 
-    //@ obligation C01 C01.translate_page_4kib.shape_p3_absent.agrees_with_walk tier=thorough bounded="pool of 7 tables (4 path + 3 allocatable); tree-shaped sparse pre-state (target path, one neighbour word per path table, garbage in allocatable frames); page-table indices (256,1,510,255)"
-    //@ obligation C02 C02.translate_page_4kib.shape_p3_absent.documented_outcome tier=thorough bounded="pool of 7 tables (4 path + 3 allocatable); tree-shaped sparse pre-state (target path, one neighbour word per path table, garbage in allocatable frames); page-table indices (256,1,510,255)"
-    //@ obligation C09 C09.translate_page_4kib.shape_p3_absent.writes_nothing tier=thorough bounded="pool of 7 tables (4 path + 3 allocatable); tree-shaped sparse pre-state (target path, one neighbour word per path table, garbage in allocatable frames); page-table indices (256,1,510,255)"
-    //@ obligation C09 C09.translate_page_4kib.shape_p3_absent.no_frames_requested_or_zeroed tier=thorough bounded="pool of 7 tables (4 path + 3 allocatable); tree-shaped sparse pre-state (target path, one neighbour word per path table, garbage in allocatable frames); page-table indices (256,1,510,255)"
+    //@ obligation C01 C01.translate_page_4kib.shape_p3_absent.agrees_with_walk tier=thorough bounded="pool of 7 tables (4 path + 3 allocatable); tree-shaped sparse pre-state (target path, one neighbour word per path table, garbage in allocatable frames); page-table indices (256,0,510,511)"
+    //@ obligation C02 C02.translate_page_4kib.shape_p3_absent.documented_outcome tier=thorough bounded="pool of 7 tables (4 path + 3 allocatable); tree-shaped sparse pre-state (target path, one neighbour word per path table, garbage in allocatable frames); page-table indices (256,0,510,511)"
+    //@ obligation C09 C09.translate_page_4kib.shape_p3_absent.writes_nothing tier=thorough bounded="pool of 7 tables (4 path + 3 allocatable); tree-shaped sparse pre-state (target path, one neighbour word per path table, garbage in allocatable frames); page-table indices (256,0,510,511)"
+    //@ obligation C09 C09.translate_page_4kib.shape_p3_absent.no_frames_requested_or_zeroed tier=thorough bounded="pool of 7 tables (4 path + 3 allocatable); tree-shaped sparse pre-state (target path, one neighbour word per path table, garbage in allocatable frames); page-table indices (256,0,510,511)"
+    //@ obligation C09 C09.translate_page_4kib.shape_p3_absent.no_access_outside_page_tables tier=thorough bounded="pool of 7 tables (4 path + 3 allocatable); tree-shaped sparse pre-state (target path, one neighbour word per path table, garbage in allocatable frames); page-table indices (256,0,510,511)"
     #[kani::proof]
     #[kani::stub(PageTable::zero, zero_stub)]
     fn c01_translate_page_4kib_p3_absent_up() {
@@ -214,10 +237,11 @@ mod verif_c01_step_read {
         kani::cover!(true, "c01_translate_page_4kib_p3_absent_up: reachable");
     }
 
-    //@ obligation C01 C01.translate_page_4kib.shape_p3_huge.agrees_with_walk tier=thorough bounded="pool of 7 tables (4 path + 3 allocatable); tree-shaped sparse pre-state (target path, one neighbour word per path table, garbage in allocatable frames); page-table indices (0,0,0,0)"
-    //@ obligation C02 C02.translate_page_4kib.shape_p3_huge.documented_outcome tier=thorough bounded="pool of 7 tables (4 path + 3 allocatable); tree-shaped sparse pre-state (target path, one neighbour word per path table, garbage in allocatable frames); page-table indices (0,0,0,0)"
-    //@ obligation C09 C09.translate_page_4kib.shape_p3_huge.writes_nothing tier=thorough bounded="pool of 7 tables (4 path + 3 allocatable); tree-shaped sparse pre-state (target path, one neighbour word per path table, garbage in allocatable frames); page-table indices (0,0,0,0)"
-    //@ obligation C09 C09.translate_page_4kib.shape_p3_huge.no_frames_requested_or_zeroed tier=thorough bounded="pool of 7 tables (4 path + 3 allocatable); tree-shaped sparse pre-state (target path, one neighbour word per path table, garbage in allocatable frames); page-table indices (0,0,0,0)"
+    //@ obligation C01 C01.translate_page_4kib.shape_p3_huge.agrees_with_walk tier=thorough bounded="pool of 7 tables (4 path + 3 allocatable); tree-shaped sparse pre-state (target path, one neighbour word per path table, garbage in allocatable frames); page-table indices (0,1,511,2)"
+    //@ obligation C02 C02.translate_page_4kib.shape_p3_huge.documented_outcome tier=thorough bounded="pool of 7 tables (4 path + 3 allocatable); tree-shaped sparse pre-state (target path, one neighbour word per path table, garbage in allocatable frames); page-table indices (0,1,511,2)"
+    //@ obligation C09 C09.translate_page_4kib.shape_p3_huge.writes_nothing tier=thorough bounded="pool of 7 tables (4 path + 3 allocatable); tree-shaped sparse pre-state (target path, one neighbour word per path table, garbage in allocatable frames); page-table indices (0,1,511,2)"
+    //@ obligation C09 C09.translate_page_4kib.shape_p3_huge.no_frames_requested_or_zeroed tier=thorough bounded="pool of 7 tables (4 path + 3 allocatable); tree-shaped sparse pre-state (target path, one neighbour word per path table, garbage in allocatable frames); page-table indices (0,1,511,2)"
+    //@ obligation C09 C09.translate_page_4kib.shape_p3_huge.no_access_outside_page_tables tier=thorough bounded="pool of 7 tables (4 path + 3 allocatable); tree-shaped sparse pre-state (target path, one neighbour word per path table, garbage in allocatable frames); page-table indices (0,1,511,2)"
     #[kani::proof]
     #[kani::stub(PageTable::zero, zero_stub)]
     fn c01_translate_page_4kib_p3_huge_lo() {
@@ -225,10 +249,11 @@ mod verif_c01_step_read {
         kani::cover!(true, "c01_translate_page_4kib_p3_huge_lo: reachable");
     }
 
-    //@ obligation C01 C01.translate_page_4kib.shape_p3_huge.agrees_with_walk tier=thorough bounded="pool of 7 tables (4 path + 3 allocatable); tree-shaped sparse pre-state (target path, one neighbour word per path table, garbage in allocatable frames); page-table indices (511,511,511,511)"
-    //@ obligation C02 C02.translate_page_4kib.shape_p3_huge.documented_outcome tier=thorough bounded="pool of 7 tables (4 path + 3 allocatable); tree-shaped sparse pre-state (target path, one neighbour word per path table, garbage in allocatable frames); page-table indices (511,511,511,511)"
-    //@ obligation C09 C09.translate_page_4kib.shape_p3_huge.writes_nothing tier=thorough bounded="pool of 7 tables (4 path + 3 allocatable); tree-shaped sparse pre-state (target path, one neighbour word per path table, garbage in allocatable frames); page-table indices (511,511,511,511)"
-    //@ obligation C09 C09.translate_page_4kib.shape_p3_huge.no_frames_requested_or_zeroed tier=thorough bounded="pool of 7 tables (4 path + 3 allocatable); tree-shaped sparse pre-state (target path, one neighbour word per path table, garbage in allocatable frames); page-table indices (511,511,511,511)"
+    //@ obligation C01 C01.translate_page_4kib.shape_p3_huge.agrees_with_walk tier=thorough bounded="pool of 7 tables (4 path + 3 allocatable); tree-shaped sparse pre-state (target path, one neighbour word per path table, garbage in allocatable frames); page-table indices (511,510,1,0)"
+    //@ obligation C02 C02.translate_page_4kib.shape_p3_huge.documented_outcome tier=thorough bounded="pool of 7 tables (4 path + 3 allocatable); tree-shaped sparse pre-state (target path, one neighbour word per path table, garbage in allocatable frames); page-table indices (511,510,1,0)"
+    //@ obligation C09 C09.translate_page_4kib.shape_p3_huge.writes_nothing tier=thorough bounded="pool of 7 tables (4 path + 3 allocatable); tree-shaped sparse pre-state (target path, one neighbour word per path table, garbage in allocatable frames); page-table indices (511,510,1,0)"
+    //@ obligation C09 C09.translate_page_4kib.shape_p3_huge.no_frames_requested_or_zeroed tier=thorough bounded="pool of 7 tables (4 path + 3 allocatable); tree-shaped sparse pre-state (target path, one neighbour word per path table, garbage in allocatable frames); page-table indices (511,510,1,0)"
+    //@ obligation C09 C09.translate_page_4kib.shape_p3_huge.no_access_outside_page_tables tier=thorough bounded="pool of 7 tables (4 path + 3 allocatable); tree-shaped sparse pre-state (target path, one neighbour word per path table, garbage in allocatable frames); page-table indices (511,510,1,0)"
     #[kani::proof]
     #[kani::stub(PageTable::zero, zero_stub)]
     fn c01_translate_page_4kib_p3_huge_hi() {
@@ -236,10 +261,11 @@ mod verif_c01_step_read {
         kani::cover!(true, "c01_translate_page_4kib_p3_huge_hi: reachable");
     }
 
-    //@ obligation C01 C01.translate_page_4kib.shape_p3_huge.agrees_with_walk tier=thorough bounded="pool of 7 tables (4 path + 3 allocatable); tree-shaped sparse pre-state (target path, one neighbour word per path table, garbage in allocatable frames); page-table indices (255,511,0,1)"
-    //@ obligation C02 C02.translate_page_4kib.shape_p3_huge.documented_outcome tier=thorough bounded="pool of 7 tables (4 path + 3 allocatable); tree-shaped sparse pre-state (target path, one neighbour word per path table, garbage in allocatable frames); page-table indices (255,511,0,1)"
-    //@ obligation C09 C09.translate_page_4kib.shape_p3_huge.writes_nothing tier=thorough bounded="pool of 7 tables (4 path + 3 allocatable); tree-shaped sparse pre-state (target path, one neighbour word per path table, garbage in allocatable frames); page-table indices (255,511,0,1)"
-    //@ obligation C09 C09.translate_page_4kib.shape_p3_huge.no_frames_requested_or_zeroed tier=thorough bounded="pool of 7 tables (4 path + 3 allocatable); tree-shaped sparse pre-state (target path, one neighbour word per path table, garbage in allocatable frames); page-table indices (255,511,0,1)"
+    //@ obligation C01 C01.translate_page_4kib.shape_p3_huge.agrees_with_walk tier=thorough bounded="pool of 7 tables (4 path + 3 allocatable); tree-shaped sparse pre-state (target path, one neighbour word per path table, garbage in allocatable frames); page-table indices (255,511,0,256)"
+    //@ obligation C02 C02.translate_page_4kib.shape_p3_huge.documented_outcome tier=thorough bounded="pool of 7 tables (4 path + 3 allocatable); tree-shaped sparse pre-state (target path, one neighbour word per path table, garbage in allocatable frames); page-table indices (255,511,0,256)"
+    //@ obligation C09 C09.translate_page_4kib.shape_p3_huge.writes_nothing tier=thorough bounded="pool of 7 tables (4 path + 3 allocatable); tree-shaped sparse pre-state (target path, one neighbour word per path table, garbage in allocatable frames); page-table indices (255,511,0,256)"
+    //@ obligation C09 C09.translate_page_4kib.shape_p3_huge.no_frames_requested_or_zeroed tier=thorough bounded="pool of 7 tables (4 path + 3 allocatable); tree-shaped sparse pre-state (target path, one neighbour word per path table, garbage in allocatable frames); page-table indices (255,511,0,256)"
+    //@ obligation C09 C09.translate_page_4kib.shape_p3_huge.no_access_outside_page_tables tier=thorough bounded="pool of 7 tables (4 path + 3 allocatable); tree-shaped sparse pre-state (target path, one neighbour word per path table, garbage in allocatable frames); page-table indices (255,511,0,256)"
     #[kani::proof]
     #[kani::stub(PageTable::zero, zero_stub)]
     fn c01_translate_page_4kib_p3_huge_mid() {
@@ -247,10 +273,11 @@ mod verif_c01_step_read {
         kani::cover!(true, "c01_translate_page_4kib_p3_huge_mid: reachable");
     }
 
-    //@ obligation C01 C01.translate_page_4kib.shape_p3_huge.agrees_with_walk tier=thorough bounded="pool of 7 tables (4 path + 3 allocatable); tree-shaped sparse pre-state (target path, one neighbour word per path table, garbage in allocatable frames); page-table indices (256,1,510,255)"
-    //@ obligation C02 C02.translate_page_4kib.shape_p3_huge.documented_outcome tier=thorough bounded="pool of 7 tables (4 path + 3 allocatable); tree-shaped sparse pre-state (target path, one neighbour word per path table, garbage in allocatable frames); page-table indices (256,1,510,255)"
-    //@ obligation C09 C09.translate_page_4kib.shape_p3_huge.writes_nothing tier=thorough bounded="pool of 7 tables (4 path + 3 allocatable); tree-shaped sparse pre-state (target path, one neighbour word per path table, garbage in allocatable frames); page-table indices (256,1,510,255)"
-    //@ obligation C09 C09.translate_page_4kib.shape_p3_huge.no_frames_requested_or_zeroed tier=thorough bounded="pool of 7 tables (4 path + 3 allocatable); tree-shaped sparse pre-state (target path, one neighbour word per path table, garbage in allocatable frames); page-table indices (256,1,510,255)"
+    //@ obligation C01 C01.translate_page_4kib.shape_p3_huge.agrees_with_walk tier=thorough bounded="pool of 7 tables (4 path + 3 allocatable); tree-shaped sparse pre-state (target path, one neighbour word per path table, garbage in allocatable frames); page-table indices (256,0,510,511)"
+    //@ obligation C02 C02.translate_page_4kib.shape_p3_huge.documented_outcome tier=thorough bounded="pool of 7 tables (4 path + 3 allocatable); tree-shaped sparse pre-state (target path, one neighbour word per path table, garbage in allocatable frames); page-table indices (256,0,510,511)"
+    //@ obligation C09 C09.translate_page_4kib.shape_p3_huge.writes_nothing tier=thorough bounded="pool of 7 tables (4 path + 3 allocatable); tree-shaped sparse pre-state (target path, one neighbour word per path table, garbage in allocatable frames); page-table indices (256,0,510,511)"
+    //@ obligation C09 C09.translate_page_4kib.shape_p3_huge.no_frames_requested_or_zeroed tier=thorough bounded="pool of 7 tables (4 path + 3 allocatable); tree-shaped sparse pre-state (target path, one neighbour word per path table, garbage in allocatable frames); page-table indices (256,0,510,511)"
+    //@ obligation C09 C09.translate_page_4kib.shape_p3_huge.no_access_outside_page_tables tier=thorough bounded="pool of 7 tables (4 path + 3 allocatable); tree-shaped sparse pre-state (target path, one neighbour word per path table, garbage in allocatable frames); page-table indices (256,0,510,511)"
     #[kani::proof]
     #[kani::stub(PageTable::zero, zero_stub)]
     fn c01_translate_page_4kib_p3_huge_up() {
@@ -258,10 +285,11 @@ mod verif_c01_step_read {
         kani::cover!(true, "c01_translate_page_4kib_p3_huge_up: reachable");
     }
 
-    //@ obligation C01 C01.translate_page_4kib.shape_p2_absent.agrees_with_walk tier=thorough bounded="pool of 7 tables (4 path + 3 allocatable); tree-shaped sparse pre-state (target path, one neighbour word per path table, garbage in allocatable frames); page-table indices (0,0,0,0)"
-    //@ obligation C02 C02.translate_page_4kib.shape_p2_absent.documented_outcome tier=thorough bounded="pool of 7 tables (4 path + 3 allocatable); tree-shaped sparse pre-state (target path, one neighbour word per path table, garbage in allocatable frames); page-table indices (0,0,0,0)"
-    //@ obligation C09 C09.translate_page_4kib.shape_p2_absent.writes_nothing tier=thorough bounded="pool of 7 tables (4 path + 3 allocatable); tree-shaped sparse pre-state (target path, one neighbour word per path table, garbage in allocatable frames); page-table indices (0,0,0,0)"
-    //@ obligation C09 C09.translate_page_4kib.shape_p2_absent.no_frames_requested_or_zeroed tier=thorough bounded="pool of 7 tables (4 path + 3 allocatable); tree-shaped sparse pre-state (target path, one neighbour word per path table, garbage in allocatable frames); page-table indices (0,0,0,0)"
+    //@ obligation C01 C01.translate_page_4kib.shape_p2_absent.agrees_with_walk tier=thorough bounded="pool of 7 tables (4 path + 3 allocatable); tree-shaped sparse pre-state (target path, one neighbour word per path table, garbage in allocatable frames); page-table indices (0,1,511,2)"
+    //@ obligation C02 C02.translate_page_4kib.shape_p2_absent.documented_outcome tier=thorough bounded="pool of 7 tables (4 path + 3 allocatable); tree-shaped sparse pre-state (target path, one neighbour word per path table, garbage in allocatable frames); page-table indices (0,1,511,2)"
+    //@ obligation C09 C09.translate_page_4kib.shape_p2_absent.writes_nothing tier=thorough bounded="pool of 7 tables (4 path + 3 allocatable); tree-shaped sparse pre-state (target path, one neighbour word per path table, garbage in allocatable frames); page-table indices (0,1,511,2)"
+    //@ obligation C09 C09.translate_page_4kib.shape_p2_absent.no_frames_requested_or_zeroed tier=thorough bounded="pool of 7 tables (4 path + 3 allocatable); tree-shaped sparse pre-state (target path, one neighbour word per path table, garbage in allocatable frames); page-table indices (0,1,511,2)"
+    //@ obligation C09 C09.translate_page_4kib.shape_p2_absent.no_access_outside_page_tables tier=thorough bounded="pool of 7 tables (4 path + 3 allocatable); tree-shaped sparse pre-state (target path, one neighbour word per path table, garbage in allocatable frames); page-table indices (0,1,511,2)"
     #[kani::proof]
     #[kani::stub(PageTable::zero, zero_stub)]
     fn c01_translate_page_4kib_p2_absent_lo() {
@@ -269,10 +297,11 @@ mod verif_c01_step_read {
         kani::cover!(true, "c01_translate_page_4kib_p2_absent_lo: reachable");
     }
 
-    //@ obligation C01 C01.translate_page_4kib.shape_p2_absent.agrees_with_walk tier=thorough bounded="pool of 7 tables (4 path + 3 allocatable); tree-shaped sparse pre-state (target path, one neighbour word per path table, garbage in allocatable frames); page-table indices (511,511,511,511)"
-    //@ obligation C02 C02.translate_page_4kib.shape_p2_absent.documented_outcome tier=thorough bounded="pool of 7 tables (4 path + 3 allocatable); tree-shaped sparse pre-state (target path, one neighbour word per path table, garbage in allocatable frames); page-table indices (511,511,511,511)"
-    //@ obligation C09 C09.translate_page_4kib.shape_p2_absent.writes_nothing tier=thorough bounded="pool of 7 tables (4 path + 3 allocatable); tree-shaped sparse pre-state (target path, one neighbour word per path table, garbage in allocatable frames); page-table indices (511,511,511,511)"
-    //@ obligation C09 C09.translate_page_4kib.shape_p2_absent.no_frames_requested_or_zeroed tier=thorough bounded="pool of 7 tables (4 path + 3 allocatable); tree-shaped sparse pre-state (target path, one neighbour word per path table, garbage in allocatable frames); page-table indices (511,511,511,511)"
+    //@ obligation C01 C01.translate_page_4kib.shape_p2_absent.agrees_with_walk tier=thorough bounded="pool of 7 tables (4 path + 3 allocatable); tree-shaped sparse pre-state (target path, one neighbour word per path table, garbage in allocatable frames); page-table indices (511,510,1,0)"
+    //@ obligation C02 C02.translate_page_4kib.shape_p2_absent.documented_outcome tier=thorough bounded="pool of 7 tables (4 path + 3 allocatable); tree-shaped sparse pre-state (target path, one neighbour word per path table, garbage in allocatable frames); page-table indices (511,510,1,0)"
+    //@ obligation C09 C09.translate_page_4kib.shape_p2_absent.writes_nothing tier=thorough bounded="pool of 7 tables (4 path + 3 allocatable); tree-shaped sparse pre-state (target path, one neighbour word per path table, garbage in allocatable frames); page-table indices (511,510,1,0)"
+    //@ obligation C09 C09.translate_page_4kib.shape_p2_absent.no_frames_requested_or_zeroed tier=thorough bounded="pool of 7 tables (4 path + 3 allocatable); tree-shaped sparse pre-state (target path, one neighbour word per path table, garbage in allocatable frames); page-table indices (511,510,1,0)"
+    //@ obligation C09 C09.translate_page_4kib.shape_p2_absent.no_access_outside_page_tables tier=thorough bounded="pool of 7 tables (4 path + 3 allocatable); tree-shaped sparse pre-state (target path, one neighbour word per path table, garbage in allocatable frames); page-table indices (511,510,1,0)"
     #[kani::proof]
     #[kani::stub(PageTable::zero, zero_stub)]
     fn c01_translate_page_4kib_p2_absent_hi() {
@@ -280,10 +309,11 @@ mod verif_c01_step_read {
         kani::cover!(true, "c01_translate_page_4kib_p2_absent_hi: reachable");
     }
 
-    //@ obligation C01 C01.translate_page_4kib.shape_p2_absent.agrees_with_walk tier=thorough bounded="pool of 7 tables (4 path + 3 allocatable); tree-shaped sparse pre-state (target path, one neighbour word per path table, garbage in allocatable frames); page-table indices (255,511,0,1)"
-    //@ obligation C02 C02.translate_page_4kib.shape_p2_absent.documented_outcome tier=thorough bounded="pool of 7 tables (4 path + 3 allocatable); tree-shaped sparse pre-state (target path, one neighbour word per path table, garbage in allocatable frames); page-table indices (255,511,0,1)"
-    //@ obligation C09 C09.translate_page_4kib.shape_p2_absent.writes_nothing tier=thorough bounded="pool of 7 tables (4 path + 3 allocatable); tree-shaped sparse pre-state (target path, one neighbour word per path table, garbage in allocatable frames); page-table indices (255,511,0,1)"
-    //@ obligation C09 C09.translate_page_4kib.shape_p2_absent.no_frames_requested_or_zeroed tier=thorough bounded="pool of 7 tables (4 path + 3 allocatable); tree-shaped sparse pre-state (target path, one neighbour word per path table, garbage in allocatable frames); page-table indices (255,511,0,1)"
+    //@ obligation C01 C01.translate_page_4kib.shape_p2_absent.agrees_with_walk tier=thorough bounded="pool of 7 tables (4 path + 3 allocatable); tree-shaped sparse pre-state (target path, one neighbour word per path table, garbage in allocatable frames); page-table indices (255,511,0,256)"
+    //@ obligation C02 C02.translate_page_4kib.shape_p2_absent.documented_outcome tier=thorough bounded="pool of 7 tables (4 path + 3 allocatable); tree-shaped sparse pre-state (target path, one neighbour word per path table, garbage in allocatable frames); page-table indices (255,511,0,256)"
+    //@ obligation C09 C09.translate_page_4kib.shape_p2_absent.writes_nothing tier=thorough bounded="pool of 7 tables (4 path + 3 allocatable); tree-shaped sparse pre-state (target path, one neighbour word per path table, garbage in allocatable frames); page-table indices (255,511,0,256)"
+    //@ obligation C09 C09.translate_page_4kib.shape_p2_absent.no_frames_requested_or_zeroed tier=thorough bounded="pool of 7 tables (4 path + 3 allocatable); tree-shaped sparse pre-state (target path, one neighbour word per path table, garbage in allocatable frames); page-table indices (255,511,0,256)"
+    //@ obligation C09 C09.translate_page_4kib.shape_p2_absent.no_access_outside_page_tables tier=thorough bounded="pool of 7 tables (4 path + 3 allocatable); tree-shaped sparse pre-state (target path, one neighbour word per path table, garbage in allocatable frames); page-table indices (255,511,0,256)"
     #[kani::proof]
     #[kani::stub(PageTable::zero, zero_stub)]
     fn c01_translate_page_4kib_p2_absent_mid() {
@@ -291,10 +321,11 @@ mod verif_c01_step_read {
         kani::cover!(true, "c01_translate_page_4kib_p2_absent_mid: reachable");
     }
 
-    //@ obligation C01 C01.translate_page_4kib.shape_p2_absent.agrees_with_walk tier=thorough bounded="pool of 7 tables (4 path + 3 allocatable); tree-shaped sparse pre-state (target path, one neighbour word per path table, garbage in allocatable frames); page-table indices (256,1,510,255)"
-    //@ obligation C02 C02.translate_page_4kib.shape_p2_absent.documented_outcome tier=thorough bounded="pool of 7 tables (4 path + 3 allocatable); tree-shaped sparse pre-state (target path, one neighbour word per path table, garbage in allocatable frames); page-table indices (256,1,510,255)"
-    //@ obligation C09 C09.translate_page_4kib.shape_p2_absent.writes_nothing tier=thorough bounded="pool of 7 tables (4 path + 3 allocatable); tree-shaped sparse pre-state (target path, one neighbour word per path table, garbage in allocatable frames); page-table indices (256,1,510,255)"
-    //@ obligation C09 C09.translate_page_4kib.shape_p2_absent.no_frames_requested_or_zeroed tier=thorough bounded="pool of 7 tables (4 path + 3 allocatable); tree-shaped sparse pre-state (target path, one neighbour word per path table, garbage in allocatable frames); page-table indices (256,1,510,255)"
+    //@ obligation C01 C01.translate_page_4kib.shape_p2_absent.agrees_with_walk tier=thorough bounded="pool of 7 tables (4 path + 3 allocatable); tree-shaped sparse pre-state (target path, one neighbour word per path table, garbage in allocatable frames); page-table indices (256,0,510,511)"
+    //@ obligation C02 C02.translate_page_4kib.shape_p2_absent.documented_outcome tier=thorough bounded="pool of 7 tables (4 path + 3 allocatable); tree-shaped sparse pre-state (target path, one neighbour word per path table, garbage in allocatable frames); page-table indices (256,0,510,511)"
+    //@ obligation C09 C09.translate_page_4kib.shape_p2_absent.writes_nothing tier=thorough bounded="pool of 7 tables (4 path + 3 allocatable); tree-shaped sparse pre-state (target path, one neighbour word per path table, garbage in allocatable frames); page-table indices (256,0,510,511)"
+    //@ obligation C09 C09.translate_page_4kib.shape_p2_absent.no_frames_requested_or_zeroed tier=thorough bounded="pool of 7 tables (4 path + 3 allocatable); tree-shaped sparse pre-state (target path, one neighbour word per path table, garbage in allocatable frames); page-table indices (256,0,510,511)"
+    //@ obligation C09 C09.translate_page_4kib.shape_p2_absent.no_access_outside_page_tables tier=thorough bounded="pool of 7 tables (4 path + 3 allocatable); tree-shaped sparse pre-state (target path, one neighbour word per path table, garbage in allocatable frames); page-table indices (256,0,510,511)"
     #[kani::proof]
     #[kani::stub(PageTable::zero, zero_stub)]
     fn c01_translate_page_4kib_p2_absent_up() {
@@ -302,10 +333,11 @@ mod verif_c01_step_read {
         kani::cover!(true, "c01_translate_page_4kib_p2_absent_up: reachable");
     }
 
-    //@ obligation C01 C01.translate_page_4kib.shape_p2_huge.agrees_with_walk tier=thorough bounded="pool of 7 tables (4 path + 3 allocatable); tree-shaped sparse pre-state (target path, one neighbour word per path table, garbage in allocatable frames); page-table indices (0,0,0,0)"
-    //@ obligation C02 C02.translate_page_4kib.shape_p2_huge.documented_outcome tier=thorough bounded="pool of 7 tables (4 path + 3 allocatable); tree-shaped sparse pre-state (target path, one neighbour word per path table, garbage in allocatable frames); page-table indices (0,0,0,0)"
-    //@ obligation C09 C09.translate_page_4kib.shape_p2_huge.writes_nothing tier=thorough bounded="pool of 7 tables (4 path + 3 allocatable); tree-shaped sparse pre-state (target path, one neighbour word per path table, garbage in allocatable frames); page-table indices (0,0,0,0)"
-    //@ obligation C09 C09.translate_page_4kib.shape_p2_huge.no_frames_requested_or_zeroed tier=thorough bounded="pool of 7 tables (4 path + 3 allocatable); tree-shaped sparse pre-state (target path, one neighbour word per path table, garbage in allocatable frames); page-table indices (0,0,0,0)"
+    //@ obligation C01 C01.translate_page_4kib.shape_p2_huge.agrees_with_walk tier=thorough bounded="pool of 7 tables (4 path + 3 allocatable); tree-shaped sparse pre-state (target path, one neighbour word per path table, garbage in allocatable frames); page-table indices (0,1,511,2)"
+    //@ obligation C02 C02.translate_page_4kib.shape_p2_huge.documented_outcome tier=thorough bounded="pool of 7 tables (4 path + 3 allocatable); tree-shaped sparse pre-state (target path, one neighbour word per path table, garbage in allocatable frames); page-table indices (0,1,511,2)"
+    //@ obligation C09 C09.translate_page_4kib.shape_p2_huge.writes_nothing tier=thorough bounded="pool of 7 tables (4 path + 3 allocatable); tree-shaped sparse pre-state (target path, one neighbour word per path table, garbage in allocatable frames); page-table indices (0,1,511,2)"
+    //@ obligation C09 C09.translate_page_4kib.shape_p2_huge.no_frames_requested_or_zeroed tier=thorough bounded="pool of 7 tables (4 path + 3 allocatable); tree-shaped sparse pre-state (target path, one neighbour word per path table, garbage in allocatable frames); page-table indices (0,1,511,2)"
+    //@ obligation C09 C09.translate_page_4kib.shape_p2_huge.no_access_outside_page_tables tier=thorough bounded="pool of 7 tables (4 path + 3 allocatable); tree-shaped sparse pre-state (target path, one neighbour word per path table, garbage in allocatable frames); page-table indices (0,1,511,2)"
     #[kani::proof]
     #[kani::stub(PageTable::zero, zero_stub)]
     fn c01_translate_page_4kib_p2_huge_lo() {
@@ -313,10 +345,11 @@ mod verif_c01_step_read {
         kani::cover!(true, "c01_translate_page_4kib_p2_huge_lo: reachable");
     }
 
-    //@ obligation C01 C01.translate_page_4kib.shape_p2_huge.agrees_with_walk tier=thorough bounded="pool of 7 tables (4 path + 3 allocatable); tree-shaped sparse pre-state (target path, one neighbour word per path table, garbage in allocatable frames); page-table indices (511,511,511,511)"
-    //@ obligation C02 C02.translate_page_4kib.shape_p2_huge.documented_outcome tier=thorough bounded="pool of 7 tables (4 path + 3 allocatable); tree-shaped sparse pre-state (target path, one neighbour word per path table, garbage in allocatable frames); page-table indices (511,511,511,511)"
-    //@ obligation C09 C09.translate_page_4kib.shape_p2_huge.writes_nothing tier=thorough bounded="pool of 7 tables (4 path + 3 allocatable); tree-shaped sparse pre-state (target path, one neighbour word per path table, garbage in allocatable frames); page-table indices (511,511,511,511)"
-    //@ obligation C09 C09.translate_page_4kib.shape_p2_huge.no_frames_requested_or_zeroed tier=thorough bounded="pool of 7 tables (4 path + 3 allocatable); tree-shaped sparse pre-state (target path, one neighbour word per path table, garbage in allocatable frames); page-table indices (511,511,511,511)"
+    //@ obligation C01 C01.translate_page_4kib.shape_p2_huge.agrees_with_walk tier=thorough bounded="pool of 7 tables (4 path + 3 allocatable); tree-shaped sparse pre-state (target path, one neighbour word per path table, garbage in allocatable frames); page-table indices (511,510,1,0)"
+    //@ obligation C02 C02.translate_page_4kib.shape_p2_huge.documented_outcome tier=thorough bounded="pool of 7 tables (4 path + 3 allocatable); tree-shaped sparse pre-state (target path, one neighbour word per path table, garbage in allocatable frames); page-table indices (511,510,1,0)"
+    //@ obligation C09 C09.translate_page_4kib.shape_p2_huge.writes_nothing tier=thorough bounded="pool of 7 tables (4 path + 3 allocatable); tree-shaped sparse pre-state (target path, one neighbour word per path table, garbage in allocatable frames); page-table indices (511,510,1,0)"
+    //@ obligation C09 C09.translate_page_4kib.shape_p2_huge.no_frames_requested_or_zeroed tier=thorough bounded="pool of 7 tables (4 path + 3 allocatable); tree-shaped sparse pre-state (target path, one neighbour word per path table, garbage in allocatable frames); page-table indices (511,510,1,0)"
+    //@ obligation C09 C09.translate_page_4kib.shape_p2_huge.no_access_outside_page_tables tier=thorough bounded="pool of 7 tables (4 path + 3 allocatable); tree-shaped sparse pre-state (target path, one neighbour word per path table, garbage in allocatable frames); page-table indices (511,510,1,0)"
     #[kani::proof]
     #[kani::stub(PageTable::zero, zero_stub)]
     fn c01_translate_page_4kib_p2_huge_hi() {
@@ -324,10 +357,11 @@ mod verif_c01_step_read {
         kani::cover!(true, "c01_translate_page_4kib_p2_huge_hi: reachable");
     }
 
-    //@ obligation C01 C01.translate_page_4kib.shape_p2_huge.agrees_with_walk bounded="pool of 7 tables (4 path + 3 allocatable); tree-shaped sparse pre-state (target path, one neighbour word per path table, garbage in allocatable frames); page-table indices (255,511,0,1)"
-    //@ obligation C02 C02.translate_page_4kib.shape_p2_huge.documented_outcome bounded="pool of 7 tables (4 path + 3 allocatable); tree-shaped sparse pre-state (target path, one neighbour word per path table, garbage in allocatable frames); page-table indices (255,511,0,1)"
-    //@ obligation C09 C09.translate_page_4kib.shape_p2_huge.writes_nothing bounded="pool of 7 tables (4 path + 3 allocatable); tree-shaped sparse pre-state (target path, one neighbour word per path table, garbage in allocatable frames); page-table indices (255,511,0,1)"
-    //@ obligation C09 C09.translate_page_4kib.shape_p2_huge.no_frames_requested_or_zeroed bounded="pool of 7 tables (4 path + 3 allocatable); tree-shaped sparse pre-state (target path, one neighbour word per path table, garbage in allocatable frames); page-table indices (255,511,0,1)"
+    //@ obligation C01 C01.translate_page_4kib.shape_p2_huge.agrees_with_walk bounded="pool of 7 tables (4 path + 3 allocatable); tree-shaped sparse pre-state (target path, one neighbour word per path table, garbage in allocatable frames); page-table indices (255,511,0,256)"
+    //@ obligation C02 C02.translate_page_4kib.shape_p2_huge.documented_outcome bounded="pool of 7 tables (4 path + 3 allocatable); tree-shaped sparse pre-state (target path, one neighbour word per path table, garbage in allocatable frames); page-table indices (255,511,0,256)"
+    //@ obligation C09 C09.translate_page_4kib.shape_p2_huge.writes_nothing bounded="pool of 7 tables (4 path + 3 allocatable); tree-shaped sparse pre-state (target path, one neighbour word per path table, garbage in allocatable frames); page-table indices (255,511,0,256)"
+    //@ obligation C09 C09.translate_page_4kib.shape_p2_huge.no_frames_requested_or_zeroed bounded="pool of 7 tables (4 path + 3 allocatable); tree-shaped sparse pre-state (target path, one neighbour word per path table, garbage in allocatable frames); page-table indices (255,511,0,256)"
+    //@ obligation C09 C09.translate_page_4kib.shape_p2_huge.no_access_outside_page_tables bounded="pool of 7 tables (4 path + 3 allocatable); tree-shaped sparse pre-state (target path, one neighbour word per path table, garbage in allocatable frames); page-table indices (255,511,0,256)"
     #[kani::proof]
     #[kani::stub(PageTable::zero, zero_stub)]
     fn c01_translate_page_4kib_p2_huge_mid() {
@@ -335,10 +369,11 @@ mod verif_c01_step_read {
         kani::cover!(true, "c01_translate_page_4kib_p2_huge_mid: reachable");
     }
 
-    //@ obligation C01 C01.translate_page_4kib.shape_p2_huge.agrees_with_walk tier=thorough bounded="pool of 7 tables (4 path + 3 allocatable); tree-shaped sparse pre-state (target path, one neighbour word per path table, garbage in allocatable frames); page-table indices (256,1,510,255)"
-    //@ obligation C02 C02.translate_page_4kib.shape_p2_huge.documented_outcome tier=thorough bounded="pool of 7 tables (4 path + 3 allocatable); tree-shaped sparse pre-state (target path, one neighbour word per path table, garbage in allocatable frames); page-table indices (256,1,510,255)"
-    //@ obligation C09 C09.translate_page_4kib.shape_p2_huge.writes_nothing tier=thorough bounded="pool of 7 tables (4 path + 3 allocatable); tree-shaped sparse pre-state (target path, one neighbour word per path table, garbage in allocatable frames); page-table indices (256,1,510,255)"
-    //@ obligation C09 C09.translate_page_4kib.shape_p2_huge.no_frames_requested_or_zeroed tier=thorough bounded="pool of 7 tables (4 path + 3 allocatable); tree-shaped sparse pre-state (target path, one neighbour word per path table, garbage in allocatable frames); page-table indices (256,1,510,255)"
+    //@ obligation C01 C01.translate_page_4kib.shape_p2_huge.agrees_with_walk tier=thorough bounded="pool of 7 tables (4 path + 3 allocatable); tree-shaped sparse pre-state (target path, one neighbour word per path table, garbage in allocatable frames); page-table indices (256,0,510,511)"
+    //@ obligation C02 C02.translate_page_4kib.shape_p2_huge.documented_outcome tier=thorough bounded="pool of 7 tables (4 path + 3 allocatable); tree-shaped sparse pre-state (target path, one neighbour word per path table, garbage in allocatable frames); page-table indices (256,0,510,511)"
+    //@ obligation C09 C09.translate_page_4kib.shape_p2_huge.writes_nothing tier=thorough bounded="pool of 7 tables (4 path + 3 allocatable); tree-shaped sparse pre-state (target path, one neighbour word per path table, garbage in allocatable frames); page-table indices (256,0,510,511)"
+    //@ obligation C09 C09.translate_page_4kib.shape_p2_huge.no_frames_requested_or_zeroed tier=thorough bounded="pool of 7 tables (4 path + 3 allocatable); tree-shaped sparse pre-state (target path, one neighbour word per path table, garbage in allocatable frames); page-table indices (256,0,510,511)"
+    //@ obligation C09 C09.translate_page_4kib.shape_p2_huge.no_access_outside_page_tables tier=thorough bounded="pool of 7 tables (4 path + 3 allocatable); tree-shaped sparse pre-state (target path, one neighbour word per path table, garbage in allocatable frames); page-table indices (256,0,510,511)"
     #[kani::proof]
     #[kani::stub(PageTable::zero, zero_stub)]
     fn c01_translate_page_4kib_p2_huge_up() {
@@ -346,10 +381,11 @@ mod verif_c01_step_read {
         kani::cover!(true, "c01_translate_page_4kib_p2_huge_up: reachable");
     }
 
-    //@ obligation C01 C01.translate_page_4kib.shape_p1_absent.agrees_with_walk tier=thorough bounded="pool of 7 tables (4 path + 3 allocatable); tree-shaped sparse pre-state (target path, one neighbour word per path table, garbage in allocatable frames); page-table indices (0,0,0,0)"
-    //@ obligation C02 C02.translate_page_4kib.shape_p1_absent.documented_outcome tier=thorough bounded="pool of 7 tables (4 path + 3 allocatable); tree-shaped sparse pre-state (target path, one neighbour word per path table, garbage in allocatable frames); page-table indices (0,0,0,0)"
-    //@ obligation C09 C09.translate_page_4kib.shape_p1_absent.writes_nothing tier=thorough bounded="pool of 7 tables (4 path + 3 allocatable); tree-shaped sparse pre-state (target path, one neighbour word per path table, garbage in allocatable frames); page-table indices (0,0,0,0)"
-    //@ obligation C09 C09.translate_page_4kib.shape_p1_absent.no_frames_requested_or_zeroed tier=thorough bounded="pool of 7 tables (4 path + 3 allocatable); tree-shaped sparse pre-state (target path, one neighbour word per path table, garbage in allocatable frames); page-table indices (0,0,0,0)"
+    //@ obligation C01 C01.translate_page_4kib.shape_p1_absent.agrees_with_walk tier=thorough bounded="pool of 7 tables (4 path + 3 allocatable); tree-shaped sparse pre-state (target path, one neighbour word per path table, garbage in allocatable frames); page-table indices (0,1,511,2)"
+    //@ obligation C02 C02.translate_page_4kib.shape_p1_absent.documented_outcome tier=thorough bounded="pool of 7 tables (4 path + 3 allocatable); tree-shaped sparse pre-state (target path, one neighbour word per path table, garbage in allocatable frames); page-table indices (0,1,511,2)"
+    //@ obligation C09 C09.translate_page_4kib.shape_p1_absent.writes_nothing tier=thorough bounded="pool of 7 tables (4 path + 3 allocatable); tree-shaped sparse pre-state (target path, one neighbour word per path table, garbage in allocatable frames); page-table indices (0,1,511,2)"
+    //@ obligation C09 C09.translate_page_4kib.shape_p1_absent.no_frames_requested_or_zeroed tier=thorough bounded="pool of 7 tables (4 path + 3 allocatable); tree-shaped sparse pre-state (target path, one neighbour word per path table, garbage in allocatable frames); page-table indices (0,1,511,2)"
+    //@ obligation C09 C09.translate_page_4kib.shape_p1_absent.no_access_outside_page_tables tier=thorough bounded="pool of 7 tables (4 path + 3 allocatable); tree-shaped sparse pre-state (target path, one neighbour word per path table, garbage in allocatable frames); page-table indices (0,1,511,2)"
     #[kani::proof]
     #[kani::stub(PageTable::zero, zero_stub)]
     fn c01_translate_page_4kib_p1_absent_lo() {
@@ -357,10 +393,11 @@ mod verif_c01_step_read {
         kani::cover!(true, "c01_translate_page_4kib_p1_absent_lo: reachable");
     }
 
-    //@ obligation C01 C01.translate_page_4kib.shape_p1_absent.agrees_with_walk tier=thorough bounded="pool of 7 tables (4 path + 3 allocatable); tree-shaped sparse pre-state (target path, one neighbour word per path table, garbage in allocatable frames); page-table indices (511,511,511,511)"
-    //@ obligation C02 C02.translate_page_4kib.shape_p1_absent.documented_outcome tier=thorough bounded="pool of 7 tables (4 path + 3 allocatable); tree-shaped sparse pre-state (target path, one neighbour word per path table, garbage in allocatable frames); page-table indices (511,511,511,511)"
-    //@ obligation C09 C09.translate_page_4kib.shape_p1_absent.writes_nothing tier=thorough bounded="pool of 7 tables (4 path + 3 allocatable); tree-shaped sparse pre-state (target path, one neighbour word per path table, garbage in allocatable frames); page-table indices (511,511,511,511)"
-    //@ obligation C09 C09.translate_page_4kib.shape_p1_absent.no_frames_requested_or_zeroed tier=thorough bounded="pool of 7 tables (4 path + 3 allocatable); tree-shaped sparse pre-state (target path, one neighbour word per path table, garbage in allocatable frames); page-table indices (511,511,511,511)"
+    //@ obligation C01 C01.translate_page_4kib.shape_p1_absent.agrees_with_walk tier=thorough bounded="pool of 7 tables (4 path + 3 allocatable); tree-shaped sparse pre-state (target path, one neighbour word per path table, garbage in allocatable frames); page-table indices (511,510,1,0)"
+    //@ obligation C02 C02.translate_page_4kib.shape_p1_absent.documented_outcome tier=thorough bounded="pool of 7 tables (4 path + 3 allocatable); tree-shaped sparse pre-state (target path, one neighbour word per path table, garbage in allocatable frames); page-table indices (511,510,1,0)"
+    //@ obligation C09 C09.translate_page_4kib.shape_p1_absent.writes_nothing tier=thorough bounded="pool of 7 tables (4 path + 3 allocatable); tree-shaped sparse pre-state (target path, one neighbour word per path table, garbage in allocatable frames); page-table indices (511,510,1,0)"
+    //@ obligation C09 C09.translate_page_4kib.shape_p1_absent.no_frames_requested_or_zeroed tier=thorough bounded="pool of 7 tables (4 path + 3 allocatable); tree-shaped sparse pre-state (target path, one neighbour word per path table, garbage in allocatable frames); page-table indices (511,510,1,0)"
+    //@ obligation C09 C09.translate_page_4kib.shape_p1_absent.no_access_outside_page_tables tier=thorough bounded="pool of 7 tables (4 path + 3 allocatable); tree-shaped sparse pre-state (target path, one neighbour word per path table, garbage in allocatable frames); page-table indices (511,510,1,0)"
     #[kani::proof]
     #[kani::stub(PageTable::zero, zero_stub)]
     fn c01_translate_page_4kib_p1_absent_hi() {
@@ -368,10 +405,11 @@ mod verif_c01_step_read {
         kani::cover!(true, "c01_translate_page_4kib_p1_absent_hi: reachable");
     }
 
-    //@ obligation C01 C01.translate_page_4kib.shape_p1_absent.agrees_with_walk bounded="pool of 7 tables (4 path + 3 allocatable); tree-shaped sparse pre-state (target path, one neighbour word per path table, garbage in allocatable frames); page-table indices (255,511,0,1)"
-    //@ obligation C02 C02.translate_page_4kib.shape_p1_absent.documented_outcome bounded="pool of 7 tables (4 path + 3 allocatable); tree-shaped sparse pre-state (target path, one neighbour word per path table, garbage in allocatable frames); page-table indices (255,511,0,1)"
-    //@ obligation C09 C09.translate_page_4kib.shape_p1_absent.writes_nothing bounded="pool of 7 tables (4 path + 3 allocatable); tree-shaped sparse pre-state (target path, one neighbour word per path table, garbage in allocatable frames); page-table indices (255,511,0,1)"
-    //@ obligation C09 C09.translate_page_4kib.shape_p1_absent.no_frames_requested_or_zeroed bounded="pool of 7 tables (4 path + 3 allocatable); tree-shaped sparse pre-state (target path, one neighbour word per path table, garbage in allocatable frames); page-table indices (255,511,0,1)"
+    //@ obligation C01 C01.translate_page_4kib.shape_p1_absent.agrees_with_walk bounded="pool of 7 tables (4 path + 3 allocatable); tree-shaped sparse pre-state (target path, one neighbour word per path table, garbage in allocatable frames); page-table indices (255,511,0,256)"
+    //@ obligation C02 C02.translate_page_4kib.shape_p1_absent.documented_outcome bounded="pool of 7 tables (4 path + 3 allocatable); tree-shaped sparse pre-state (target path, one neighbour word per path table, garbage in allocatable frames); page-table indices (255,511,0,256)"
+    //@ obligation C09 C09.translate_page_4kib.shape_p1_absent.writes_nothing bounded="pool of 7 tables (4 path + 3 allocatable); tree-shaped sparse pre-state (target path, one neighbour word per path table, garbage in allocatable frames); page-table indices (255,511,0,256)"
+    //@ obligation C09 C09.translate_page_4kib.shape_p1_absent.no_frames_requested_or_zeroed bounded="pool of 7 tables (4 path + 3 allocatable); tree-shaped sparse pre-state (target path, one neighbour word per path table, garbage in allocatable frames); page-table indices (255,511,0,256)"
+    //@ obligation C09 C09.translate_page_4kib.shape_p1_absent.no_access_outside_page_tables bounded="pool of 7 tables (4 path + 3 allocatable); tree-shaped sparse pre-state (target path, one neighbour word per path table, garbage in allocatable frames); page-table indices (255,511,0,256)"
     #[kani::proof]
     #[kani::stub(PageTable::zero, zero_stub)]
     fn c01_translate_page_4kib_p1_absent_mid() {
@@ -379,10 +417,11 @@ mod verif_c01_step_read {
         kani::cover!(true, "c01_translate_page_4kib_p1_absent_mid: reachable");
     }
 
-    //@ obligation C01 C01.translate_page_4kib.shape_p1_absent.agrees_with_walk tier=thorough bounded="pool of 7 tables (4 path + 3 allocatable); tree-shaped sparse pre-state (target path, one neighbour word per path table, garbage in allocatable frames); page-table indices (256,1,510,255)"
-    //@ obligation C02 C02.translate_page_4kib.shape_p1_absent.documented_outcome tier=thorough bounded="pool of 7 tables (4 path + 3 allocatable); tree-shaped sparse pre-state (target path, one neighbour word per path table, garbage in allocatable frames); page-table indices (256,1,510,255)"
-    //@ obligation C09 C09.translate_page_4kib.shape_p1_absent.writes_nothing tier=thorough bounded="pool of 7 tables (4 path + 3 allocatable); tree-shaped sparse pre-state (target path, one neighbour word per path table, garbage in allocatable frames); page-table indices (256,1,510,255)"
-    //@ obligation C09 C09.translate_page_4kib.shape_p1_absent.no_frames_requested_or_zeroed tier=thorough bounded="pool of 7 tables (4 path + 3 allocatable); tree-shaped sparse pre-state (target path, one neighbour word per path table, garbage in allocatable frames); page-table indices (256,1,510,255)"
+    //@ obligation C01 C01.translate_page_4kib.shape_p1_absent.agrees_with_walk tier=thorough bounded="pool of 7 tables (4 path + 3 allocatable); tree-shaped sparse pre-state (target path, one neighbour word per path table, garbage in allocatable frames); page-table indices (256,0,510,511)"
+    //@ obligation C02 C02.translate_page_4kib.shape_p1_absent.documented_outcome tier=thorough bounded="pool of 7 tables (4 path + 3 allocatable); tree-shaped sparse pre-state (target path, one neighbour word per path table, garbage in allocatable frames); page-table indices (256,0,510,511)"
+    //@ obligation C09 C09.translate_page_4kib.shape_p1_absent.writes_nothing tier=thorough bounded="pool of 7 tables (4 path + 3 allocatable); tree-shaped sparse pre-state (target path, one neighbour word per path table, garbage in allocatable frames); page-table indices (256,0,510,511)"
+    //@ obligation C09 C09.translate_page_4kib.shape_p1_absent.no_frames_requested_or_zeroed tier=thorough bounded="pool of 7 tables (4 path + 3 allocatable); tree-shaped sparse pre-state (target path, one neighbour word per path table, garbage in allocatable frames); page-table indices (256,0,510,511)"
+    //@ obligation C09 C09.translate_page_4kib.shape_p1_absent.no_access_outside_page_tables tier=thorough bounded="pool of 7 tables (4 path + 3 allocatable); tree-shaped sparse pre-state (target path, one neighbour word per path table, garbage in allocatable frames); page-table indices (256,0,510,511)"
     #[kani::proof]
     #[kani::stub(PageTable::zero, zero_stub)]
     fn c01_translate_page_4kib_p1_absent_up() {
@@ -390,10 +429,11 @@ mod verif_c01_step_read {
         kani::cover!(true, "c01_translate_page_4kib_p1_absent_up: reachable");
     }
 
-    //@ obligation C01 C01.translate_page_4kib.shape_p1_leaf.agrees_with_walk tier=thorough bounded="pool of 7 tables (4 path + 3 allocatable); tree-shaped sparse pre-state (target path, one neighbour word per path table, garbage in allocatable frames); page-table indices (0,0,0,0)"
-    //@ obligation C02 C02.translate_page_4kib.shape_p1_leaf.documented_outcome tier=thorough bounded="pool of 7 tables (4 path + 3 allocatable); tree-shaped sparse pre-state (target path, one neighbour word per path table, garbage in allocatable frames); page-table indices (0,0,0,0)"
-    //@ obligation C09 C09.translate_page_4kib.shape_p1_leaf.writes_nothing tier=thorough bounded="pool of 7 tables (4 path + 3 allocatable); tree-shaped sparse pre-state (target path, one neighbour word per path table, garbage in allocatable frames); page-table indices (0,0,0,0)"
-    //@ obligation C09 C09.translate_page_4kib.shape_p1_leaf.no_frames_requested_or_zeroed tier=thorough bounded="pool of 7 tables (4 path + 3 allocatable); tree-shaped sparse pre-state (target path, one neighbour word per path table, garbage in allocatable frames); page-table indices (0,0,0,0)"
+    //@ obligation C01 C01.translate_page_4kib.shape_p1_leaf.agrees_with_walk tier=thorough bounded="pool of 7 tables (4 path + 3 allocatable); tree-shaped sparse pre-state (target path, one neighbour word per path table, garbage in allocatable frames); page-table indices (0,1,511,2)"
+    //@ obligation C02 C02.translate_page_4kib.shape_p1_leaf.documented_outcome tier=thorough bounded="pool of 7 tables (4 path + 3 allocatable); tree-shaped sparse pre-state (target path, one neighbour word per path table, garbage in allocatable frames); page-table indices (0,1,511,2)"
+    //@ obligation C09 C09.translate_page_4kib.shape_p1_leaf.writes_nothing tier=thorough bounded="pool of 7 tables (4 path + 3 allocatable); tree-shaped sparse pre-state (target path, one neighbour word per path table, garbage in allocatable frames); page-table indices (0,1,511,2)"
+    //@ obligation C09 C09.translate_page_4kib.shape_p1_leaf.no_frames_requested_or_zeroed tier=thorough bounded="pool of 7 tables (4 path + 3 allocatable); tree-shaped sparse pre-state (target path, one neighbour word per path table, garbage in allocatable frames); page-table indices (0,1,511,2)"
+    //@ obligation C09 C09.translate_page_4kib.shape_p1_leaf.no_access_outside_page_tables tier=thorough bounded="pool of 7 tables (4 path + 3 allocatable); tree-shaped sparse pre-state (target path, one neighbour word per path table, garbage in allocatable frames); page-table indices (0,1,511,2)"
     #[kani::proof]
     #[kani::stub(PageTable::zero, zero_stub)]
     fn c01_translate_page_4kib_p1_leaf_lo() {
@@ -401,10 +441,11 @@ mod verif_c01_step_read {
         kani::cover!(true, "c01_translate_page_4kib_p1_leaf_lo: reachable");
     }
 
-    //@ obligation C01 C01.translate_page_4kib.shape_p1_leaf.agrees_with_walk tier=thorough bounded="pool of 7 tables (4 path + 3 allocatable); tree-shaped sparse pre-state (target path, one neighbour word per path table, garbage in allocatable frames); page-table indices (511,511,511,511)"
-    //@ obligation C02 C02.translate_page_4kib.shape_p1_leaf.documented_outcome tier=thorough bounded="pool of 7 tables (4 path + 3 allocatable); tree-shaped sparse pre-state (target path, one neighbour word per path table, garbage in allocatable frames); page-table indices (511,511,511,511)"
-    //@ obligation C09 C09.translate_page_4kib.shape_p1_leaf.writes_nothing tier=thorough bounded="pool of 7 tables (4 path + 3 allocatable); tree-shaped sparse pre-state (target path, one neighbour word per path table, garbage in allocatable frames); page-table indices (511,511,511,511)"
-    //@ obligation C09 C09.translate_page_4kib.shape_p1_leaf.no_frames_requested_or_zeroed tier=thorough bounded="pool of 7 tables (4 path + 3 allocatable); tree-shaped sparse pre-state (target path, one neighbour word per path table, garbage in allocatable frames); page-table indices (511,511,511,511)"
+    //@ obligation C01 C01.translate_page_4kib.shape_p1_leaf.agrees_with_walk tier=thorough bounded="pool of 7 tables (4 path + 3 allocatable); tree-shaped sparse pre-state (target path, one neighbour word per path table, garbage in allocatable frames); page-table indices (511,510,1,0)"
+    //@ obligation C02 C02.translate_page_4kib.shape_p1_leaf.documented_outcome tier=thorough bounded="pool of 7 tables (4 path + 3 allocatable); tree-shaped sparse pre-state (target path, one neighbour word per path table, garbage in allocatable frames); page-table indices (511,510,1,0)"
+    //@ obligation C09 C09.translate_page_4kib.shape_p1_leaf.writes_nothing tier=thorough bounded="pool of 7 tables (4 path + 3 allocatable); tree-shaped sparse pre-state (target path, one neighbour word per path table, garbage in allocatable frames); page-table indices (511,510,1,0)"
+    //@ obligation C09 C09.translate_page_4kib.shape_p1_leaf.no_frames_requested_or_zeroed tier=thorough bounded="pool of 7 tables (4 path + 3 allocatable); tree-shaped sparse pre-state (target path, one neighbour word per path table, garbage in allocatable frames); page-table indices (511,510,1,0)"
+    //@ obligation C09 C09.translate_page_4kib.shape_p1_leaf.no_access_outside_page_tables tier=thorough bounded="pool of 7 tables (4 path + 3 allocatable); tree-shaped sparse pre-state (target path, one neighbour word per path table, garbage in allocatable frames); page-table indices (511,510,1,0)"
     #[kani::proof]
     #[kani::stub(PageTable::zero, zero_stub)]
     fn c01_translate_page_4kib_p1_leaf_hi() {
@@ -412,10 +453,11 @@ mod verif_c01_step_read {
         kani::cover!(true, "c01_translate_page_4kib_p1_leaf_hi: reachable");
     }
 
-    //@ obligation C01 C01.translate_page_4kib.shape_p1_leaf.agrees_with_walk tier=thorough bounded="pool of 7 tables (4 path + 3 allocatable); tree-shaped sparse pre-state (target path, one neighbour word per path table, garbage in allocatable frames); page-table indices (255,511,0,1)"
-    //@ obligation C02 C02.translate_page_4kib.shape_p1_leaf.documented_outcome tier=thorough bounded="pool of 7 tables (4 path + 3 allocatable); tree-shaped sparse pre-state (target path, one neighbour word per path table, garbage in allocatable frames); page-table indices (255,511,0,1)"
-    //@ obligation C09 C09.translate_page_4kib.shape_p1_leaf.writes_nothing tier=thorough bounded="pool of 7 tables (4 path + 3 allocatable); tree-shaped sparse pre-state (target path, one neighbour word per path table, garbage in allocatable frames); page-table indices (255,511,0,1)"
-    //@ obligation C09 C09.translate_page_4kib.shape_p1_leaf.no_frames_requested_or_zeroed tier=thorough bounded="pool of 7 tables (4 path + 3 allocatable); tree-shaped sparse pre-state (target path, one neighbour word per path table, garbage in allocatable frames); page-table indices (255,511,0,1)"
+    //@ obligation C01 C01.translate_page_4kib.shape_p1_leaf.agrees_with_walk tier=thorough bounded="pool of 7 tables (4 path + 3 allocatable); tree-shaped sparse pre-state (target path, one neighbour word per path table, garbage in allocatable frames); page-table indices (255,511,0,256)"
+    //@ obligation C02 C02.translate_page_4kib.shape_p1_leaf.documented_outcome tier=thorough bounded="pool of 7 tables (4 path + 3 allocatable); tree-shaped sparse pre-state (target path, one neighbour word per path table, garbage in allocatable frames); page-table indices (255,511,0,256)"
+    //@ obligation C09 C09.translate_page_4kib.shape_p1_leaf.writes_nothing tier=thorough bounded="pool of 7 tables (4 path + 3 allocatable); tree-shaped sparse pre-state (target path, one neighbour word per path table, garbage in allocatable frames); page-table indices (255,511,0,256)"
+    //@ obligation C09 C09.translate_page_4kib.shape_p1_leaf.no_frames_requested_or_zeroed tier=thorough bounded="pool of 7 tables (4 path + 3 allocatable); tree-shaped sparse pre-state (target path, one neighbour word per path table, garbage in allocatable frames); page-table indices (255,511,0,256)"
+    //@ obligation C09 C09.translate_page_4kib.shape_p1_leaf.no_access_outside_page_tables tier=thorough bounded="pool of 7 tables (4 path + 3 allocatable); tree-shaped sparse pre-state (target path, one neighbour word per path table, garbage in allocatable frames); page-table indices (255,511,0,256)"
     #[kani::proof]
     #[kani::stub(PageTable::zero, zero_stub)]
     fn c01_translate_page_4kib_p1_leaf_mid() {
@@ -423,10 +465,11 @@ mod verif_c01_step_read {
         kani::cover!(true, "c01_translate_page_4kib_p1_leaf_mid: reachable");
     }
 
-    //@ obligation C01 C01.translate_page_4kib.shape_p1_leaf.agrees_with_walk bounded="pool of 7 tables (4 path + 3 allocatable); tree-shaped sparse pre-state (target path, one neighbour word per path table, garbage in allocatable frames); page-table indices (256,1,510,255)"
-    //@ obligation C02 C02.translate_page_4kib.shape_p1_leaf.documented_outcome bounded="pool of 7 tables (4 path + 3 allocatable); tree-shaped sparse pre-state (target path, one neighbour word per path table, garbage in allocatable frames); page-table indices (256,1,510,255)"
-    //@ obligation C09 C09.translate_page_4kib.shape_p1_leaf.writes_nothing bounded="pool of 7 tables (4 path + 3 allocatable); tree-shaped sparse pre-state (target path, one neighbour word per path table, garbage in allocatable frames); page-table indices (256,1,510,255)"
-    //@ obligation C09 C09.translate_page_4kib.shape_p1_leaf.no_frames_requested_or_zeroed bounded="pool of 7 tables (4 path + 3 allocatable); tree-shaped sparse pre-state (target path, one neighbour word per path table, garbage in allocatable frames); page-table indices (256,1,510,255)"
+    //@ obligation C01 C01.translate_page_4kib.shape_p1_leaf.agrees_with_walk bounded="pool of 7 tables (4 path + 3 allocatable); tree-shaped sparse pre-state (target path, one neighbour word per path table, garbage in allocatable frames); page-table indices (256,0,510,511)"
+    //@ obligation C02 C02.translate_page_4kib.shape_p1_leaf.documented_outcome bounded="pool of 7 tables (4 path + 3 allocatable); tree-shaped sparse pre-state (target path, one neighbour word per path table, garbage in allocatable frames); page-table indices (256,0,510,511)"
+    //@ obligation C09 C09.translate_page_4kib.shape_p1_leaf.writes_nothing bounded="pool of 7 tables (4 path + 3 allocatable); tree-shaped sparse pre-state (target path, one neighbour word per path table, garbage in allocatable frames); page-table indices (256,0,510,511)"
+    //@ obligation C09 C09.translate_page_4kib.shape_p1_leaf.no_frames_requested_or_zeroed bounded="pool of 7 tables (4 path + 3 allocatable); tree-shaped sparse pre-state (target path, one neighbour word per path table, garbage in allocatable frames); page-table indices (256,0,510,511)"
+    //@ obligation C09 C09.translate_page_4kib.shape_p1_leaf.no_access_outside_page_tables bounded="pool of 7 tables (4 path + 3 allocatable); tree-shaped sparse pre-state (target path, one neighbour word per path table, garbage in allocatable frames); page-table indices (256,0,510,511)"
     #[kani::proof]
     #[kani::stub(PageTable::zero, zero_stub)]
     fn c01_translate_page_4kib_p1_leaf_up() {
@@ -434,10 +477,59 @@ mod verif_c01_step_read {
         kani::cover!(true, "c01_translate_page_4kib_p1_leaf_up: reachable");
     }
 
-    //@ obligation C01 C01.translate_page_2mib.shape_p4_absent.agrees_with_walk tier=thorough bounded="pool of 7 tables (4 path + 3 allocatable); tree-shaped sparse pre-state (target path, one neighbour word per path table, garbage in allocatable frames); page-table indices (0,0,0,0)"
-    //@ obligation C02 C02.translate_page_2mib.shape_p4_absent.documented_outcome tier=thorough bounded="pool of 7 tables (4 path + 3 allocatable); tree-shaped sparse pre-state (target path, one neighbour word per path table, garbage in allocatable frames); page-table indices (0,0,0,0)"
-    //@ obligation C09 C09.translate_page_2mib.shape_p4_absent.writes_nothing tier=thorough bounded="pool of 7 tables (4 path + 3 allocatable); tree-shaped sparse pre-state (target path, one neighbour word per path table, garbage in allocatable frames); page-table indices (0,0,0,0)"
-    //@ obligation C09 C09.translate_page_2mib.shape_p4_absent.no_frames_requested_or_zeroed tier=thorough bounded="pool of 7 tables (4 path + 3 allocatable); tree-shaped sparse pre-state (target path, one neighbour word per path table, garbage in allocatable frames); page-table indices (0,0,0,0)"
+    //@ obligation C01 C01.translate_page_4kib.shape_sym.agrees_with_walk tier=thorough bounded="pool of 7 tables (4 path + 3 allocatable); tree-shaped sparse pre-state (target path, one neighbour word per path table, garbage in allocatable frames); page-table indices (0,1,511,2)"
+    //@ obligation C02 C02.translate_page_4kib.shape_sym.documented_outcome tier=thorough bounded="pool of 7 tables (4 path + 3 allocatable); tree-shaped sparse pre-state (target path, one neighbour word per path table, garbage in allocatable frames); page-table indices (0,1,511,2)"
+    //@ obligation C09 C09.translate_page_4kib.shape_sym.writes_nothing tier=thorough bounded="pool of 7 tables (4 path + 3 allocatable); tree-shaped sparse pre-state (target path, one neighbour word per path table, garbage in allocatable frames); page-table indices (0,1,511,2)"
+    //@ obligation C09 C09.translate_page_4kib.shape_sym.no_frames_requested_or_zeroed tier=thorough bounded="pool of 7 tables (4 path + 3 allocatable); tree-shaped sparse pre-state (target path, one neighbour word per path table, garbage in allocatable frames); page-table indices (0,1,511,2)"
+    //@ obligation C09 C09.translate_page_4kib.shape_sym.no_access_outside_page_tables tier=thorough bounded="pool of 7 tables (4 path + 3 allocatable); tree-shaped sparse pre-state (target path, one neighbour word per path table, garbage in allocatable frames); page-table indices (0,1,511,2)"
+    #[kani::proof]
+    #[kani::stub(PageTable::zero, zero_stub)]
+    fn c01_translate_page_4kib_sym_lo() {
+        translate_page_step!(Size4KiB, "4kib", "sym", P1_SYM, IDX_LO);
+        kani::cover!(true, "c01_translate_page_4kib_sym_lo: reachable");
+    }
+
+    //@ obligation C01 C01.translate_page_4kib.shape_sym.agrees_with_walk tier=thorough bounded="pool of 7 tables (4 path + 3 allocatable); tree-shaped sparse pre-state (target path, one neighbour word per path table, garbage in allocatable frames); page-table indices (511,510,1,0)"
+    //@ obligation C02 C02.translate_page_4kib.shape_sym.documented_outcome tier=thorough bounded="pool of 7 tables (4 path + 3 allocatable); tree-shaped sparse pre-state (target path, one neighbour word per path table, garbage in allocatable frames); page-table indices (511,510,1,0)"
+    //@ obligation C09 C09.translate_page_4kib.shape_sym.writes_nothing tier=thorough bounded="pool of 7 tables (4 path + 3 allocatable); tree-shaped sparse pre-state (target path, one neighbour word per path table, garbage in allocatable frames); page-table indices (511,510,1,0)"
+    //@ obligation C09 C09.translate_page_4kib.shape_sym.no_frames_requested_or_zeroed tier=thorough bounded="pool of 7 tables (4 path + 3 allocatable); tree-shaped sparse pre-state (target path, one neighbour word per path table, garbage in allocatable frames); page-table indices (511,510,1,0)"
+    //@ obligation C09 C09.translate_page_4kib.shape_sym.no_access_outside_page_tables tier=thorough bounded="pool of 7 tables (4 path + 3 allocatable); tree-shaped sparse pre-state (target path, one neighbour word per path table, garbage in allocatable frames); page-table indices (511,510,1,0)"
+    #[kani::proof]
+    #[kani::stub(PageTable::zero, zero_stub)]
+    fn c01_translate_page_4kib_sym_hi() {
+        translate_page_step!(Size4KiB, "4kib", "sym", P1_SYM, IDX_HI);
+        kani::cover!(true, "c01_translate_page_4kib_sym_hi: reachable");
+    }
+
+    //@ obligation C01 C01.translate_page_4kib.shape_sym.agrees_with_walk tier=thorough bounded="pool of 7 tables (4 path + 3 allocatable); tree-shaped sparse pre-state (target path, one neighbour word per path table, garbage in allocatable frames); page-table indices (255,511,0,256)"
+    //@ obligation C02 C02.translate_page_4kib.shape_sym.documented_outcome tier=thorough bounded="pool of 7 tables (4 path + 3 allocatable); tree-shaped sparse pre-state (target path, one neighbour word per path table, garbage in allocatable frames); page-table indices (255,511,0,256)"
+    //@ obligation C09 C09.translate_page_4kib.shape_sym.writes_nothing tier=thorough bounded="pool of 7 tables (4 path + 3 allocatable); tree-shaped sparse pre-state (target path, one neighbour word per path table, garbage in allocatable frames); page-table indices (255,511,0,256)"
+    //@ obligation C09 C09.translate_page_4kib.shape_sym.no_frames_requested_or_zeroed tier=thorough bounded="pool of 7 tables (4 path + 3 allocatable); tree-shaped sparse pre-state (target path, one neighbour word per path table, garbage in allocatable frames); page-table indices (255,511,0,256)"
+    //@ obligation C09 C09.translate_page_4kib.shape_sym.no_access_outside_page_tables tier=thorough bounded="pool of 7 tables (4 path + 3 allocatable); tree-shaped sparse pre-state (target path, one neighbour word per path table, garbage in allocatable frames); page-table indices (255,511,0,256)"
+    #[kani::proof]
+    #[kani::stub(PageTable::zero, zero_stub)]
+    fn c01_translate_page_4kib_sym_mid() {
+        translate_page_step!(Size4KiB, "4kib", "sym", P1_SYM, IDX_MID);
+        kani::cover!(true, "c01_translate_page_4kib_sym_mid: reachable");
+    }
+
+    //@ obligation C01 C01.translate_page_4kib.shape_sym.agrees_with_walk tier=thorough bounded="pool of 7 tables (4 path + 3 allocatable); tree-shaped sparse pre-state (target path, one neighbour word per path table, garbage in allocatable frames); page-table indices (256,0,510,511)"
+    //@ obligation C02 C02.translate_page_4kib.shape_sym.documented_outcome tier=thorough bounded="pool of 7 tables (4 path + 3 allocatable); tree-shaped sparse pre-state (target path, one neighbour word per path table, garbage in allocatable frames); page-table indices (256,0,510,511)"
+    //@ obligation C09 C09.translate_page_4kib.shape_sym.writes_nothing tier=thorough bounded="pool of 7 tables (4 path + 3 allocatable); tree-shaped sparse pre-state (target path, one neighbour word per path table, garbage in allocatable frames); page-table indices (256,0,510,511)"
+    //@ obligation C09 C09.translate_page_4kib.shape_sym.no_frames_requested_or_zeroed tier=thorough bounded="pool of 7 tables (4 path + 3 allocatable); tree-shaped sparse pre-state (target path, one neighbour word per path table, garbage in allocatable frames); page-table indices (256,0,510,511)"
+    //@ obligation C09 C09.translate_page_4kib.shape_sym.no_access_outside_page_tables tier=thorough bounded="pool of 7 tables (4 path + 3 allocatable); tree-shaped sparse pre-state (target path, one neighbour word per path table, garbage in allocatable frames); page-table indices (256,0,510,511)"
+    #[kani::proof]
+    #[kani::stub(PageTable::zero, zero_stub)]
+    fn c01_translate_page_4kib_sym_up() {
+        translate_page_step!(Size4KiB, "4kib", "sym", P1_SYM, IDX_UP);
+        kani::cover!(true, "c01_translate_page_4kib_sym_up: reachable");
+    }
+
+    //@ obligation C01 C01.translate_page_2mib.shape_p4_absent.agrees_with_walk tier=thorough bounded="pool of 7 tables (4 path + 3 allocatable); tree-shaped sparse pre-state (target path, one neighbour word per path table, garbage in allocatable frames); page-table indices (0,1,511,2)"
+    //@ obligation C02 C02.translate_page_2mib.shape_p4_absent.documented_outcome tier=thorough bounded="pool of 7 tables (4 path + 3 allocatable); tree-shaped sparse pre-state (target path, one neighbour word per path table, garbage in allocatable frames); page-table indices (0,1,511,2)"
+    //@ obligation C09 C09.translate_page_2mib.shape_p4_absent.writes_nothing tier=thorough bounded="pool of 7 tables (4 path + 3 allocatable); tree-shaped sparse pre-state (target path, one neighbour word per path table, garbage in allocatable frames); page-table indices (0,1,511,2)"
+    //@ obligation C09 C09.translate_page_2mib.shape_p4_absent.no_frames_requested_or_zeroed tier=thorough bounded="pool of 7 tables (4 path + 3 allocatable); tree-shaped sparse pre-state (target path, one neighbour word per path table, garbage in allocatable frames); page-table indices (0,1,511,2)"
+    //@ obligation C09 C09.translate_page_2mib.shape_p4_absent.no_access_outside_page_tables tier=thorough bounded="pool of 7 tables (4 path + 3 allocatable); tree-shaped sparse pre-state (target path, one neighbour word per path table, garbage in allocatable frames); page-table indices (0,1,511,2)"
     #[kani::proof]
     #[kani::stub(PageTable::zero, zero_stub)]
     fn c01_translate_page_2mib_p4_absent_lo() {
@@ -445,10 +537,11 @@ mod verif_c01_step_read {
         kani::cover!(true, "c01_translate_page_2mib_p4_absent_lo: reachable");
     }
 
-    //@ obligation C01 C01.translate_page_2mib.shape_p4_absent.agrees_with_walk tier=thorough bounded="pool of 7 tables (4 path + 3 allocatable); tree-shaped sparse pre-state (target path, one neighbour word per path table, garbage in allocatable frames); page-table indices (511,511,511,511)"
-    //@ obligation C02 C02.translate_page_2mib.shape_p4_absent.documented_outcome tier=thorough bounded="pool of 7 tables (4 path + 3 allocatable); tree-shaped sparse pre-state (target path, one neighbour word per path table, garbage in allocatable frames); page-table indices (511,511,511,511)"
-    //@ obligation C09 C09.translate_page_2mib.shape_p4_absent.writes_nothing tier=thorough bounded="pool of 7 tables (4 path + 3 allocatable); tree-shaped sparse pre-state (target path, one neighbour word per path table, garbage in allocatable frames); page-table indices (511,511,511,511)"
-    //@ obligation C09 C09.translate_page_2mib.shape_p4_absent.no_frames_requested_or_zeroed tier=thorough bounded="pool of 7 tables (4 path + 3 allocatable); tree-shaped sparse pre-state (target path, one neighbour word per path table, garbage in allocatable frames); page-table indices (511,511,511,511)"
+    //@ obligation C01 C01.translate_page_2mib.shape_p4_absent.agrees_with_walk tier=thorough bounded="pool of 7 tables (4 path + 3 allocatable); tree-shaped sparse pre-state (target path, one neighbour word per path table, garbage in allocatable frames); page-table indices (511,510,1,0)"
+    //@ obligation C02 C02.translate_page_2mib.shape_p4_absent.documented_outcome tier=thorough bounded="pool of 7 tables (4 path + 3 allocatable); tree-shaped sparse pre-state (target path, one neighbour word per path table, garbage in allocatable frames); page-table indices (511,510,1,0)"
+    //@ obligation C09 C09.translate_page_2mib.shape_p4_absent.writes_nothing tier=thorough bounded="pool of 7 tables (4 path + 3 allocatable); tree-shaped sparse pre-state (target path, one neighbour word per path table, garbage in allocatable frames); page-table indices (511,510,1,0)"
+    //@ obligation C09 C09.translate_page_2mib.shape_p4_absent.no_frames_requested_or_zeroed tier=thorough bounded="pool of 7 tables (4 path + 3 allocatable); tree-shaped sparse pre-state (target path, one neighbour word per path table, garbage in allocatable frames); page-table indices (511,510,1,0)"
+    //@ obligation C09 C09.translate_page_2mib.shape_p4_absent.no_access_outside_page_tables tier=thorough bounded="pool of 7 tables (4 path + 3 allocatable); tree-shaped sparse pre-state (target path, one neighbour word per path table, garbage in allocatable frames); page-table indices (511,510,1,0)"
     #[kani::proof]
     #[kani::stub(PageTable::zero, zero_stub)]
     fn c01_translate_page_2mib_p4_absent_hi() {
@@ -456,10 +549,11 @@ mod verif_c01_step_read {
         kani::cover!(true, "c01_translate_page_2mib_p4_absent_hi: reachable");
     }
 
-    //@ obligation C01 C01.translate_page_2mib.shape_p4_absent.agrees_with_walk tier=thorough bounded="pool of 7 tables (4 path + 3 allocatable); tree-shaped sparse pre-state (target path, one neighbour word per path table, garbage in allocatable frames); page-table indices (255,511,0,1)"
-    //@ obligation C02 C02.translate_page_2mib.shape_p4_absent.documented_outcome tier=thorough bounded="pool of 7 tables (4 path + 3 allocatable); tree-shaped sparse pre-state (target path, one neighbour word per path table, garbage in allocatable frames); page-table indices (255,511,0,1)"
-    //@ obligation C09 C09.translate_page_2mib.shape_p4_absent.writes_nothing tier=thorough bounded="pool of 7 tables (4 path + 3 allocatable); tree-shaped sparse pre-state (target path, one neighbour word per path table, garbage in allocatable frames); page-table indices (255,511,0,1)"
-    //@ obligation C09 C09.translate_page_2mib.shape_p4_absent.no_frames_requested_or_zeroed tier=thorough bounded="pool of 7 tables (4 path + 3 allocatable); tree-shaped sparse pre-state (target path, one neighbour word per path table, garbage in allocatable frames); page-table indices (255,511,0,1)"
+    //@ obligation C01 C01.translate_page_2mib.shape_p4_absent.agrees_with_walk tier=thorough bounded="pool of 7 tables (4 path + 3 allocatable); tree-shaped sparse pre-state (target path, one neighbour word per path table, garbage in allocatable frames); page-table indices (255,511,0,256)"
+    //@ obligation C02 C02.translate_page_2mib.shape_p4_absent.documented_outcome tier=thorough bounded="pool of 7 tables (4 path + 3 allocatable); tree-shaped sparse pre-state (target path, one neighbour word per path table, garbage in allocatable frames); page-table indices (255,511,0,256)"
+    //@ obligation C09 C09.translate_page_2mib.shape_p4_absent.writes_nothing tier=thorough bounded="pool of 7 tables (4 path + 3 allocatable); tree-shaped sparse pre-state (target path, one neighbour word per path table, garbage in allocatable frames); page-table indices (255,511,0,256)"
+    //@ obligation C09 C09.translate_page_2mib.shape_p4_absent.no_frames_requested_or_zeroed tier=thorough bounded="pool of 7 tables (4 path + 3 allocatable); tree-shaped sparse pre-state (target path, one neighbour word per path table, garbage in allocatable frames); page-table indices (255,511,0,256)"
+    //@ obligation C09 C09.translate_page_2mib.shape_p4_absent.no_access_outside_page_tables tier=thorough bounded="pool of 7 tables (4 path + 3 allocatable); tree-shaped sparse pre-state (target path, one neighbour word per path table, garbage in allocatable frames); page-table indices (255,511,0,256)"
     #[kani::proof]
     #[kani::stub(PageTable::zero, zero_stub)]
     fn c01_translate_page_2mib_p4_absent_mid() {
@@ -467,10 +561,11 @@ mod verif_c01_step_read {
         kani::cover!(true, "c01_translate_page_2mib_p4_absent_mid: reachable");
     }
 
-    //@ obligation C01 C01.translate_page_2mib.shape_p4_absent.agrees_with_walk tier=thorough bounded="pool of 7 tables (4 path + 3 allocatable); tree-shaped sparse pre-state (target path, one neighbour word per path table, garbage in allocatable frames); page-table indices (256,1,510,255)"
-    //@ obligation C02 C02.translate_page_2mib.shape_p4_absent.documented_outcome tier=thorough bounded="pool of 7 tables (4 path + 3 allocatable); tree-shaped sparse pre-state (target path, one neighbour word per path table, garbage in allocatable frames); page-table indices (256,1,510,255)"
-    //@ obligation C09 C09.translate_page_2mib.shape_p4_absent.writes_nothing tier=thorough bounded="pool of 7 tables (4 path + 3 allocatable); tree-shaped sparse pre-state (target path, one neighbour word per path table, garbage in allocatable frames); page-table indices (256,1,510,255)"
-    //@ obligation C09 C09.translate_page_2mib.shape_p4_absent.no_frames_requested_or_zeroed tier=thorough bounded="pool of 7 tables (4 path + 3 allocatable); tree-shaped sparse pre-state (target path, one neighbour word per path table, garbage in allocatable frames); page-table indices (256,1,510,255)"
+    //@ obligation C01 C01.translate_page_2mib.shape_p4_absent.agrees_with_walk tier=thorough bounded="pool of 7 tables (4 path + 3 allocatable); tree-shaped sparse pre-state (target path, one neighbour word per path table, garbage in allocatable frames); page-table indices (256,0,510,511)"
+    //@ obligation C02 C02.translate_page_2mib.shape_p4_absent.documented_outcome tier=thorough bounded="pool of 7 tables (4 path + 3 allocatable); tree-shaped sparse pre-state (target path, one neighbour word per path table, garbage in allocatable frames); page-table indices (256,0,510,511)"
+    //@ obligation C09 C09.translate_page_2mib.shape_p4_absent.writes_nothing tier=thorough bounded="pool of 7 tables (4 path + 3 allocatable); tree-shaped sparse pre-state (target path, one neighbour word per path table, garbage in allocatable frames); page-table indices (256,0,510,511)"
+    //@ obligation C09 C09.translate_page_2mib.shape_p4_absent.no_frames_requested_or_zeroed tier=thorough bounded="pool of 7 tables (4 path + 3 allocatable); tree-shaped sparse pre-state (target path, one neighbour word per path table, garbage in allocatable frames); page-table indices (256,0,510,511)"
+    //@ obligation C09 C09.translate_page_2mib.shape_p4_absent.no_access_outside_page_tables tier=thorough bounded="pool of 7 tables (4 path + 3 allocatable); tree-shaped sparse pre-state (target path, one neighbour word per path table, garbage in allocatable frames); page-table indices (256,0,510,511)"
     #[kani::proof]
     #[kani::stub(PageTable::zero, zero_stub)]
     fn c01_translate_page_2mib_p4_absent_up() {
@@ -478,10 +573,11 @@ mod verif_c01_step_read {
         kani::cover!(true, "c01_translate_page_2mib_p4_absent_up: reachable");
     }
 
-    //@ obligation C01 C01.translate_page_2mib.shape_p3_absent.agrees_with_walk tier=thorough bounded="pool of 7 tables (4 path + 3 allocatable); tree-shaped sparse pre-state (target path, one neighbour word per path table, garbage in allocatable frames); page-table indices (0,0,0,0)"
-    //@ obligation C02 C02.translate_page_2mib.shape_p3_absent.documented_outcome tier=thorough bounded="pool of 7 tables (4 path + 3 allocatable); tree-shaped sparse pre-state (target path, one neighbour word per path table, garbage in allocatable frames); page-table indices (0,0,0,0)"
-    //@ obligation C09 C09.translate_page_2mib.shape_p3_absent.writes_nothing tier=thorough bounded="pool of 7 tables (4 path + 3 allocatable); tree-shaped sparse pre-state (target path, one neighbour word per path table, garbage in allocatable frames); page-table indices (0,0,0,0)"
-    //@ obligation C09 C09.translate_page_2mib.shape_p3_absent.no_frames_requested_or_zeroed tier=thorough bounded="pool of 7 tables (4 path + 3 allocatable); tree-shaped sparse pre-state (target path, one neighbour word per path table, garbage in allocatable frames); page-table indices (0,0,0,0)"
+    //@ obligation C01 C01.translate_page_2mib.shape_p3_absent.agrees_with_walk tier=thorough bounded="pool of 7 tables (4 path + 3 allocatable); tree-shaped sparse pre-state (target path, one neighbour word per path table, garbage in allocatable frames); page-table indices (0,1,511,2)"
+    //@ obligation C02 C02.translate_page_2mib.shape_p3_absent.documented_outcome tier=thorough bounded="pool of 7 tables (4 path + 3 allocatable); tree-shaped sparse pre-state (target path, one neighbour word per path table, garbage in allocatable frames); page-table indices (0,1,511,2)"
+    //@ obligation C09 C09.translate_page_2mib.shape_p3_absent.writes_nothing tier=thorough bounded="pool of 7 tables (4 path + 3 allocatable); tree-shaped sparse pre-state (target path, one neighbour word per path table, garbage in allocatable frames); page-table indices (0,1,511,2)"
+    //@ obligation C09 C09.translate_page_2mib.shape_p3_absent.no_frames_requested_or_zeroed tier=thorough bounded="pool of 7 tables (4 path + 3 allocatable); tree-shaped sparse pre-state (target path, one neighbour word per path table, garbage in allocatable frames); page-table indices (0,1,511,2)"
+    //@ obligation C09 C09.translate_page_2mib.shape_p3_absent.no_access_outside_page_tables tier=thorough bounded="pool of 7 tables (4 path + 3 allocatable); tree-shaped sparse pre-state (target path, one neighbour word per path table, garbage in allocatable frames); page-table indices (0,1,511,2)"
     #[kani::proof]
     #[kani::stub(PageTable::zero, zero_stub)]
     fn c01_translate_page_2mib_p3_absent_lo() {
@@ -489,10 +585,11 @@ mod verif_c01_step_read {
         kani::cover!(true, "c01_translate_page_2mib_p3_absent_lo: reachable");
     }
 
-    //@ obligation C01 C01.translate_page_2mib.shape_p3_absent.agrees_with_walk tier=thorough bounded="pool of 7 tables (4 path + 3 allocatable); tree-shaped sparse pre-state (target path, one neighbour word per path table, garbage in allocatable frames); page-table indices (511,511,511,511)"
-    //@ obligation C02 C02.translate_page_2mib.shape_p3_absent.documented_outcome tier=thorough bounded="pool of 7 tables (4 path + 3 allocatable); tree-shaped sparse pre-state (target path, one neighbour word per path table, garbage in allocatable frames); page-table indices (511,511,511,511)"
-    //@ obligation C09 C09.translate_page_2mib.shape_p3_absent.writes_nothing tier=thorough bounded="pool of 7 tables (4 path + 3 allocatable); tree-shaped sparse pre-state (target path, one neighbour word per path table, garbage in allocatable frames); page-table indices (511,511,511,511)"
-    //@ obligation C09 C09.translate_page_2mib.shape_p3_absent.no_frames_requested_or_zeroed tier=thorough bounded="pool of 7 tables (4 path + 3 allocatable); tree-shaped sparse pre-state (target path, one neighbour word per path table, garbage in allocatable frames); page-table indices (511,511,511,511)"
+    //@ obligation C01 C01.translate_page_2mib.shape_p3_absent.agrees_with_walk tier=thorough bounded="pool of 7 tables (4 path + 3 allocatable); tree-shaped sparse pre-state (target path, one neighbour word per path table, garbage in allocatable frames); page-table indices (511,510,1,0)"
+    //@ obligation C02 C02.translate_page_2mib.shape_p3_absent.documented_outcome tier=thorough bounded="pool of 7 tables (4 path + 3 allocatable); tree-shaped sparse pre-state (target path, one neighbour word per path table, garbage in allocatable frames); page-table indices (511,510,1,0)"
+    //@ obligation C09 C09.translate_page_2mib.shape_p3_absent.writes_nothing tier=thorough bounded="pool of 7 tables (4 path + 3 allocatable); tree-shaped sparse pre-state (target path, one neighbour word per path table, garbage in allocatable frames); page-table indices (511,510,1,0)"
+    //@ obligation C09 C09.translate_page_2mib.shape_p3_absent.no_frames_requested_or_zeroed tier=thorough bounded="pool of 7 tables (4 path + 3 allocatable); tree-shaped sparse pre-state (target path, one neighbour word per path table, garbage in allocatable frames); page-table indices (511,510,1,0)"
+    //@ obligation C09 C09.translate_page_2mib.shape_p3_absent.no_access_outside_page_tables tier=thorough bounded="pool of 7 tables (4 path + 3 allocatable); tree-shaped sparse pre-state (target path, one neighbour word per path table, garbage in allocatable frames); page-table indices (511,510,1,0)"
     #[kani::proof]
     #[kani::stub(PageTable::zero, zero_stub)]
     fn c01_translate_page_2mib_p3_absent_hi() {
@@ -500,10 +597,11 @@ mod verif_c01_step_read {
         kani::cover!(true, "c01_translate_page_2mib_p3_absent_hi: reachable");
     }
 
-    //@ obligation C01 C01.translate_page_2mib.shape_p3_absent.agrees_with_walk tier=thorough bounded="pool of 7 tables (4 path + 3 allocatable); tree-shaped sparse pre-state (target path, one neighbour word per path table, garbage in allocatable frames); page-table indices (255,511,0,1)"
-    //@ obligation C02 C02.translate_page_2mib.shape_p3_absent.documented_outcome tier=thorough bounded="pool of 7 tables (4 path + 3 allocatable); tree-shaped sparse pre-state (target path, one neighbour word per path table, garbage in allocatable frames); page-table indices (255,511,0,1)"
-    //@ obligation C09 C09.translate_page_2mib.shape_p3_absent.writes_nothing tier=thorough bounded="pool of 7 tables (4 path + 3 allocatable); tree-shaped sparse pre-state (target path, one neighbour word per path table, garbage in allocatable frames); page-table indices (255,511,0,1)"
-    //@ obligation C09 C09.translate_page_2mib.shape_p3_absent.no_frames_requested_or_zeroed tier=thorough bounded="pool of 7 tables (4 path + 3 allocatable); tree-shaped sparse pre-state (target path, one neighbour word per path table, garbage in allocatable frames); page-table indices (255,511,0,1)"
+    //@ obligation C01 C01.translate_page_2mib.shape_p3_absent.agrees_with_walk tier=thorough bounded="pool of 7 tables (4 path + 3 allocatable); tree-shaped sparse pre-state (target path, one neighbour word per path table, garbage in allocatable frames); page-table indices (255,511,0,256)"
+    //@ obligation C02 C02.translate_page_2mib.shape_p3_absent.documented_outcome tier=thorough bounded="pool of 7 tables (4 path + 3 allocatable); tree-shaped sparse pre-state (target path, one neighbour word per path table, garbage in allocatable frames); page-table indices (255,511,0,256)"
+    //@ obligation C09 C09.translate_page_2mib.shape_p3_absent.writes_nothing tier=thorough bounded="pool of 7 tables (4 path + 3 allocatable); tree-shaped sparse pre-state (target path, one neighbour word per path table, garbage in allocatable frames); page-table indices (255,511,0,256)"
+    //@ obligation C09 C09.translate_page_2mib.shape_p3_absent.no_frames_requested_or_zeroed tier=thorough bounded="pool of 7 tables (4 path + 3 allocatable); tree-shaped sparse pre-state (target path, one neighbour word per path table, garbage in allocatable frames); page-table indices (255,511,0,256)"
+    //@ obligation C09 C09.translate_page_2mib.shape_p3_absent.no_access_outside_page_tables tier=thorough bounded="pool of 7 tables (4 path + 3 allocatable); tree-shaped sparse pre-state (target path, one neighbour word per path table, garbage in allocatable frames); page-table indices (255,511,0,256)"
     #[kani::proof]
     #[kani::stub(PageTable::zero, zero_stub)]
     fn c01_translate_page_2mib_p3_absent_mid() {
@@ -511,10 +609,11 @@ mod verif_c01_step_read {
         kani::cover!(true, "c01_translate_page_2mib_p3_absent_mid: reachable");
     }
 
-    //@ obligation C01 C01.translate_page_2mib.shape_p3_absent.agrees_with_walk tier=thorough bounded="pool of 7 tables (4 path + 3 allocatable); tree-shaped sparse pre-state (target path, one neighbour word per path table, garbage in allocatable frames); page-table indices (256,1,510,255)"
-    //@ obligation C02 C02.translate_page_2mib.shape_p3_absent.documented_outcome tier=thorough bounded="pool of 7 tables (4 path + 3 allocatable); tree-shaped sparse pre-state (target path, one neighbour word per path table, garbage in allocatable frames); page-table indices (256,1,510,255)"
-    //@ obligation C09 C09.translate_page_2mib.shape_p3_absent.writes_nothing tier=thorough bounded="pool of 7 tables (4 path + 3 allocatable); tree-shaped sparse pre-state (target path, one neighbour word per path table, garbage in allocatable frames); page-table indices (256,1,510,255)"
-    //@ obligation C09 C09.translate_page_2mib.shape_p3_absent.no_frames_requested_or_zeroed tier=thorough bounded="pool of 7 tables (4 path + 3 allocatable); tree-shaped sparse pre-state (target path, one neighbour word per path table, garbage in allocatable frames); page-table indices (256,1,510,255)"
+    //@ obligation C01 C01.translate_page_2mib.shape_p3_absent.agrees_with_walk tier=thorough bounded="pool of 7 tables (4 path + 3 allocatable); tree-shaped sparse pre-state (target path, one neighbour word per path table, garbage in allocatable frames); page-table indices (256,0,510,511)"
+    //@ obligation C02 C02.translate_page_2mib.shape_p3_absent.documented_outcome tier=thorough bounded="pool of 7 tables (4 path + 3 allocatable); tree-shaped sparse pre-state (target path, one neighbour word per path table, garbage in allocatable frames); page-table indices (256,0,510,511)"
+    //@ obligation C09 C09.translate_page_2mib.shape_p3_absent.writes_nothing tier=thorough bounded="pool of 7 tables (4 path + 3 allocatable); tree-shaped sparse pre-state (target path, one neighbour word per path table, garbage in allocatable frames); page-table indices (256,0,510,511)"
+    //@ obligation C09 C09.translate_page_2mib.shape_p3_absent.no_frames_requested_or_zeroed tier=thorough bounded="pool of 7 tables (4 path + 3 allocatable); tree-shaped sparse pre-state (target path, one neighbour word per path table, garbage in allocatable frames); page-table indices (256,0,510,511)"
+    //@ obligation C09 C09.translate_page_2mib.shape_p3_absent.no_access_outside_page_tables tier=thorough bounded="pool of 7 tables (4 path + 3 allocatable); tree-shaped sparse pre-state (target path, one neighbour word per path table, garbage in allocatable frames); page-table indices (256,0,510,511)"
     #[kani::proof]
     #[kani::stub(PageTable::zero, zero_stub)]
     fn c01_translate_page_2mib_p3_absent_up() {
@@ -522,10 +621,11 @@ mod verif_c01_step_read {
         kani::cover!(true, "c01_translate_page_2mib_p3_absent_up: reachable");
     }
 
-    //@ obligation C01 C01.translate_page_2mib.shape_p3_huge.agrees_with_walk tier=thorough bounded="pool of 7 tables (4 path + 3 allocatable); tree-shaped sparse pre-state (target path, one neighbour word per path table, garbage in allocatable frames); page-table indices (0,0,0,0)"
-    //@ obligation C02 C02.translate_page_2mib.shape_p3_huge.documented_outcome tier=thorough bounded="pool of 7 tables (4 path + 3 allocatable); tree-shaped sparse pre-state (target path, one neighbour word per path table, garbage in allocatable frames); page-table indices (0,0,0,0)"
-    //@ obligation C09 C09.translate_page_2mib.shape_p3_huge.writes_nothing tier=thorough bounded="pool of 7 tables (4 path + 3 allocatable); tree-shaped sparse pre-state (target path, one neighbour word per path table, garbage in allocatable frames); page-table indices (0,0,0,0)"
-    //@ obligation C09 C09.translate_page_2mib.shape_p3_huge.no_frames_requested_or_zeroed tier=thorough bounded="pool of 7 tables (4 path + 3 allocatable); tree-shaped sparse pre-state (target path, one neighbour word per path table, garbage in allocatable frames); page-table indices (0,0,0,0)"
+    //@ obligation C01 C01.translate_page_2mib.shape_p3_huge.agrees_with_walk tier=thorough bounded="pool of 7 tables (4 path + 3 allocatable); tree-shaped sparse pre-state (target path, one neighbour word per path table, garbage in allocatable frames); page-table indices (0,1,511,2)"
+    //@ obligation C02 C02.translate_page_2mib.shape_p3_huge.documented_outcome tier=thorough bounded="pool of 7 tables (4 path + 3 allocatable); tree-shaped sparse pre-state (target path, one neighbour word per path table, garbage in allocatable frames); page-table indices (0,1,511,2)"
+    //@ obligation C09 C09.translate_page_2mib.shape_p3_huge.writes_nothing tier=thorough bounded="pool of 7 tables (4 path + 3 allocatable); tree-shaped sparse pre-state (target path, one neighbour word per path table, garbage in allocatable frames); page-table indices (0,1,511,2)"
+    //@ obligation C09 C09.translate_page_2mib.shape_p3_huge.no_frames_requested_or_zeroed tier=thorough bounded="pool of 7 tables (4 path + 3 allocatable); tree-shaped sparse pre-state (target path, one neighbour word per path table, garbage in allocatable frames); page-table indices (0,1,511,2)"
+    //@ obligation C09 C09.translate_page_2mib.shape_p3_huge.no_access_outside_page_tables tier=thorough bounded="pool of 7 tables (4 path + 3 allocatable); tree-shaped sparse pre-state (target path, one neighbour word per path table, garbage in allocatable frames); page-table indices (0,1,511,2)"
     #[kani::proof]
     #[kani::stub(PageTable::zero, zero_stub)]
     fn c01_translate_page_2mib_p3_huge_lo() {
@@ -533,10 +633,11 @@ mod verif_c01_step_read {
         kani::cover!(true, "c01_translate_page_2mib_p3_huge_lo: reachable");
     }
 
-    //@ obligation C01 C01.translate_page_2mib.shape_p3_huge.agrees_with_walk tier=thorough bounded="pool of 7 tables (4 path + 3 allocatable); tree-shaped sparse pre-state (target path, one neighbour word per path table, garbage in allocatable frames); page-table indices (511,511,511,511)"
-    //@ obligation C02 C02.translate_page_2mib.shape_p3_huge.documented_outcome tier=thorough bounded="pool of 7 tables (4 path + 3 allocatable); tree-shaped sparse pre-state (target path, one neighbour word per path table, garbage in allocatable frames); page-table indices (511,511,511,511)"
-    //@ obligation C09 C09.translate_page_2mib.shape_p3_huge.writes_nothing tier=thorough bounded="pool of 7 tables (4 path + 3 allocatable); tree-shaped sparse pre-state (target path, one neighbour word per path table, garbage in allocatable frames); page-table indices (511,511,511,511)"
-    //@ obligation C09 C09.translate_page_2mib.shape_p3_huge.no_frames_requested_or_zeroed tier=thorough bounded="pool of 7 tables (4 path + 3 allocatable); tree-shaped sparse pre-state (target path, one neighbour word per path table, garbage in allocatable frames); page-table indices (511,511,511,511)"
+    //@ obligation C01 C01.translate_page_2mib.shape_p3_huge.agrees_with_walk tier=thorough bounded="pool of 7 tables (4 path + 3 allocatable); tree-shaped sparse pre-state (target path, one neighbour word per path table, garbage in allocatable frames); page-table indices (511,510,1,0)"
+    //@ obligation C02 C02.translate_page_2mib.shape_p3_huge.documented_outcome tier=thorough bounded="pool of 7 tables (4 path + 3 allocatable); tree-shaped sparse pre-state (target path, one neighbour word per path table, garbage in allocatable frames); page-table indices (511,510,1,0)"
+    //@ obligation C09 C09.translate_page_2mib.shape_p3_huge.writes_nothing tier=thorough bounded="pool of 7 tables (4 path + 3 allocatable); tree-shaped sparse pre-state (target path, one neighbour word per path table, garbage in allocatable frames); page-table indices (511,510,1,0)"
+    //@ obligation C09 C09.translate_page_2mib.shape_p3_huge.no_frames_requested_or_zeroed tier=thorough bounded="pool of 7 tables (4 path + 3 allocatable); tree-shaped sparse pre-state (target path, one neighbour word per path table, garbage in allocatable frames); page-table indices (511,510,1,0)"
+    //@ obligation C09 C09.translate_page_2mib.shape_p3_huge.no_access_outside_page_tables tier=thorough bounded="pool of 7 tables (4 path + 3 allocatable); tree-shaped sparse pre-state (target path, one neighbour word per path table, garbage in allocatable frames); page-table indices (511,510,1,0)"
     #[kani::proof]
     #[kani::stub(PageTable::zero, zero_stub)]
     fn c01_translate_page_2mib_p3_huge_hi() {
@@ -544,10 +645,11 @@ mod verif_c01_step_read {
         kani::cover!(true, "c01_translate_page_2mib_p3_huge_hi: reachable");
     }
 
-    //@ obligation C01 C01.translate_page_2mib.shape_p3_huge.agrees_with_walk tier=thorough bounded="pool of 7 tables (4 path + 3 allocatable); tree-shaped sparse pre-state (target path, one neighbour word per path table, garbage in allocatable frames); page-table indices (255,511,0,1)"
-    //@ obligation C02 C02.translate_page_2mib.shape_p3_huge.documented_outcome tier=thorough bounded="pool of 7 tables (4 path + 3 allocatable); tree-shaped sparse pre-state (target path, one neighbour word per path table, garbage in allocatable frames); page-table indices (255,511,0,1)"
-    //@ obligation C09 C09.translate_page_2mib.shape_p3_huge.writes_nothing tier=thorough bounded="pool of 7 tables (4 path + 3 allocatable); tree-shaped sparse pre-state (target path, one neighbour word per path table, garbage in allocatable frames); page-table indices (255,511,0,1)"
-    //@ obligation C09 C09.translate_page_2mib.shape_p3_huge.no_frames_requested_or_zeroed tier=thorough bounded="pool of 7 tables (4 path + 3 allocatable); tree-shaped sparse pre-state (target path, one neighbour word per path table, garbage in allocatable frames); page-table indices (255,511,0,1)"
+    //@ obligation C01 C01.translate_page_2mib.shape_p3_huge.agrees_with_walk tier=thorough bounded="pool of 7 tables (4 path + 3 allocatable); tree-shaped sparse pre-state (target path, one neighbour word per path table, garbage in allocatable frames); page-table indices (255,511,0,256)"
+    //@ obligation C02 C02.translate_page_2mib.shape_p3_huge.documented_outcome tier=thorough bounded="pool of 7 tables (4 path + 3 allocatable); tree-shaped sparse pre-state (target path, one neighbour word per path table, garbage in allocatable frames); page-table indices (255,511,0,256)"
+    //@ obligation C09 C09.translate_page_2mib.shape_p3_huge.writes_nothing tier=thorough bounded="pool of 7 tables (4 path + 3 allocatable); tree-shaped sparse pre-state (target path, one neighbour word per path table, garbage in allocatable frames); page-table indices (255,511,0,256)"
+    //@ obligation C09 C09.translate_page_2mib.shape_p3_huge.no_frames_requested_or_zeroed tier=thorough bounded="pool of 7 tables (4 path + 3 allocatable); tree-shaped sparse pre-state (target path, one neighbour word per path table, garbage in allocatable frames); page-table indices (255,511,0,256)"
+    //@ obligation C09 C09.translate_page_2mib.shape_p3_huge.no_access_outside_page_tables tier=thorough bounded="pool of 7 tables (4 path + 3 allocatable); tree-shaped sparse pre-state (target path, one neighbour word per path table, garbage in allocatable frames); page-table indices (255,511,0,256)"
     #[kani::proof]
     #[kani::stub(PageTable::zero, zero_stub)]
     fn c01_translate_page_2mib_p3_huge_mid() {
@@ -555,10 +657,11 @@ mod verif_c01_step_read {
         kani::cover!(true, "c01_translate_page_2mib_p3_huge_mid: reachable");
     }
 
-    //@ obligation C01 C01.translate_page_2mib.shape_p3_huge.agrees_with_walk tier=thorough bounded="pool of 7 tables (4 path + 3 allocatable); tree-shaped sparse pre-state (target path, one neighbour word per path table, garbage in allocatable frames); page-table indices (256,1,510,255)"
-    //@ obligation C02 C02.translate_page_2mib.shape_p3_huge.documented_outcome tier=thorough bounded="pool of 7 tables (4 path + 3 allocatable); tree-shaped sparse pre-state (target path, one neighbour word per path table, garbage in allocatable frames); page-table indices (256,1,510,255)"
-    //@ obligation C09 C09.translate_page_2mib.shape_p3_huge.writes_nothing tier=thorough bounded="pool of 7 tables (4 path + 3 allocatable); tree-shaped sparse pre-state (target path, one neighbour word per path table, garbage in allocatable frames); page-table indices (256,1,510,255)"
-    //@ obligation C09 C09.translate_page_2mib.shape_p3_huge.no_frames_requested_or_zeroed tier=thorough bounded="pool of 7 tables (4 path + 3 allocatable); tree-shaped sparse pre-state (target path, one neighbour word per path table, garbage in allocatable frames); page-table indices (256,1,510,255)"
+    //@ obligation C01 C01.translate_page_2mib.shape_p3_huge.agrees_with_walk tier=thorough bounded="pool of 7 tables (4 path + 3 allocatable); tree-shaped sparse pre-state (target path, one neighbour word per path table, garbage in allocatable frames); page-table indices (256,0,510,511)"
+    //@ obligation C02 C02.translate_page_2mib.shape_p3_huge.documented_outcome tier=thorough bounded="pool of 7 tables (4 path + 3 allocatable); tree-shaped sparse pre-state (target path, one neighbour word per path table, garbage in allocatable frames); page-table indices (256,0,510,511)"
+    //@ obligation C09 C09.translate_page_2mib.shape_p3_huge.writes_nothing tier=thorough bounded="pool of 7 tables (4 path + 3 allocatable); tree-shaped sparse pre-state (target path, one neighbour word per path table, garbage in allocatable frames); page-table indices (256,0,510,511)"
+    //@ obligation C09 C09.translate_page_2mib.shape_p3_huge.no_frames_requested_or_zeroed tier=thorough bounded="pool of 7 tables (4 path + 3 allocatable); tree-shaped sparse pre-state (target path, one neighbour word per path table, garbage in allocatable frames); page-table indices (256,0,510,511)"
+    //@ obligation C09 C09.translate_page_2mib.shape_p3_huge.no_access_outside_page_tables tier=thorough bounded="pool of 7 tables (4 path + 3 allocatable); tree-shaped sparse pre-state (target path, one neighbour word per path table, garbage in allocatable frames); page-table indices (256,0,510,511)"
     #[kani::proof]
     #[kani::stub(PageTable::zero, zero_stub)]
     fn c01_translate_page_2mib_p3_huge_up() {
@@ -566,10 +669,11 @@ mod verif_c01_step_read {
         kani::cover!(true, "c01_translate_page_2mib_p3_huge_up: reachable");
     }
 
-    //@ obligation C01 C01.translate_page_2mib.shape_p2_absent.agrees_with_walk tier=thorough bounded="pool of 7 tables (4 path + 3 allocatable); tree-shaped sparse pre-state (target path, one neighbour word per path table, garbage in allocatable frames); page-table indices (0,0,0,0)"
-    //@ obligation C02 C02.translate_page_2mib.shape_p2_absent.documented_outcome tier=thorough bounded="pool of 7 tables (4 path + 3 allocatable); tree-shaped sparse pre-state (target path, one neighbour word per path table, garbage in allocatable frames); page-table indices (0,0,0,0)"
-    //@ obligation C09 C09.translate_page_2mib.shape_p2_absent.writes_nothing tier=thorough bounded="pool of 7 tables (4 path + 3 allocatable); tree-shaped sparse pre-state (target path, one neighbour word per path table, garbage in allocatable frames); page-table indices (0,0,0,0)"
-    //@ obligation C09 C09.translate_page_2mib.shape_p2_absent.no_frames_requested_or_zeroed tier=thorough bounded="pool of 7 tables (4 path + 3 allocatable); tree-shaped sparse pre-state (target path, one neighbour word per path table, garbage in allocatable frames); page-table indices (0,0,0,0)"
+    //@ obligation C01 C01.translate_page_2mib.shape_p2_absent.agrees_with_walk tier=thorough bounded="pool of 7 tables (4 path + 3 allocatable); tree-shaped sparse pre-state (target path, one neighbour word per path table, garbage in allocatable frames); page-table indices (0,1,511,2)"
+    //@ obligation C02 C02.translate_page_2mib.shape_p2_absent.documented_outcome tier=thorough bounded="pool of 7 tables (4 path + 3 allocatable); tree-shaped sparse pre-state (target path, one neighbour word per path table, garbage in allocatable frames); page-table indices (0,1,511,2)"
+    //@ obligation C09 C09.translate_page_2mib.shape_p2_absent.writes_nothing tier=thorough bounded="pool of 7 tables (4 path + 3 allocatable); tree-shaped sparse pre-state (target path, one neighbour word per path table, garbage in allocatable frames); page-table indices (0,1,511,2)"
+    //@ obligation C09 C09.translate_page_2mib.shape_p2_absent.no_frames_requested_or_zeroed tier=thorough bounded="pool of 7 tables (4 path + 3 allocatable); tree-shaped sparse pre-state (target path, one neighbour word per path table, garbage in allocatable frames); page-table indices (0,1,511,2)"
+    //@ obligation C09 C09.translate_page_2mib.shape_p2_absent.no_access_outside_page_tables tier=thorough bounded="pool of 7 tables (4 path + 3 allocatable); tree-shaped sparse pre-state (target path, one neighbour word per path table, garbage in allocatable frames); page-table indices (0,1,511,2)"
     #[kani::proof]
     #[kani::stub(PageTable::zero, zero_stub)]
     fn c01_translate_page_2mib_p2_absent_lo() {
@@ -577,10 +681,11 @@ mod verif_c01_step_read {
         kani::cover!(true, "c01_translate_page_2mib_p2_absent_lo: reachable");
     }
 
-    //@ obligation C01 C01.translate_page_2mib.shape_p2_absent.agrees_with_walk tier=thorough bounded="pool of 7 tables (4 path + 3 allocatable); tree-shaped sparse pre-state (target path, one neighbour word per path table, garbage in allocatable frames); page-table indices (511,511,511,511)"
-    //@ obligation C02 C02.translate_page_2mib.shape_p2_absent.documented_outcome tier=thorough bounded="pool of 7 tables (4 path + 3 allocatable); tree-shaped sparse pre-state (target path, one neighbour word per path table, garbage in allocatable frames); page-table indices (511,511,511,511)"
-    //@ obligation C09 C09.translate_page_2mib.shape_p2_absent.writes_nothing tier=thorough bounded="pool of 7 tables (4 path + 3 allocatable); tree-shaped sparse pre-state (target path, one neighbour word per path table, garbage in allocatable frames); page-table indices (511,511,511,511)"
-    //@ obligation C09 C09.translate_page_2mib.shape_p2_absent.no_frames_requested_or_zeroed tier=thorough bounded="pool of 7 tables (4 path + 3 allocatable); tree-shaped sparse pre-state (target path, one neighbour word per path table, garbage in allocatable frames); page-table indices (511,511,511,511)"
+    //@ obligation C01 C01.translate_page_2mib.shape_p2_absent.agrees_with_walk tier=thorough bounded="pool of 7 tables (4 path + 3 allocatable); tree-shaped sparse pre-state (target path, one neighbour word per path table, garbage in allocatable frames); page-table indices (511,510,1,0)"
+    //@ obligation C02 C02.translate_page_2mib.shape_p2_absent.documented_outcome tier=thorough bounded="pool of 7 tables (4 path + 3 allocatable); tree-shaped sparse pre-state (target path, one neighbour word per path table, garbage in allocatable frames); page-table indices (511,510,1,0)"
+    //@ obligation C09 C09.translate_page_2mib.shape_p2_absent.writes_nothing tier=thorough bounded="pool of 7 tables (4 path + 3 allocatable); tree-shaped sparse pre-state (target path, one neighbour word per path table, garbage in allocatable frames); page-table indices (511,510,1,0)"
+    //@ obligation C09 C09.translate_page_2mib.shape_p2_absent.no_frames_requested_or_zeroed tier=thorough bounded="pool of 7 tables (4 path + 3 allocatable); tree-shaped sparse pre-state (target path, one neighbour word per path table, garbage in allocatable frames); page-table indices (511,510,1,0)"
+    //@ obligation C09 C09.translate_page_2mib.shape_p2_absent.no_access_outside_page_tables tier=thorough bounded="pool of 7 tables (4 path + 3 allocatable); tree-shaped sparse pre-state (target path, one neighbour word per path table, garbage in allocatable frames); page-table indices (511,510,1,0)"
     #[kani::proof]
     #[kani::stub(PageTable::zero, zero_stub)]
     fn c01_translate_page_2mib_p2_absent_hi() {
@@ -588,10 +693,11 @@ mod verif_c01_step_read {
         kani::cover!(true, "c01_translate_page_2mib_p2_absent_hi: reachable");
     }
 
-    //@ obligation C01 C01.translate_page_2mib.shape_p2_absent.agrees_with_walk tier=thorough bounded="pool of 7 tables (4 path + 3 allocatable); tree-shaped sparse pre-state (target path, one neighbour word per path table, garbage in allocatable frames); page-table indices (255,511,0,1)"
-    //@ obligation C02 C02.translate_page_2mib.shape_p2_absent.documented_outcome tier=thorough bounded="pool of 7 tables (4 path + 3 allocatable); tree-shaped sparse pre-state (target path, one neighbour word per path table, garbage in allocatable frames); page-table indices (255,511,0,1)"
-    //@ obligation C09 C09.translate_page_2mib.shape_p2_absent.writes_nothing tier=thorough bounded="pool of 7 tables (4 path + 3 allocatable); tree-shaped sparse pre-state (target path, one neighbour word per path table, garbage in allocatable frames); page-table indices (255,511,0,1)"
-    //@ obligation C09 C09.translate_page_2mib.shape_p2_absent.no_frames_requested_or_zeroed tier=thorough bounded="pool of 7 tables (4 path + 3 allocatable); tree-shaped sparse pre-state (target path, one neighbour word per path table, garbage in allocatable frames); page-table indices (255,511,0,1)"
+    //@ obligation C01 C01.translate_page_2mib.shape_p2_absent.agrees_with_walk tier=thorough bounded="pool of 7 tables (4 path + 3 allocatable); tree-shaped sparse pre-state (target path, one neighbour word per path table, garbage in allocatable frames); page-table indices (255,511,0,256)"
+    //@ obligation C02 C02.translate_page_2mib.shape_p2_absent.documented_outcome tier=thorough bounded="pool of 7 tables (4 path + 3 allocatable); tree-shaped sparse pre-state (target path, one neighbour word per path table, garbage in allocatable frames); page-table indices (255,511,0,256)"
+    //@ obligation C09 C09.translate_page_2mib.shape_p2_absent.writes_nothing tier=thorough bounded="pool of 7 tables (4 path + 3 allocatable); tree-shaped sparse pre-state (target path, one neighbour word per path table, garbage in allocatable frames); page-table indices (255,511,0,256)"
+    //@ obligation C09 C09.translate_page_2mib.shape_p2_absent.no_frames_requested_or_zeroed tier=thorough bounded="pool of 7 tables (4 path + 3 allocatable); tree-shaped sparse pre-state (target path, one neighbour word per path table, garbage in allocatable frames); page-table indices (255,511,0,256)"
+    //@ obligation C09 C09.translate_page_2mib.shape_p2_absent.no_access_outside_page_tables tier=thorough bounded="pool of 7 tables (4 path + 3 allocatable); tree-shaped sparse pre-state (target path, one neighbour word per path table, garbage in allocatable frames); page-table indices (255,511,0,256)"
     #[kani::proof]
     #[kani::stub(PageTable::zero, zero_stub)]
     fn c01_translate_page_2mib_p2_absent_mid() {
@@ -599,10 +705,11 @@ mod verif_c01_step_read {
         kani::cover!(true, "c01_translate_page_2mib_p2_absent_mid: reachable");
     }
 
-    //@ obligation C01 C01.translate_page_2mib.shape_p2_absent.agrees_with_walk tier=thorough bounded="pool of 7 tables (4 path + 3 allocatable); tree-shaped sparse pre-state (target path, one neighbour word per path table, garbage in allocatable frames); page-table indices (256,1,510,255)"
-    //@ obligation C02 C02.translate_page_2mib.shape_p2_absent.documented_outcome tier=thorough bounded="pool of 7 tables (4 path + 3 allocatable); tree-shaped sparse pre-state (target path, one neighbour word per path table, garbage in allocatable frames); page-table indices (256,1,510,255)"
-    //@ obligation C09 C09.translate_page_2mib.shape_p2_absent.writes_nothing tier=thorough bounded="pool of 7 tables (4 path + 3 allocatable); tree-shaped sparse pre-state (target path, one neighbour word per path table, garbage in allocatable frames); page-table indices (256,1,510,255)"
-    //@ obligation C09 C09.translate_page_2mib.shape_p2_absent.no_frames_requested_or_zeroed tier=thorough bounded="pool of 7 tables (4 path + 3 allocatable); tree-shaped sparse pre-state (target path, one neighbour word per path table, garbage in allocatable frames); page-table indices (256,1,510,255)"
+    //@ obligation C01 C01.translate_page_2mib.shape_p2_absent.agrees_with_walk tier=thorough bounded="pool of 7 tables (4 path + 3 allocatable); tree-shaped sparse pre-state (target path, one neighbour word per path table, garbage in allocatable frames); page-table indices (256,0,510,511)"
+    //@ obligation C02 C02.translate_page_2mib.shape_p2_absent.documented_outcome tier=thorough bounded="pool of 7 tables (4 path + 3 allocatable); tree-shaped sparse pre-state (target path, one neighbour word per path table, garbage in allocatable frames); page-table indices (256,0,510,511)"
+    //@ obligation C09 C09.translate_page_2mib.shape_p2_absent.writes_nothing tier=thorough bounded="pool of 7 tables (4 path + 3 allocatable); tree-shaped sparse pre-state (target path, one neighbour word per path table, garbage in allocatable frames); page-table indices (256,0,510,511)"
+    //@ obligation C09 C09.translate_page_2mib.shape_p2_absent.no_frames_requested_or_zeroed tier=thorough bounded="pool of 7 tables (4 path + 3 allocatable); tree-shaped sparse pre-state (target path, one neighbour word per path table, garbage in allocatable frames); page-table indices (256,0,510,511)"
+    //@ obligation C09 C09.translate_page_2mib.shape_p2_absent.no_access_outside_page_tables tier=thorough bounded="pool of 7 tables (4 path + 3 allocatable); tree-shaped sparse pre-state (target path, one neighbour word per path table, garbage in allocatable frames); page-table indices (256,0,510,511)"
     #[kani::proof]
     #[kani::stub(PageTable::zero, zero_stub)]
     fn c01_translate_page_2mib_p2_absent_up() {
@@ -610,10 +717,11 @@ mod verif_c01_step_read {
         kani::cover!(true, "c01_translate_page_2mib_p2_absent_up: reachable");
     }
 
-    //@ obligation C01 C01.translate_page_2mib.shape_p2_huge.agrees_with_walk tier=thorough bounded="pool of 7 tables (4 path + 3 allocatable); tree-shaped sparse pre-state (target path, one neighbour word per path table, garbage in allocatable frames); page-table indices (0,0,0,0)"
-    //@ obligation C02 C02.translate_page_2mib.shape_p2_huge.documented_outcome tier=thorough bounded="pool of 7 tables (4 path + 3 allocatable); tree-shaped sparse pre-state (target path, one neighbour word per path table, garbage in allocatable frames); page-table indices (0,0,0,0)"
-    //@ obligation C09 C09.translate_page_2mib.shape_p2_huge.writes_nothing tier=thorough bounded="pool of 7 tables (4 path + 3 allocatable); tree-shaped sparse pre-state (target path, one neighbour word per path table, garbage in allocatable frames); page-table indices (0,0,0,0)"
-    //@ obligation C09 C09.translate_page_2mib.shape_p2_huge.no_frames_requested_or_zeroed tier=thorough bounded="pool of 7 tables (4 path + 3 allocatable); tree-shaped sparse pre-state (target path, one neighbour word per path table, garbage in allocatable frames); page-table indices (0,0,0,0)"
+    //@ obligation C01 C01.translate_page_2mib.shape_p2_huge.agrees_with_walk tier=thorough bounded="pool of 7 tables (4 path + 3 allocatable); tree-shaped sparse pre-state (target path, one neighbour word per path table, garbage in allocatable frames); page-table indices (0,1,511,2)"
+    //@ obligation C02 C02.translate_page_2mib.shape_p2_huge.documented_outcome tier=thorough bounded="pool of 7 tables (4 path + 3 allocatable); tree-shaped sparse pre-state (target path, one neighbour word per path table, garbage in allocatable frames); page-table indices (0,1,511,2)"
+    //@ obligation C09 C09.translate_page_2mib.shape_p2_huge.writes_nothing tier=thorough bounded="pool of 7 tables (4 path + 3 allocatable); tree-shaped sparse pre-state (target path, one neighbour word per path table, garbage in allocatable frames); page-table indices (0,1,511,2)"
+    //@ obligation C09 C09.translate_page_2mib.shape_p2_huge.no_frames_requested_or_zeroed tier=thorough bounded="pool of 7 tables (4 path + 3 allocatable); tree-shaped sparse pre-state (target path, one neighbour word per path table, garbage in allocatable frames); page-table indices (0,1,511,2)"
+    //@ obligation C09 C09.translate_page_2mib.shape_p2_huge.no_access_outside_page_tables tier=thorough bounded="pool of 7 tables (4 path + 3 allocatable); tree-shaped sparse pre-state (target path, one neighbour word per path table, garbage in allocatable frames); page-table indices (0,1,511,2)"
     #[kani::proof]
     #[kani::stub(PageTable::zero, zero_stub)]
     fn c01_translate_page_2mib_p2_huge_lo() {
@@ -621,10 +729,11 @@ mod verif_c01_step_read {
         kani::cover!(true, "c01_translate_page_2mib_p2_huge_lo: reachable");
     }
 
-    //@ obligation C01 C01.translate_page_2mib.shape_p2_huge.agrees_with_walk tier=thorough bounded="pool of 7 tables (4 path + 3 allocatable); tree-shaped sparse pre-state (target path, one neighbour word per path table, garbage in allocatable frames); page-table indices (511,511,511,511)"
-    //@ obligation C02 C02.translate_page_2mib.shape_p2_huge.documented_outcome tier=thorough bounded="pool of 7 tables (4 path + 3 allocatable); tree-shaped sparse pre-state (target path, one neighbour word per path table, garbage in allocatable frames); page-table indices (511,511,511,511)"
-    //@ obligation C09 C09.translate_page_2mib.shape_p2_huge.writes_nothing tier=thorough bounded="pool of 7 tables (4 path + 3 allocatable); tree-shaped sparse pre-state (target path, one neighbour word per path table, garbage in allocatable frames); page-table indices (511,511,511,511)"
-    //@ obligation C09 C09.translate_page_2mib.shape_p2_huge.no_frames_requested_or_zeroed tier=thorough bounded="pool of 7 tables (4 path + 3 allocatable); tree-shaped sparse pre-state (target path, one neighbour word per path table, garbage in allocatable frames); page-table indices (511,511,511,511)"
+    //@ obligation C01 C01.translate_page_2mib.shape_p2_huge.agrees_with_walk tier=thorough bounded="pool of 7 tables (4 path + 3 allocatable); tree-shaped sparse pre-state (target path, one neighbour word per path table, garbage in allocatable frames); page-table indices (511,510,1,0)"
+    //@ obligation C02 C02.translate_page_2mib.shape_p2_huge.documented_outcome tier=thorough bounded="pool of 7 tables (4 path + 3 allocatable); tree-shaped sparse pre-state (target path, one neighbour word per path table, garbage in allocatable frames); page-table indices (511,510,1,0)"
+    //@ obligation C09 C09.translate_page_2mib.shape_p2_huge.writes_nothing tier=thorough bounded="pool of 7 tables (4 path + 3 allocatable); tree-shaped sparse pre-state (target path, one neighbour word per path table, garbage in allocatable frames); page-table indices (511,510,1,0)"
+    //@ obligation C09 C09.translate_page_2mib.shape_p2_huge.no_frames_requested_or_zeroed tier=thorough bounded="pool of 7 tables (4 path + 3 allocatable); tree-shaped sparse pre-state (target path, one neighbour word per path table, garbage in allocatable frames); page-table indices (511,510,1,0)"
+    //@ obligation C09 C09.translate_page_2mib.shape_p2_huge.no_access_outside_page_tables tier=thorough bounded="pool of 7 tables (4 path + 3 allocatable); tree-shaped sparse pre-state (target path, one neighbour word per path table, garbage in allocatable frames); page-table indices (511,510,1,0)"
     #[kani::proof]
     #[kani::stub(PageTable::zero, zero_stub)]
     fn c01_translate_page_2mib_p2_huge_hi() {
@@ -632,10 +741,11 @@ mod verif_c01_step_read {
         kani::cover!(true, "c01_translate_page_2mib_p2_huge_hi: reachable");
     }
 
-    //@ obligation C01 C01.translate_page_2mib.shape_p2_huge.agrees_with_walk tier=thorough bounded="pool of 7 tables (4 path + 3 allocatable); tree-shaped sparse pre-state (target path, one neighbour word per path table, garbage in allocatable frames); page-table indices (255,511,0,1)"
-    //@ obligation C02 C02.translate_page_2mib.shape_p2_huge.documented_outcome tier=thorough bounded="pool of 7 tables (4 path + 3 allocatable); tree-shaped sparse pre-state (target path, one neighbour word per path table, garbage in allocatable frames); page-table indices (255,511,0,1)"
-    //@ obligation C09 C09.translate_page_2mib.shape_p2_huge.writes_nothing tier=thorough bounded="pool of 7 tables (4 path + 3 allocatable); tree-shaped sparse pre-state (target path, one neighbour word per path table, garbage in allocatable frames); page-table indices (255,511,0,1)"
-    //@ obligation C09 C09.translate_page_2mib.shape_p2_huge.no_frames_requested_or_zeroed tier=thorough bounded="pool of 7 tables (4 path + 3 allocatable); tree-shaped sparse pre-state (target path, one neighbour word per path table, garbage in allocatable frames); page-table indices (255,511,0,1)"
+    //@ obligation C01 C01.translate_page_2mib.shape_p2_huge.agrees_with_walk tier=thorough bounded="pool of 7 tables (4 path + 3 allocatable); tree-shaped sparse pre-state (target path, one neighbour word per path table, garbage in allocatable frames); page-table indices (255,511,0,256)"
+    //@ obligation C02 C02.translate_page_2mib.shape_p2_huge.documented_outcome tier=thorough bounded="pool of 7 tables (4 path + 3 allocatable); tree-shaped sparse pre-state (target path, one neighbour word per path table, garbage in allocatable frames); page-table indices (255,511,0,256)"
+    //@ obligation C09 C09.translate_page_2mib.shape_p2_huge.writes_nothing tier=thorough bounded="pool of 7 tables (4 path + 3 allocatable); tree-shaped sparse pre-state (target path, one neighbour word per path table, garbage in allocatable frames); page-table indices (255,511,0,256)"
+    //@ obligation C09 C09.translate_page_2mib.shape_p2_huge.no_frames_requested_or_zeroed tier=thorough bounded="pool of 7 tables (4 path + 3 allocatable); tree-shaped sparse pre-state (target path, one neighbour word per path table, garbage in allocatable frames); page-table indices (255,511,0,256)"
+    //@ obligation C09 C09.translate_page_2mib.shape_p2_huge.no_access_outside_page_tables tier=thorough bounded="pool of 7 tables (4 path + 3 allocatable); tree-shaped sparse pre-state (target path, one neighbour word per path table, garbage in allocatable frames); page-table indices (255,511,0,256)"
     #[kani::proof]
     #[kani::stub(PageTable::zero, zero_stub)]
     fn c01_translate_page_2mib_p2_huge_mid() {
@@ -643,10 +753,11 @@ mod verif_c01_step_read {
         kani::cover!(true, "c01_translate_page_2mib_p2_huge_mid: reachable");
     }
 
-    //@ obligation C01 C01.translate_page_2mib.shape_p2_huge.agrees_with_walk bounded="pool of 7 tables (4 path + 3 allocatable); tree-shaped sparse pre-state (target path, one neighbour word per path table, garbage in allocatable frames); page-table indices (256,1,510,255)"
-    //@ obligation C02 C02.translate_page_2mib.shape_p2_huge.documented_outcome bounded="pool of 7 tables (4 path + 3 allocatable); tree-shaped sparse pre-state (target path, one neighbour word per path table, garbage in allocatable frames); page-table indices (256,1,510,255)"
-    //@ obligation C09 C09.translate_page_2mib.shape_p2_huge.writes_nothing bounded="pool of 7 tables (4 path + 3 allocatable); tree-shaped sparse pre-state (target path, one neighbour word per path table, garbage in allocatable frames); page-table indices (256,1,510,255)"
-    //@ obligation C09 C09.translate_page_2mib.shape_p2_huge.no_frames_requested_or_zeroed bounded="pool of 7 tables (4 path + 3 allocatable); tree-shaped sparse pre-state (target path, one neighbour word per path table, garbage in allocatable frames); page-table indices (256,1,510,255)"
+    //@ obligation C01 C01.translate_page_2mib.shape_p2_huge.agrees_with_walk bounded="pool of 7 tables (4 path + 3 allocatable); tree-shaped sparse pre-state (target path, one neighbour word per path table, garbage in allocatable frames); page-table indices (256,0,510,511)"
+    //@ obligation C02 C02.translate_page_2mib.shape_p2_huge.documented_outcome bounded="pool of 7 tables (4 path + 3 allocatable); tree-shaped sparse pre-state (target path, one neighbour word per path table, garbage in allocatable frames); page-table indices (256,0,510,511)"
+    //@ obligation C09 C09.translate_page_2mib.shape_p2_huge.writes_nothing bounded="pool of 7 tables (4 path + 3 allocatable); tree-shaped sparse pre-state (target path, one neighbour word per path table, garbage in allocatable frames); page-table indices (256,0,510,511)"
+    //@ obligation C09 C09.translate_page_2mib.shape_p2_huge.no_frames_requested_or_zeroed bounded="pool of 7 tables (4 path + 3 allocatable); tree-shaped sparse pre-state (target path, one neighbour word per path table, garbage in allocatable frames); page-table indices (256,0,510,511)"
+    //@ obligation C09 C09.translate_page_2mib.shape_p2_huge.no_access_outside_page_tables bounded="pool of 7 tables (4 path + 3 allocatable); tree-shaped sparse pre-state (target path, one neighbour word per path table, garbage in allocatable frames); page-table indices (256,0,510,511)"
     #[kani::proof]
     #[kani::stub(PageTable::zero, zero_stub)]
     fn c01_translate_page_2mib_p2_huge_up() {
@@ -654,10 +765,11 @@ mod verif_c01_step_read {
         kani::cover!(true, "c01_translate_page_2mib_p2_huge_up: reachable");
     }
 
-    //@ obligation C02 C02.translate_page_2mib.shape_table_entry.no_success_for_nonexistent_size tier=thorough bounded="pool of 7 tables (4 path + 3 allocatable); tree-shaped sparse pre-state (target path, one neighbour word per path table, garbage in allocatable frames); page-table indices (0,0,0,0)"
-    //@ obligation C02 C02.translate_page_2mib.shape_table_entry.documented_outcome tier=thorough bounded="pool of 7 tables (4 path + 3 allocatable); tree-shaped sparse pre-state (target path, one neighbour word per path table, garbage in allocatable frames); page-table indices (0,0,0,0)"
-    //@ obligation C09 C09.translate_page_2mib.shape_table_entry.writes_nothing tier=thorough bounded="pool of 7 tables (4 path + 3 allocatable); tree-shaped sparse pre-state (target path, one neighbour word per path table, garbage in allocatable frames); page-table indices (0,0,0,0)"
-    //@ obligation C09 C09.translate_page_2mib.shape_table_entry.no_frames_requested_or_zeroed tier=thorough bounded="pool of 7 tables (4 path + 3 allocatable); tree-shaped sparse pre-state (target path, one neighbour word per path table, garbage in allocatable frames); page-table indices (0,0,0,0)"
+    //@ obligation C02 C02.translate_page_2mib.shape_table_entry.no_success_for_nonexistent_size tier=thorough bounded="pool of 7 tables (4 path + 3 allocatable); tree-shaped sparse pre-state (target path, one neighbour word per path table, garbage in allocatable frames); page-table indices (0,1,511,2)"
+    //@ obligation C02 C02.translate_page_2mib.shape_table_entry.documented_outcome tier=thorough bounded="pool of 7 tables (4 path + 3 allocatable); tree-shaped sparse pre-state (target path, one neighbour word per path table, garbage in allocatable frames); page-table indices (0,1,511,2)"
+    //@ obligation C09 C09.translate_page_2mib.shape_table_entry.writes_nothing tier=thorough bounded="pool of 7 tables (4 path + 3 allocatable); tree-shaped sparse pre-state (target path, one neighbour word per path table, garbage in allocatable frames); page-table indices (0,1,511,2)"
+    //@ obligation C09 C09.translate_page_2mib.shape_table_entry.no_frames_requested_or_zeroed tier=thorough bounded="pool of 7 tables (4 path + 3 allocatable); tree-shaped sparse pre-state (target path, one neighbour word per path table, garbage in allocatable frames); page-table indices (0,1,511,2)"
+    //@ obligation C09 C09.translate_page_2mib.shape_table_entry.no_access_outside_page_tables tier=thorough bounded="pool of 7 tables (4 path + 3 allocatable); tree-shaped sparse pre-state (target path, one neighbour word per path table, garbage in allocatable frames); page-table indices (0,1,511,2)"
     #[kani::proof]
     #[kani::stub(PageTable::zero, zero_stub)]
     fn c02_translate_page_2mib_table_entry_lo() {
@@ -665,10 +777,11 @@ mod verif_c01_step_read {
         kani::cover!(true, "c02_translate_page_2mib_table_entry_lo: reachable");
     }
 
-    //@ obligation C02 C02.translate_page_2mib.shape_table_entry.no_success_for_nonexistent_size tier=thorough bounded="pool of 7 tables (4 path + 3 allocatable); tree-shaped sparse pre-state (target path, one neighbour word per path table, garbage in allocatable frames); page-table indices (511,511,511,511)"
-    //@ obligation C02 C02.translate_page_2mib.shape_table_entry.documented_outcome tier=thorough bounded="pool of 7 tables (4 path + 3 allocatable); tree-shaped sparse pre-state (target path, one neighbour word per path table, garbage in allocatable frames); page-table indices (511,511,511,511)"
-    //@ obligation C09 C09.translate_page_2mib.shape_table_entry.writes_nothing tier=thorough bounded="pool of 7 tables (4 path + 3 allocatable); tree-shaped sparse pre-state (target path, one neighbour word per path table, garbage in allocatable frames); page-table indices (511,511,511,511)"
-    //@ obligation C09 C09.translate_page_2mib.shape_table_entry.no_frames_requested_or_zeroed tier=thorough bounded="pool of 7 tables (4 path + 3 allocatable); tree-shaped sparse pre-state (target path, one neighbour word per path table, garbage in allocatable frames); page-table indices (511,511,511,511)"
+    //@ obligation C02 C02.translate_page_2mib.shape_table_entry.no_success_for_nonexistent_size tier=thorough bounded="pool of 7 tables (4 path + 3 allocatable); tree-shaped sparse pre-state (target path, one neighbour word per path table, garbage in allocatable frames); page-table indices (511,510,1,0)"
+    //@ obligation C02 C02.translate_page_2mib.shape_table_entry.documented_outcome tier=thorough bounded="pool of 7 tables (4 path + 3 allocatable); tree-shaped sparse pre-state (target path, one neighbour word per path table, garbage in allocatable frames); page-table indices (511,510,1,0)"
+    //@ obligation C09 C09.translate_page_2mib.shape_table_entry.writes_nothing tier=thorough bounded="pool of 7 tables (4 path + 3 allocatable); tree-shaped sparse pre-state (target path, one neighbour word per path table, garbage in allocatable frames); page-table indices (511,510,1,0)"
+    //@ obligation C09 C09.translate_page_2mib.shape_table_entry.no_frames_requested_or_zeroed tier=thorough bounded="pool of 7 tables (4 path + 3 allocatable); tree-shaped sparse pre-state (target path, one neighbour word per path table, garbage in allocatable frames); page-table indices (511,510,1,0)"
+    //@ obligation C09 C09.translate_page_2mib.shape_table_entry.no_access_outside_page_tables tier=thorough bounded="pool of 7 tables (4 path + 3 allocatable); tree-shaped sparse pre-state (target path, one neighbour word per path table, garbage in allocatable frames); page-table indices (511,510,1,0)"
     #[kani::proof]
     #[kani::stub(PageTable::zero, zero_stub)]
     fn c02_translate_page_2mib_table_entry_hi() {
@@ -676,10 +789,11 @@ mod verif_c01_step_read {
         kani::cover!(true, "c02_translate_page_2mib_table_entry_hi: reachable");
     }
 
-    //@ obligation C02 C02.translate_page_2mib.shape_table_entry.no_success_for_nonexistent_size tier=thorough bounded="pool of 7 tables (4 path + 3 allocatable); tree-shaped sparse pre-state (target path, one neighbour word per path table, garbage in allocatable frames); page-table indices (255,511,0,1)"
-    //@ obligation C02 C02.translate_page_2mib.shape_table_entry.documented_outcome tier=thorough bounded="pool of 7 tables (4 path + 3 allocatable); tree-shaped sparse pre-state (target path, one neighbour word per path table, garbage in allocatable frames); page-table indices (255,511,0,1)"
-    //@ obligation C09 C09.translate_page_2mib.shape_table_entry.writes_nothing tier=thorough bounded="pool of 7 tables (4 path + 3 allocatable); tree-shaped sparse pre-state (target path, one neighbour word per path table, garbage in allocatable frames); page-table indices (255,511,0,1)"
-    //@ obligation C09 C09.translate_page_2mib.shape_table_entry.no_frames_requested_or_zeroed tier=thorough bounded="pool of 7 tables (4 path + 3 allocatable); tree-shaped sparse pre-state (target path, one neighbour word per path table, garbage in allocatable frames); page-table indices (255,511,0,1)"
+    //@ obligation C02 C02.translate_page_2mib.shape_table_entry.no_success_for_nonexistent_size tier=thorough bounded="pool of 7 tables (4 path + 3 allocatable); tree-shaped sparse pre-state (target path, one neighbour word per path table, garbage in allocatable frames); page-table indices (255,511,0,256)"
+    //@ obligation C02 C02.translate_page_2mib.shape_table_entry.documented_outcome tier=thorough bounded="pool of 7 tables (4 path + 3 allocatable); tree-shaped sparse pre-state (target path, one neighbour word per path table, garbage in allocatable frames); page-table indices (255,511,0,256)"
+    //@ obligation C09 C09.translate_page_2mib.shape_table_entry.writes_nothing tier=thorough bounded="pool of 7 tables (4 path + 3 allocatable); tree-shaped sparse pre-state (target path, one neighbour word per path table, garbage in allocatable frames); page-table indices (255,511,0,256)"
+    //@ obligation C09 C09.translate_page_2mib.shape_table_entry.no_frames_requested_or_zeroed tier=thorough bounded="pool of 7 tables (4 path + 3 allocatable); tree-shaped sparse pre-state (target path, one neighbour word per path table, garbage in allocatable frames); page-table indices (255,511,0,256)"
+    //@ obligation C09 C09.translate_page_2mib.shape_table_entry.no_access_outside_page_tables tier=thorough bounded="pool of 7 tables (4 path + 3 allocatable); tree-shaped sparse pre-state (target path, one neighbour word per path table, garbage in allocatable frames); page-table indices (255,511,0,256)"
     #[kani::proof]
     #[kani::stub(PageTable::zero, zero_stub)]
     fn c02_translate_page_2mib_table_entry_mid() {
@@ -687,10 +801,11 @@ mod verif_c01_step_read {
         kani::cover!(true, "c02_translate_page_2mib_table_entry_mid: reachable");
     }
 
-    //@ obligation C02 C02.translate_page_2mib.shape_table_entry.no_success_for_nonexistent_size tier=thorough bounded="pool of 7 tables (4 path + 3 allocatable); tree-shaped sparse pre-state (target path, one neighbour word per path table, garbage in allocatable frames); page-table indices (256,1,510,255)"
-    //@ obligation C02 C02.translate_page_2mib.shape_table_entry.documented_outcome tier=thorough bounded="pool of 7 tables (4 path + 3 allocatable); tree-shaped sparse pre-state (target path, one neighbour word per path table, garbage in allocatable frames); page-table indices (256,1,510,255)"
-    //@ obligation C09 C09.translate_page_2mib.shape_table_entry.writes_nothing tier=thorough bounded="pool of 7 tables (4 path + 3 allocatable); tree-shaped sparse pre-state (target path, one neighbour word per path table, garbage in allocatable frames); page-table indices (256,1,510,255)"
-    //@ obligation C09 C09.translate_page_2mib.shape_table_entry.no_frames_requested_or_zeroed tier=thorough bounded="pool of 7 tables (4 path + 3 allocatable); tree-shaped sparse pre-state (target path, one neighbour word per path table, garbage in allocatable frames); page-table indices (256,1,510,255)"
+    //@ obligation C02 C02.translate_page_2mib.shape_table_entry.no_success_for_nonexistent_size tier=thorough bounded="pool of 7 tables (4 path + 3 allocatable); tree-shaped sparse pre-state (target path, one neighbour word per path table, garbage in allocatable frames); page-table indices (256,0,510,511)"
+    //@ obligation C02 C02.translate_page_2mib.shape_table_entry.documented_outcome tier=thorough bounded="pool of 7 tables (4 path + 3 allocatable); tree-shaped sparse pre-state (target path, one neighbour word per path table, garbage in allocatable frames); page-table indices (256,0,510,511)"
+    //@ obligation C09 C09.translate_page_2mib.shape_table_entry.writes_nothing tier=thorough bounded="pool of 7 tables (4 path + 3 allocatable); tree-shaped sparse pre-state (target path, one neighbour word per path table, garbage in allocatable frames); page-table indices (256,0,510,511)"
+    //@ obligation C09 C09.translate_page_2mib.shape_table_entry.no_frames_requested_or_zeroed tier=thorough bounded="pool of 7 tables (4 path + 3 allocatable); tree-shaped sparse pre-state (target path, one neighbour word per path table, garbage in allocatable frames); page-table indices (256,0,510,511)"
+    //@ obligation C09 C09.translate_page_2mib.shape_table_entry.no_access_outside_page_tables tier=thorough bounded="pool of 7 tables (4 path + 3 allocatable); tree-shaped sparse pre-state (target path, one neighbour word per path table, garbage in allocatable frames); page-table indices (256,0,510,511)"
     #[kani::proof]
     #[kani::stub(PageTable::zero, zero_stub)]
     fn c02_translate_page_2mib_table_entry_up() {
@@ -698,10 +813,59 @@ mod verif_c01_step_read {
         kani::cover!(true, "c02_translate_page_2mib_table_entry_up: reachable");
     }
 
-    //@ obligation C01 C01.translate_page_1gib.shape_p4_absent.agrees_with_walk tier=thorough bounded="pool of 7 tables (4 path + 3 allocatable); tree-shaped sparse pre-state (target path, one neighbour word per path table, garbage in allocatable frames); page-table indices (0,0,0,0)"
-    //@ obligation C02 C02.translate_page_1gib.shape_p4_absent.documented_outcome tier=thorough bounded="pool of 7 tables (4 path + 3 allocatable); tree-shaped sparse pre-state (target path, one neighbour word per path table, garbage in allocatable frames); page-table indices (0,0,0,0)"
-    //@ obligation C09 C09.translate_page_1gib.shape_p4_absent.writes_nothing tier=thorough bounded="pool of 7 tables (4 path + 3 allocatable); tree-shaped sparse pre-state (target path, one neighbour word per path table, garbage in allocatable frames); page-table indices (0,0,0,0)"
-    //@ obligation C09 C09.translate_page_1gib.shape_p4_absent.no_frames_requested_or_zeroed tier=thorough bounded="pool of 7 tables (4 path + 3 allocatable); tree-shaped sparse pre-state (target path, one neighbour word per path table, garbage in allocatable frames); page-table indices (0,0,0,0)"
+    //@ obligation C01 C01.translate_page_2mib.shape_sym.agrees_with_walk tier=thorough bounded="pool of 7 tables (4 path + 3 allocatable); tree-shaped sparse pre-state (target path, one neighbour word per path table, garbage in allocatable frames); page-table indices (0,1,511,2)"
+    //@ obligation C02 C02.translate_page_2mib.shape_sym.documented_outcome tier=thorough bounded="pool of 7 tables (4 path + 3 allocatable); tree-shaped sparse pre-state (target path, one neighbour word per path table, garbage in allocatable frames); page-table indices (0,1,511,2)"
+    //@ obligation C09 C09.translate_page_2mib.shape_sym.writes_nothing tier=thorough bounded="pool of 7 tables (4 path + 3 allocatable); tree-shaped sparse pre-state (target path, one neighbour word per path table, garbage in allocatable frames); page-table indices (0,1,511,2)"
+    //@ obligation C09 C09.translate_page_2mib.shape_sym.no_frames_requested_or_zeroed tier=thorough bounded="pool of 7 tables (4 path + 3 allocatable); tree-shaped sparse pre-state (target path, one neighbour word per path table, garbage in allocatable frames); page-table indices (0,1,511,2)"
+    //@ obligation C09 C09.translate_page_2mib.shape_sym.no_access_outside_page_tables tier=thorough bounded="pool of 7 tables (4 path + 3 allocatable); tree-shaped sparse pre-state (target path, one neighbour word per path table, garbage in allocatable frames); page-table indices (0,1,511,2)"
+    #[kani::proof]
+    #[kani::stub(PageTable::zero, zero_stub)]
+    fn c01_translate_page_2mib_sym_lo() {
+        translate_page_step!(Size2MiB, "2mib", "sym", P2_SYM, IDX_LO);
+        kani::cover!(true, "c01_translate_page_2mib_sym_lo: reachable");
+    }
+
+    //@ obligation C01 C01.translate_page_2mib.shape_sym.agrees_with_walk tier=thorough bounded="pool of 7 tables (4 path + 3 allocatable); tree-shaped sparse pre-state (target path, one neighbour word per path table, garbage in allocatable frames); page-table indices (511,510,1,0)"
+    //@ obligation C02 C02.translate_page_2mib.shape_sym.documented_outcome tier=thorough bounded="pool of 7 tables (4 path + 3 allocatable); tree-shaped sparse pre-state (target path, one neighbour word per path table, garbage in allocatable frames); page-table indices (511,510,1,0)"
+    //@ obligation C09 C09.translate_page_2mib.shape_sym.writes_nothing tier=thorough bounded="pool of 7 tables (4 path + 3 allocatable); tree-shaped sparse pre-state (target path, one neighbour word per path table, garbage in allocatable frames); page-table indices (511,510,1,0)"
+    //@ obligation C09 C09.translate_page_2mib.shape_sym.no_frames_requested_or_zeroed tier=thorough bounded="pool of 7 tables (4 path + 3 allocatable); tree-shaped sparse pre-state (target path, one neighbour word per path table, garbage in allocatable frames); page-table indices (511,510,1,0)"
+    //@ obligation C09 C09.translate_page_2mib.shape_sym.no_access_outside_page_tables tier=thorough bounded="pool of 7 tables (4 path + 3 allocatable); tree-shaped sparse pre-state (target path, one neighbour word per path table, garbage in allocatable frames); page-table indices (511,510,1,0)"
+    #[kani::proof]
+    #[kani::stub(PageTable::zero, zero_stub)]
+    fn c01_translate_page_2mib_sym_hi() {
+        translate_page_step!(Size2MiB, "2mib", "sym", P2_SYM, IDX_HI);
+        kani::cover!(true, "c01_translate_page_2mib_sym_hi: reachable");
+    }
+
+    //@ obligation C01 C01.translate_page_2mib.shape_sym.agrees_with_walk bounded="pool of 7 tables (4 path + 3 allocatable); tree-shaped sparse pre-state (target path, one neighbour word per path table, garbage in allocatable frames); page-table indices (255,511,0,256)"
+    //@ obligation C02 C02.translate_page_2mib.shape_sym.documented_outcome bounded="pool of 7 tables (4 path + 3 allocatable); tree-shaped sparse pre-state (target path, one neighbour word per path table, garbage in allocatable frames); page-table indices (255,511,0,256)"
+    //@ obligation C09 C09.translate_page_2mib.shape_sym.writes_nothing bounded="pool of 7 tables (4 path + 3 allocatable); tree-shaped sparse pre-state (target path, one neighbour word per path table, garbage in allocatable frames); page-table indices (255,511,0,256)"
+    //@ obligation C09 C09.translate_page_2mib.shape_sym.no_frames_requested_or_zeroed bounded="pool of 7 tables (4 path + 3 allocatable); tree-shaped sparse pre-state (target path, one neighbour word per path table, garbage in allocatable frames); page-table indices (255,511,0,256)"
+    //@ obligation C09 C09.translate_page_2mib.shape_sym.no_access_outside_page_tables bounded="pool of 7 tables (4 path + 3 allocatable); tree-shaped sparse pre-state (target path, one neighbour word per path table, garbage in allocatable frames); page-table indices (255,511,0,256)"
+    #[kani::proof]
+    #[kani::stub(PageTable::zero, zero_stub)]
+    fn c01_translate_page_2mib_sym_mid() {
+        translate_page_step!(Size2MiB, "2mib", "sym", P2_SYM, IDX_MID);
+        kani::cover!(true, "c01_translate_page_2mib_sym_mid: reachable");
+    }
+
+    //@ obligation C01 C01.translate_page_2mib.shape_sym.agrees_with_walk tier=thorough bounded="pool of 7 tables (4 path + 3 allocatable); tree-shaped sparse pre-state (target path, one neighbour word per path table, garbage in allocatable frames); page-table indices (256,0,510,511)"
+    //@ obligation C02 C02.translate_page_2mib.shape_sym.documented_outcome tier=thorough bounded="pool of 7 tables (4 path + 3 allocatable); tree-shaped sparse pre-state (target path, one neighbour word per path table, garbage in allocatable frames); page-table indices (256,0,510,511)"
+    //@ obligation C09 C09.translate_page_2mib.shape_sym.writes_nothing tier=thorough bounded="pool of 7 tables (4 path + 3 allocatable); tree-shaped sparse pre-state (target path, one neighbour word per path table, garbage in allocatable frames); page-table indices (256,0,510,511)"
+    //@ obligation C09 C09.translate_page_2mib.shape_sym.no_frames_requested_or_zeroed tier=thorough bounded="pool of 7 tables (4 path + 3 allocatable); tree-shaped sparse pre-state (target path, one neighbour word per path table, garbage in allocatable frames); page-table indices (256,0,510,511)"
+    //@ obligation C09 C09.translate_page_2mib.shape_sym.no_access_outside_page_tables tier=thorough bounded="pool of 7 tables (4 path + 3 allocatable); tree-shaped sparse pre-state (target path, one neighbour word per path table, garbage in allocatable frames); page-table indices (256,0,510,511)"
+    #[kani::proof]
+    #[kani::stub(PageTable::zero, zero_stub)]
+    fn c01_translate_page_2mib_sym_up() {
+        translate_page_step!(Size2MiB, "2mib", "sym", P2_SYM, IDX_UP);
+        kani::cover!(true, "c01_translate_page_2mib_sym_up: reachable");
+    }
+
+    //@ obligation C01 C01.translate_page_1gib.shape_p4_absent.agrees_with_walk tier=thorough bounded="pool of 7 tables (4 path + 3 allocatable); tree-shaped sparse pre-state (target path, one neighbour word per path table, garbage in allocatable frames); page-table indices (0,1,511,2)"
+    //@ obligation C02 C02.translate_page_1gib.shape_p4_absent.documented_outcome tier=thorough bounded="pool of 7 tables (4 path + 3 allocatable); tree-shaped sparse pre-state (target path, one neighbour word per path table, garbage in allocatable frames); page-table indices (0,1,511,2)"
+    //@ obligation C09 C09.translate_page_1gib.shape_p4_absent.writes_nothing tier=thorough bounded="pool of 7 tables (4 path + 3 allocatable); tree-shaped sparse pre-state (target path, one neighbour word per path table, garbage in allocatable frames); page-table indices (0,1,511,2)"
+    //@ obligation C09 C09.translate_page_1gib.shape_p4_absent.no_frames_requested_or_zeroed tier=thorough bounded="pool of 7 tables (4 path + 3 allocatable); tree-shaped sparse pre-state (target path, one neighbour word per path table, garbage in allocatable frames); page-table indices (0,1,511,2)"
+    //@ obligation C09 C09.translate_page_1gib.shape_p4_absent.no_access_outside_page_tables tier=thorough bounded="pool of 7 tables (4 path + 3 allocatable); tree-shaped sparse pre-state (target path, one neighbour word per path table, garbage in allocatable frames); page-table indices (0,1,511,2)"
     #[kani::proof]
     #[kani::stub(PageTable::zero, zero_stub)]
     fn c01_translate_page_1gib_p4_absent_lo() {
@@ -709,10 +873,11 @@ mod verif_c01_step_read {
         kani::cover!(true, "c01_translate_page_1gib_p4_absent_lo: reachable");
     }
 
-    //@ obligation C01 C01.translate_page_1gib.shape_p4_absent.agrees_with_walk tier=thorough bounded="pool of 7 tables (4 path + 3 allocatable); tree-shaped sparse pre-state (target path, one neighbour word per path table, garbage in allocatable frames); page-table indices (511,511,511,511)"
-    //@ obligation C02 C02.translate_page_1gib.shape_p4_absent.documented_outcome tier=thorough bounded="pool of 7 tables (4 path + 3 allocatable); tree-shaped sparse pre-state (target path, one neighbour word per path table, garbage in allocatable frames); page-table indices (511,511,511,511)"
-    //@ obligation C09 C09.translate_page_1gib.shape_p4_absent.writes_nothing tier=thorough bounded="pool of 7 tables (4 path + 3 allocatable); tree-shaped sparse pre-state (target path, one neighbour word per path table, garbage in allocatable frames); page-table indices (511,511,511,511)"
-    //@ obligation C09 C09.translate_page_1gib.shape_p4_absent.no_frames_requested_or_zeroed tier=thorough bounded="pool of 7 tables (4 path + 3 allocatable); tree-shaped sparse pre-state (target path, one neighbour word per path table, garbage in allocatable frames); page-table indices (511,511,511,511)"
+    //@ obligation C01 C01.translate_page_1gib.shape_p4_absent.agrees_with_walk tier=thorough bounded="pool of 7 tables (4 path + 3 allocatable); tree-shaped sparse pre-state (target path, one neighbour word per path table, garbage in allocatable frames); page-table indices (511,510,1,0)"
+    //@ obligation C02 C02.translate_page_1gib.shape_p4_absent.documented_outcome tier=thorough bounded="pool of 7 tables (4 path + 3 allocatable); tree-shaped sparse pre-state (target path, one neighbour word per path table, garbage in allocatable frames); page-table indices (511,510,1,0)"
+    //@ obligation C09 C09.translate_page_1gib.shape_p4_absent.writes_nothing tier=thorough bounded="pool of 7 tables (4 path + 3 allocatable); tree-shaped sparse pre-state (target path, one neighbour word per path table, garbage in allocatable frames); page-table indices (511,510,1,0)"
+    //@ obligation C09 C09.translate_page_1gib.shape_p4_absent.no_frames_requested_or_zeroed tier=thorough bounded="pool of 7 tables (4 path + 3 allocatable); tree-shaped sparse pre-state (target path, one neighbour word per path table, garbage in allocatable frames); page-table indices (511,510,1,0)"
+    //@ obligation C09 C09.translate_page_1gib.shape_p4_absent.no_access_outside_page_tables tier=thorough bounded="pool of 7 tables (4 path + 3 allocatable); tree-shaped sparse pre-state (target path, one neighbour word per path table, garbage in allocatable frames); page-table indices (511,510,1,0)"
     #[kani::proof]
     #[kani::stub(PageTable::zero, zero_stub)]
     fn c01_translate_page_1gib_p4_absent_hi() {
@@ -720,10 +885,11 @@ mod verif_c01_step_read {
         kani::cover!(true, "c01_translate_page_1gib_p4_absent_hi: reachable");
     }
 
-    //@ obligation C01 C01.translate_page_1gib.shape_p4_absent.agrees_with_walk tier=thorough bounded="pool of 7 tables (4 path + 3 allocatable); tree-shaped sparse pre-state (target path, one neighbour word per path table, garbage in allocatable frames); page-table indices (255,511,0,1)"
-    //@ obligation C02 C02.translate_page_1gib.shape_p4_absent.documented_outcome tier=thorough bounded="pool of 7 tables (4 path + 3 allocatable); tree-shaped sparse pre-state (target path, one neighbour word per path table, garbage in allocatable frames); page-table indices (255,511,0,1)"
-    //@ obligation C09 C09.translate_page_1gib.shape_p4_absent.writes_nothing tier=thorough bounded="pool of 7 tables (4 path + 3 allocatable); tree-shaped sparse pre-state (target path, one neighbour word per path table, garbage in allocatable frames); page-table indices (255,511,0,1)"
-    //@ obligation C09 C09.translate_page_1gib.shape_p4_absent.no_frames_requested_or_zeroed tier=thorough bounded="pool of 7 tables (4 path + 3 allocatable); tree-shaped sparse pre-state (target path, one neighbour word per path table, garbage in allocatable frames); page-table indices (255,511,0,1)"
+    //@ obligation C01 C01.translate_page_1gib.shape_p4_absent.agrees_with_walk tier=thorough bounded="pool of 7 tables (4 path + 3 allocatable); tree-shaped sparse pre-state (target path, one neighbour word per path table, garbage in allocatable frames); page-table indices (255,511,0,256)"
+    //@ obligation C02 C02.translate_page_1gib.shape_p4_absent.documented_outcome tier=thorough bounded="pool of 7 tables (4 path + 3 allocatable); tree-shaped sparse pre-state (target path, one neighbour word per path table, garbage in allocatable frames); page-table indices (255,511,0,256)"
+    //@ obligation C09 C09.translate_page_1gib.shape_p4_absent.writes_nothing tier=thorough bounded="pool of 7 tables (4 path + 3 allocatable); tree-shaped sparse pre-state (target path, one neighbour word per path table, garbage in allocatable frames); page-table indices (255,511,0,256)"
+    //@ obligation C09 C09.translate_page_1gib.shape_p4_absent.no_frames_requested_or_zeroed tier=thorough bounded="pool of 7 tables (4 path + 3 allocatable); tree-shaped sparse pre-state (target path, one neighbour word per path table, garbage in allocatable frames); page-table indices (255,511,0,256)"
+    //@ obligation C09 C09.translate_page_1gib.shape_p4_absent.no_access_outside_page_tables tier=thorough bounded="pool of 7 tables (4 path + 3 allocatable); tree-shaped sparse pre-state (target path, one neighbour word per path table, garbage in allocatable frames); page-table indices (255,511,0,256)"
     #[kani::proof]
     #[kani::stub(PageTable::zero, zero_stub)]
     fn c01_translate_page_1gib_p4_absent_mid() {
@@ -731,10 +897,11 @@ mod verif_c01_step_read {
         kani::cover!(true, "c01_translate_page_1gib_p4_absent_mid: reachable");
     }
 
-    //@ obligation C01 C01.translate_page_1gib.shape_p4_absent.agrees_with_walk tier=thorough bounded="pool of 7 tables (4 path + 3 allocatable); tree-shaped sparse pre-state (target path, one neighbour word per path table, garbage in allocatable frames); page-table indices (256,1,510,255)"
-    //@ obligation C02 C02.translate_page_1gib.shape_p4_absent.documented_outcome tier=thorough bounded="pool of 7 tables (4 path + 3 allocatable); tree-shaped sparse pre-state (target path, one neighbour word per path table, garbage in allocatable frames); page-table indices (256,1,510,255)"
-    //@ obligation C09 C09.translate_page_1gib.shape_p4_absent.writes_nothing tier=thorough bounded="pool of 7 tables (4 path + 3 allocatable); tree-shaped sparse pre-state (target path, one neighbour word per path table, garbage in allocatable frames); page-table indices (256,1,510,255)"
-    //@ obligation C09 C09.translate_page_1gib.shape_p4_absent.no_frames_requested_or_zeroed tier=thorough bounded="pool of 7 tables (4 path + 3 allocatable); tree-shaped sparse pre-state (target path, one neighbour word per path table, garbage in allocatable frames); page-table indices (256,1,510,255)"
+    //@ obligation C01 C01.translate_page_1gib.shape_p4_absent.agrees_with_walk tier=thorough bounded="pool of 7 tables (4 path + 3 allocatable); tree-shaped sparse pre-state (target path, one neighbour word per path table, garbage in allocatable frames); page-table indices (256,0,510,511)"
+    //@ obligation C02 C02.translate_page_1gib.shape_p4_absent.documented_outcome tier=thorough bounded="pool of 7 tables (4 path + 3 allocatable); tree-shaped sparse pre-state (target path, one neighbour word per path table, garbage in allocatable frames); page-table indices (256,0,510,511)"
+    //@ obligation C09 C09.translate_page_1gib.shape_p4_absent.writes_nothing tier=thorough bounded="pool of 7 tables (4 path + 3 allocatable); tree-shaped sparse pre-state (target path, one neighbour word per path table, garbage in allocatable frames); page-table indices (256,0,510,511)"
+    //@ obligation C09 C09.translate_page_1gib.shape_p4_absent.no_frames_requested_or_zeroed tier=thorough bounded="pool of 7 tables (4 path + 3 allocatable); tree-shaped sparse pre-state (target path, one neighbour word per path table, garbage in allocatable frames); page-table indices (256,0,510,511)"
+    //@ obligation C09 C09.translate_page_1gib.shape_p4_absent.no_access_outside_page_tables tier=thorough bounded="pool of 7 tables (4 path + 3 allocatable); tree-shaped sparse pre-state (target path, one neighbour word per path table, garbage in allocatable frames); page-table indices (256,0,510,511)"
     #[kani::proof]
     #[kani::stub(PageTable::zero, zero_stub)]
     fn c01_translate_page_1gib_p4_absent_up() {
@@ -742,10 +909,11 @@ mod verif_c01_step_read {
         kani::cover!(true, "c01_translate_page_1gib_p4_absent_up: reachable");
     }
 
-    //@ obligation C01 C01.translate_page_1gib.shape_p3_absent.agrees_with_walk tier=thorough bounded="pool of 7 tables (4 path + 3 allocatable); tree-shaped sparse pre-state (target path, one neighbour word per path table, garbage in allocatable frames); page-table indices (0,0,0,0)"
-    //@ obligation C02 C02.translate_page_1gib.shape_p3_absent.documented_outcome tier=thorough bounded="pool of 7 tables (4 path + 3 allocatable); tree-shaped sparse pre-state (target path, one neighbour word per path table, garbage in allocatable frames); page-table indices (0,0,0,0)"
-    //@ obligation C09 C09.translate_page_1gib.shape_p3_absent.writes_nothing tier=thorough bounded="pool of 7 tables (4 path + 3 allocatable); tree-shaped sparse pre-state (target path, one neighbour word per path table, garbage in allocatable frames); page-table indices (0,0,0,0)"
-    //@ obligation C09 C09.translate_page_1gib.shape_p3_absent.no_frames_requested_or_zeroed tier=thorough bounded="pool of 7 tables (4 path + 3 allocatable); tree-shaped sparse pre-state (target path, one neighbour word per path table, garbage in allocatable frames); page-table indices (0,0,0,0)"
+    //@ obligation C01 C01.translate_page_1gib.shape_p3_absent.agrees_with_walk tier=thorough bounded="pool of 7 tables (4 path + 3 allocatable); tree-shaped sparse pre-state (target path, one neighbour word per path table, garbage in allocatable frames); page-table indices (0,1,511,2)"
+    //@ obligation C02 C02.translate_page_1gib.shape_p3_absent.documented_outcome tier=thorough bounded="pool of 7 tables (4 path + 3 allocatable); tree-shaped sparse pre-state (target path, one neighbour word per path table, garbage in allocatable frames); page-table indices (0,1,511,2)"
+    //@ obligation C09 C09.translate_page_1gib.shape_p3_absent.writes_nothing tier=thorough bounded="pool of 7 tables (4 path + 3 allocatable); tree-shaped sparse pre-state (target path, one neighbour word per path table, garbage in allocatable frames); page-table indices (0,1,511,2)"
+    //@ obligation C09 C09.translate_page_1gib.shape_p3_absent.no_frames_requested_or_zeroed tier=thorough bounded="pool of 7 tables (4 path + 3 allocatable); tree-shaped sparse pre-state (target path, one neighbour word per path table, garbage in allocatable frames); page-table indices (0,1,511,2)"
+    //@ obligation C09 C09.translate_page_1gib.shape_p3_absent.no_access_outside_page_tables tier=thorough bounded="pool of 7 tables (4 path + 3 allocatable); tree-shaped sparse pre-state (target path, one neighbour word per path table, garbage in allocatable frames); page-table indices (0,1,511,2)"
     #[kani::proof]
     #[kani::stub(PageTable::zero, zero_stub)]
     fn c01_translate_page_1gib_p3_absent_lo() {
@@ -753,10 +921,11 @@ mod verif_c01_step_read {
         kani::cover!(true, "c01_translate_page_1gib_p3_absent_lo: reachable");
     }
 
-    //@ obligation C01 C01.translate_page_1gib.shape_p3_absent.agrees_with_walk tier=thorough bounded="pool of 7 tables (4 path + 3 allocatable); tree-shaped sparse pre-state (target path, one neighbour word per path table, garbage in allocatable frames); page-table indices (511,511,511,511)"
-    //@ obligation C02 C02.translate_page_1gib.shape_p3_absent.documented_outcome tier=thorough bounded="pool of 7 tables (4 path + 3 allocatable); tree-shaped sparse pre-state (target path, one neighbour word per path table, garbage in allocatable frames); page-table indices (511,511,511,511)"
-    //@ obligation C09 C09.translate_page_1gib.shape_p3_absent.writes_nothing tier=thorough bounded="pool of 7 tables (4 path + 3 allocatable); tree-shaped sparse pre-state (target path, one neighbour word per path table, garbage in allocatable frames); page-table indices (511,511,511,511)"
-    //@ obligation C09 C09.translate_page_1gib.shape_p3_absent.no_frames_requested_or_zeroed tier=thorough bounded="pool of 7 tables (4 path + 3 allocatable); tree-shaped sparse pre-state (target path, one neighbour word per path table, garbage in allocatable frames); page-table indices (511,511,511,511)"
+    //@ obligation C01 C01.translate_page_1gib.shape_p3_absent.agrees_with_walk tier=thorough bounded="pool of 7 tables (4 path + 3 allocatable); tree-shaped sparse pre-state (target path, one neighbour word per path table, garbage in allocatable frames); page-table indices (511,510,1,0)"
+    //@ obligation C02 C02.translate_page_1gib.shape_p3_absent.documented_outcome tier=thorough bounded="pool of 7 tables (4 path + 3 allocatable); tree-shaped sparse pre-state (target path, one neighbour word per path table, garbage in allocatable frames); page-table indices (511,510,1,0)"
+    //@ obligation C09 C09.translate_page_1gib.shape_p3_absent.writes_nothing tier=thorough bounded="pool of 7 tables (4 path + 3 allocatable); tree-shaped sparse pre-state (target path, one neighbour word per path table, garbage in allocatable frames); page-table indices (511,510,1,0)"
+    //@ obligation C09 C09.translate_page_1gib.shape_p3_absent.no_frames_requested_or_zeroed tier=thorough bounded="pool of 7 tables (4 path + 3 allocatable); tree-shaped sparse pre-state (target path, one neighbour word per path table, garbage in allocatable frames); page-table indices (511,510,1,0)"
+    //@ obligation C09 C09.translate_page_1gib.shape_p3_absent.no_access_outside_page_tables tier=thorough bounded="pool of 7 tables (4 path + 3 allocatable); tree-shaped sparse pre-state (target path, one neighbour word per path table, garbage in allocatable frames); page-table indices (511,510,1,0)"
     #[kani::proof]
     #[kani::stub(PageTable::zero, zero_stub)]
     fn c01_translate_page_1gib_p3_absent_hi() {
@@ -764,10 +933,11 @@ mod verif_c01_step_read {
         kani::cover!(true, "c01_translate_page_1gib_p3_absent_hi: reachable");
     }
 
-    //@ obligation C01 C01.translate_page_1gib.shape_p3_absent.agrees_with_walk tier=thorough bounded="pool of 7 tables (4 path + 3 allocatable); tree-shaped sparse pre-state (target path, one neighbour word per path table, garbage in allocatable frames); page-table indices (255,511,0,1)"
-    //@ obligation C02 C02.translate_page_1gib.shape_p3_absent.documented_outcome tier=thorough bounded="pool of 7 tables (4 path + 3 allocatable); tree-shaped sparse pre-state (target path, one neighbour word per path table, garbage in allocatable frames); page-table indices (255,511,0,1)"
-    //@ obligation C09 C09.translate_page_1gib.shape_p3_absent.writes_nothing tier=thorough bounded="pool of 7 tables (4 path + 3 allocatable); tree-shaped sparse pre-state (target path, one neighbour word per path table, garbage in allocatable frames); page-table indices (255,511,0,1)"
-    //@ obligation C09 C09.translate_page_1gib.shape_p3_absent.no_frames_requested_or_zeroed tier=thorough bounded="pool of 7 tables (4 path + 3 allocatable); tree-shaped sparse pre-state (target path, one neighbour word per path table, garbage in allocatable frames); page-table indices (255,511,0,1)"
+    //@ obligation C01 C01.translate_page_1gib.shape_p3_absent.agrees_with_walk tier=thorough bounded="pool of 7 tables (4 path + 3 allocatable); tree-shaped sparse pre-state (target path, one neighbour word per path table, garbage in allocatable frames); page-table indices (255,511,0,256)"
+    //@ obligation C02 C02.translate_page_1gib.shape_p3_absent.documented_outcome tier=thorough bounded="pool of 7 tables (4 path + 3 allocatable); tree-shaped sparse pre-state (target path, one neighbour word per path table, garbage in allocatable frames); page-table indices (255,511,0,256)"
+    //@ obligation C09 C09.translate_page_1gib.shape_p3_absent.writes_nothing tier=thorough bounded="pool of 7 tables (4 path + 3 allocatable); tree-shaped sparse pre-state (target path, one neighbour word per path table, garbage in allocatable frames); page-table indices (255,511,0,256)"
+    //@ obligation C09 C09.translate_page_1gib.shape_p3_absent.no_frames_requested_or_zeroed tier=thorough bounded="pool of 7 tables (4 path + 3 allocatable); tree-shaped sparse pre-state (target path, one neighbour word per path table, garbage in allocatable frames); page-table indices (255,511,0,256)"
+    //@ obligation C09 C09.translate_page_1gib.shape_p3_absent.no_access_outside_page_tables tier=thorough bounded="pool of 7 tables (4 path + 3 allocatable); tree-shaped sparse pre-state (target path, one neighbour word per path table, garbage in allocatable frames); page-table indices (255,511,0,256)"
     #[kani::proof]
     #[kani::stub(PageTable::zero, zero_stub)]
     fn c01_translate_page_1gib_p3_absent_mid() {
@@ -775,10 +945,11 @@ mod verif_c01_step_read {
         kani::cover!(true, "c01_translate_page_1gib_p3_absent_mid: reachable");
     }
 
-    //@ obligation C01 C01.translate_page_1gib.shape_p3_absent.agrees_with_walk tier=thorough bounded="pool of 7 tables (4 path + 3 allocatable); tree-shaped sparse pre-state (target path, one neighbour word per path table, garbage in allocatable frames); page-table indices (256,1,510,255)"
-    //@ obligation C02 C02.translate_page_1gib.shape_p3_absent.documented_outcome tier=thorough bounded="pool of 7 tables (4 path + 3 allocatable); tree-shaped sparse pre-state (target path, one neighbour word per path table, garbage in allocatable frames); page-table indices (256,1,510,255)"
-    //@ obligation C09 C09.translate_page_1gib.shape_p3_absent.writes_nothing tier=thorough bounded="pool of 7 tables (4 path + 3 allocatable); tree-shaped sparse pre-state (target path, one neighbour word per path table, garbage in allocatable frames); page-table indices (256,1,510,255)"
-    //@ obligation C09 C09.translate_page_1gib.shape_p3_absent.no_frames_requested_or_zeroed tier=thorough bounded="pool of 7 tables (4 path + 3 allocatable); tree-shaped sparse pre-state (target path, one neighbour word per path table, garbage in allocatable frames); page-table indices (256,1,510,255)"
+    //@ obligation C01 C01.translate_page_1gib.shape_p3_absent.agrees_with_walk tier=thorough bounded="pool of 7 tables (4 path + 3 allocatable); tree-shaped sparse pre-state (target path, one neighbour word per path table, garbage in allocatable frames); page-table indices (256,0,510,511)"
+    //@ obligation C02 C02.translate_page_1gib.shape_p3_absent.documented_outcome tier=thorough bounded="pool of 7 tables (4 path + 3 allocatable); tree-shaped sparse pre-state (target path, one neighbour word per path table, garbage in allocatable frames); page-table indices (256,0,510,511)"
+    //@ obligation C09 C09.translate_page_1gib.shape_p3_absent.writes_nothing tier=thorough bounded="pool of 7 tables (4 path + 3 allocatable); tree-shaped sparse pre-state (target path, one neighbour word per path table, garbage in allocatable frames); page-table indices (256,0,510,511)"
+    //@ obligation C09 C09.translate_page_1gib.shape_p3_absent.no_frames_requested_or_zeroed tier=thorough bounded="pool of 7 tables (4 path + 3 allocatable); tree-shaped sparse pre-state (target path, one neighbour word per path table, garbage in allocatable frames); page-table indices (256,0,510,511)"
+    //@ obligation C09 C09.translate_page_1gib.shape_p3_absent.no_access_outside_page_tables tier=thorough bounded="pool of 7 tables (4 path + 3 allocatable); tree-shaped sparse pre-state (target path, one neighbour word per path table, garbage in allocatable frames); page-table indices (256,0,510,511)"
     #[kani::proof]
     #[kani::stub(PageTable::zero, zero_stub)]
     fn c01_translate_page_1gib_p3_absent_up() {
@@ -786,10 +957,11 @@ mod verif_c01_step_read {
         kani::cover!(true, "c01_translate_page_1gib_p3_absent_up: reachable");
     }
 
-    //@ obligation C01 C01.translate_page_1gib.shape_p3_huge.agrees_with_walk tier=thorough bounded="pool of 7 tables (4 path + 3 allocatable); tree-shaped sparse pre-state (target path, one neighbour word per path table, garbage in allocatable frames); page-table indices (0,0,0,0)"
-    //@ obligation C02 C02.translate_page_1gib.shape_p3_huge.documented_outcome tier=thorough bounded="pool of 7 tables (4 path + 3 allocatable); tree-shaped sparse pre-state (target path, one neighbour word per path table, garbage in allocatable frames); page-table indices (0,0,0,0)"
-    //@ obligation C09 C09.translate_page_1gib.shape_p3_huge.writes_nothing tier=thorough bounded="pool of 7 tables (4 path + 3 allocatable); tree-shaped sparse pre-state (target path, one neighbour word per path table, garbage in allocatable frames); page-table indices (0,0,0,0)"
-    //@ obligation C09 C09.translate_page_1gib.shape_p3_huge.no_frames_requested_or_zeroed tier=thorough bounded="pool of 7 tables (4 path + 3 allocatable); tree-shaped sparse pre-state (target path, one neighbour word per path table, garbage in allocatable frames); page-table indices (0,0,0,0)"
+    //@ obligation C01 C01.translate_page_1gib.shape_p3_huge.agrees_with_walk tier=thorough bounded="pool of 7 tables (4 path + 3 allocatable); tree-shaped sparse pre-state (target path, one neighbour word per path table, garbage in allocatable frames); page-table indices (0,1,511,2)"
+    //@ obligation C02 C02.translate_page_1gib.shape_p3_huge.documented_outcome tier=thorough bounded="pool of 7 tables (4 path + 3 allocatable); tree-shaped sparse pre-state (target path, one neighbour word per path table, garbage in allocatable frames); page-table indices (0,1,511,2)"
+    //@ obligation C09 C09.translate_page_1gib.shape_p3_huge.writes_nothing tier=thorough bounded="pool of 7 tables (4 path + 3 allocatable); tree-shaped sparse pre-state (target path, one neighbour word per path table, garbage in allocatable frames); page-table indices (0,1,511,2)"
+    //@ obligation C09 C09.translate_page_1gib.shape_p3_huge.no_frames_requested_or_zeroed tier=thorough bounded="pool of 7 tables (4 path + 3 allocatable); tree-shaped sparse pre-state (target path, one neighbour word per path table, garbage in allocatable frames); page-table indices (0,1,511,2)"
+    //@ obligation C09 C09.translate_page_1gib.shape_p3_huge.no_access_outside_page_tables tier=thorough bounded="pool of 7 tables (4 path + 3 allocatable); tree-shaped sparse pre-state (target path, one neighbour word per path table, garbage in allocatable frames); page-table indices (0,1,511,2)"
     #[kani::proof]
     #[kani::stub(PageTable::zero, zero_stub)]
     fn c01_translate_page_1gib_p3_huge_lo() {
@@ -797,10 +969,11 @@ mod verif_c01_step_read {
         kani::cover!(true, "c01_translate_page_1gib_p3_huge_lo: reachable");
     }
 
-    //@ obligation C01 C01.translate_page_1gib.shape_p3_huge.agrees_with_walk tier=thorough bounded="pool of 7 tables (4 path + 3 allocatable); tree-shaped sparse pre-state (target path, one neighbour word per path table, garbage in allocatable frames); page-table indices (511,511,511,511)"
-    //@ obligation C02 C02.translate_page_1gib.shape_p3_huge.documented_outcome tier=thorough bounded="pool of 7 tables (4 path + 3 allocatable); tree-shaped sparse pre-state (target path, one neighbour word per path table, garbage in allocatable frames); page-table indices (511,511,511,511)"
-    //@ obligation C09 C09.translate_page_1gib.shape_p3_huge.writes_nothing tier=thorough bounded="pool of 7 tables (4 path + 3 allocatable); tree-shaped sparse pre-state (target path, one neighbour word per path table, garbage in allocatable frames); page-table indices (511,511,511,511)"
-    //@ obligation C09 C09.translate_page_1gib.shape_p3_huge.no_frames_requested_or_zeroed tier=thorough bounded="pool of 7 tables (4 path + 3 allocatable); tree-shaped sparse pre-state (target path, one neighbour word per path table, garbage in allocatable frames); page-table indices (511,511,511,511)"
+    //@ obligation C01 C01.translate_page_1gib.shape_p3_huge.agrees_with_walk tier=thorough bounded="pool of 7 tables (4 path + 3 allocatable); tree-shaped sparse pre-state (target path, one neighbour word per path table, garbage in allocatable frames); page-table indices (511,510,1,0)"
+    //@ obligation C02 C02.translate_page_1gib.shape_p3_huge.documented_outcome tier=thorough bounded="pool of 7 tables (4 path + 3 allocatable); tree-shaped sparse pre-state (target path, one neighbour word per path table, garbage in allocatable frames); page-table indices (511,510,1,0)"
+    //@ obligation C09 C09.translate_page_1gib.shape_p3_huge.writes_nothing tier=thorough bounded="pool of 7 tables (4 path + 3 allocatable); tree-shaped sparse pre-state (target path, one neighbour word per path table, garbage in allocatable frames); page-table indices (511,510,1,0)"
+    //@ obligation C09 C09.translate_page_1gib.shape_p3_huge.no_frames_requested_or_zeroed tier=thorough bounded="pool of 7 tables (4 path + 3 allocatable); tree-shaped sparse pre-state (target path, one neighbour word per path table, garbage in allocatable frames); page-table indices (511,510,1,0)"
+    //@ obligation C09 C09.translate_page_1gib.shape_p3_huge.no_access_outside_page_tables tier=thorough bounded="pool of 7 tables (4 path + 3 allocatable); tree-shaped sparse pre-state (target path, one neighbour word per path table, garbage in allocatable frames); page-table indices (511,510,1,0)"
     #[kani::proof]
     #[kani::stub(PageTable::zero, zero_stub)]
     fn c01_translate_page_1gib_p3_huge_hi() {
@@ -808,10 +981,11 @@ mod verif_c01_step_read {
         kani::cover!(true, "c01_translate_page_1gib_p3_huge_hi: reachable");
     }
 
-    //@ obligation C01 C01.translate_page_1gib.shape_p3_huge.agrees_with_walk bounded="pool of 7 tables (4 path + 3 allocatable); tree-shaped sparse pre-state (target path, one neighbour word per path table, garbage in allocatable frames); page-table indices (255,511,0,1)"
-    //@ obligation C02 C02.translate_page_1gib.shape_p3_huge.documented_outcome bounded="pool of 7 tables (4 path + 3 allocatable); tree-shaped sparse pre-state (target path, one neighbour word per path table, garbage in allocatable frames); page-table indices (255,511,0,1)"
-    //@ obligation C09 C09.translate_page_1gib.shape_p3_huge.writes_nothing bounded="pool of 7 tables (4 path + 3 allocatable); tree-shaped sparse pre-state (target path, one neighbour word per path table, garbage in allocatable frames); page-table indices (255,511,0,1)"
-    //@ obligation C09 C09.translate_page_1gib.shape_p3_huge.no_frames_requested_or_zeroed bounded="pool of 7 tables (4 path + 3 allocatable); tree-shaped sparse pre-state (target path, one neighbour word per path table, garbage in allocatable frames); page-table indices (255,511,0,1)"
+    //@ obligation C01 C01.translate_page_1gib.shape_p3_huge.agrees_with_walk bounded="pool of 7 tables (4 path + 3 allocatable); tree-shaped sparse pre-state (target path, one neighbour word per path table, garbage in allocatable frames); page-table indices (255,511,0,256)"
+    //@ obligation C02 C02.translate_page_1gib.shape_p3_huge.documented_outcome bounded="pool of 7 tables (4 path + 3 allocatable); tree-shaped sparse pre-state (target path, one neighbour word per path table, garbage in allocatable frames); page-table indices (255,511,0,256)"
+    //@ obligation C09 C09.translate_page_1gib.shape_p3_huge.writes_nothing bounded="pool of 7 tables (4 path + 3 allocatable); tree-shaped sparse pre-state (target path, one neighbour word per path table, garbage in allocatable frames); page-table indices (255,511,0,256)"
+    //@ obligation C09 C09.translate_page_1gib.shape_p3_huge.no_frames_requested_or_zeroed bounded="pool of 7 tables (4 path + 3 allocatable); tree-shaped sparse pre-state (target path, one neighbour word per path table, garbage in allocatable frames); page-table indices (255,511,0,256)"
+    //@ obligation C09 C09.translate_page_1gib.shape_p3_huge.no_access_outside_page_tables bounded="pool of 7 tables (4 path + 3 allocatable); tree-shaped sparse pre-state (target path, one neighbour word per path table, garbage in allocatable frames); page-table indices (255,511,0,256)"
     #[kani::proof]
     #[kani::stub(PageTable::zero, zero_stub)]
     fn c01_translate_page_1gib_p3_huge_mid() {
@@ -819,10 +993,11 @@ mod verif_c01_step_read {
         kani::cover!(true, "c01_translate_page_1gib_p3_huge_mid: reachable");
     }
 
-    //@ obligation C01 C01.translate_page_1gib.shape_p3_huge.agrees_with_walk tier=thorough bounded="pool of 7 tables (4 path + 3 allocatable); tree-shaped sparse pre-state (target path, one neighbour word per path table, garbage in allocatable frames); page-table indices (256,1,510,255)"
-    //@ obligation C02 C02.translate_page_1gib.shape_p3_huge.documented_outcome tier=thorough bounded="pool of 7 tables (4 path + 3 allocatable); tree-shaped sparse pre-state (target path, one neighbour word per path table, garbage in allocatable frames); page-table indices (256,1,510,255)"
-    //@ obligation C09 C09.translate_page_1gib.shape_p3_huge.writes_nothing tier=thorough bounded="pool of 7 tables (4 path + 3 allocatable); tree-shaped sparse pre-state (target path, one neighbour word per path table, garbage in allocatable frames); page-table indices (256,1,510,255)"
-    //@ obligation C09 C09.translate_page_1gib.shape_p3_huge.no_frames_requested_or_zeroed tier=thorough bounded="pool of 7 tables (4 path + 3 allocatable); tree-shaped sparse pre-state (target path, one neighbour word per path table, garbage in allocatable frames); page-table indices (256,1,510,255)"
+    //@ obligation C01 C01.translate_page_1gib.shape_p3_huge.agrees_with_walk tier=thorough bounded="pool of 7 tables (4 path + 3 allocatable); tree-shaped sparse pre-state (target path, one neighbour word per path table, garbage in allocatable frames); page-table indices (256,0,510,511)"
+    //@ obligation C02 C02.translate_page_1gib.shape_p3_huge.documented_outcome tier=thorough bounded="pool of 7 tables (4 path + 3 allocatable); tree-shaped sparse pre-state (target path, one neighbour word per path table, garbage in allocatable frames); page-table indices (256,0,510,511)"
+    //@ obligation C09 C09.translate_page_1gib.shape_p3_huge.writes_nothing tier=thorough bounded="pool of 7 tables (4 path + 3 allocatable); tree-shaped sparse pre-state (target path, one neighbour word per path table, garbage in allocatable frames); page-table indices (256,0,510,511)"
+    //@ obligation C09 C09.translate_page_1gib.shape_p3_huge.no_frames_requested_or_zeroed tier=thorough bounded="pool of 7 tables (4 path + 3 allocatable); tree-shaped sparse pre-state (target path, one neighbour word per path table, garbage in allocatable frames); page-table indices (256,0,510,511)"
+    //@ obligation C09 C09.translate_page_1gib.shape_p3_huge.no_access_outside_page_tables tier=thorough bounded="pool of 7 tables (4 path + 3 allocatable); tree-shaped sparse pre-state (target path, one neighbour word per path table, garbage in allocatable frames); page-table indices (256,0,510,511)"
     #[kani::proof]
     #[kani::stub(PageTable::zero, zero_stub)]
     fn c01_translate_page_1gib_p3_huge_up() {
@@ -830,10 +1005,11 @@ mod verif_c01_step_read {
         kani::cover!(true, "c01_translate_page_1gib_p3_huge_up: reachable");
     }
 
-    //@ obligation C02 C02.translate_page_1gib.shape_table_entry.no_success_for_nonexistent_size tier=thorough bounded="pool of 7 tables (4 path + 3 allocatable); tree-shaped sparse pre-state (target path, one neighbour word per path table, garbage in allocatable frames); page-table indices (0,0,0,0)"
-    //@ obligation C02 C02.translate_page_1gib.shape_table_entry.documented_outcome tier=thorough bounded="pool of 7 tables (4 path + 3 allocatable); tree-shaped sparse pre-state (target path, one neighbour word per path table, garbage in allocatable frames); page-table indices (0,0,0,0)"
-    //@ obligation C09 C09.translate_page_1gib.shape_table_entry.writes_nothing tier=thorough bounded="pool of 7 tables (4 path + 3 allocatable); tree-shaped sparse pre-state (target path, one neighbour word per path table, garbage in allocatable frames); page-table indices (0,0,0,0)"
-    //@ obligation C09 C09.translate_page_1gib.shape_table_entry.no_frames_requested_or_zeroed tier=thorough bounded="pool of 7 tables (4 path + 3 allocatable); tree-shaped sparse pre-state (target path, one neighbour word per path table, garbage in allocatable frames); page-table indices (0,0,0,0)"
+    //@ obligation C02 C02.translate_page_1gib.shape_table_entry.no_success_for_nonexistent_size tier=thorough bounded="pool of 7 tables (4 path + 3 allocatable); tree-shaped sparse pre-state (target path, one neighbour word per path table, garbage in allocatable frames); page-table indices (0,1,511,2)"
+    //@ obligation C02 C02.translate_page_1gib.shape_table_entry.documented_outcome tier=thorough bounded="pool of 7 tables (4 path + 3 allocatable); tree-shaped sparse pre-state (target path, one neighbour word per path table, garbage in allocatable frames); page-table indices (0,1,511,2)"
+    //@ obligation C09 C09.translate_page_1gib.shape_table_entry.writes_nothing tier=thorough bounded="pool of 7 tables (4 path + 3 allocatable); tree-shaped sparse pre-state (target path, one neighbour word per path table, garbage in allocatable frames); page-table indices (0,1,511,2)"
+    //@ obligation C09 C09.translate_page_1gib.shape_table_entry.no_frames_requested_or_zeroed tier=thorough bounded="pool of 7 tables (4 path + 3 allocatable); tree-shaped sparse pre-state (target path, one neighbour word per path table, garbage in allocatable frames); page-table indices (0,1,511,2)"
+    //@ obligation C09 C09.translate_page_1gib.shape_table_entry.no_access_outside_page_tables tier=thorough bounded="pool of 7 tables (4 path + 3 allocatable); tree-shaped sparse pre-state (target path, one neighbour word per path table, garbage in allocatable frames); page-table indices (0,1,511,2)"
     #[kani::proof]
     #[kani::stub(PageTable::zero, zero_stub)]
     fn c02_translate_page_1gib_table_entry_lo() {
@@ -841,10 +1017,11 @@ mod verif_c01_step_read {
         kani::cover!(true, "c02_translate_page_1gib_table_entry_lo: reachable");
     }
 
-    //@ obligation C02 C02.translate_page_1gib.shape_table_entry.no_success_for_nonexistent_size tier=thorough bounded="pool of 7 tables (4 path + 3 allocatable); tree-shaped sparse pre-state (target path, one neighbour word per path table, garbage in allocatable frames); page-table indices (511,511,511,511)"
-    //@ obligation C02 C02.translate_page_1gib.shape_table_entry.documented_outcome tier=thorough bounded="pool of 7 tables (4 path + 3 allocatable); tree-shaped sparse pre-state (target path, one neighbour word per path table, garbage in allocatable frames); page-table indices (511,511,511,511)"
-    //@ obligation C09 C09.translate_page_1gib.shape_table_entry.writes_nothing tier=thorough bounded="pool of 7 tables (4 path + 3 allocatable); tree-shaped sparse pre-state (target path, one neighbour word per path table, garbage in allocatable frames); page-table indices (511,511,511,511)"
-    //@ obligation C09 C09.translate_page_1gib.shape_table_entry.no_frames_requested_or_zeroed tier=thorough bounded="pool of 7 tables (4 path + 3 allocatable); tree-shaped sparse pre-state (target path, one neighbour word per path table, garbage in allocatable frames); page-table indices (511,511,511,511)"
+    //@ obligation C02 C02.translate_page_1gib.shape_table_entry.no_success_for_nonexistent_size tier=thorough bounded="pool of 7 tables (4 path + 3 allocatable); tree-shaped sparse pre-state (target path, one neighbour word per path table, garbage in allocatable frames); page-table indices (511,510,1,0)"
+    //@ obligation C02 C02.translate_page_1gib.shape_table_entry.documented_outcome tier=thorough bounded="pool of 7 tables (4 path + 3 allocatable); tree-shaped sparse pre-state (target path, one neighbour word per path table, garbage in allocatable frames); page-table indices (511,510,1,0)"
+    //@ obligation C09 C09.translate_page_1gib.shape_table_entry.writes_nothing tier=thorough bounded="pool of 7 tables (4 path + 3 allocatable); tree-shaped sparse pre-state (target path, one neighbour word per path table, garbage in allocatable frames); page-table indices (511,510,1,0)"
+    //@ obligation C09 C09.translate_page_1gib.shape_table_entry.no_frames_requested_or_zeroed tier=thorough bounded="pool of 7 tables (4 path + 3 allocatable); tree-shaped sparse pre-state (target path, one neighbour word per path table, garbage in allocatable frames); page-table indices (511,510,1,0)"
+    //@ obligation C09 C09.translate_page_1gib.shape_table_entry.no_access_outside_page_tables tier=thorough bounded="pool of 7 tables (4 path + 3 allocatable); tree-shaped sparse pre-state (target path, one neighbour word per path table, garbage in allocatable frames); page-table indices (511,510,1,0)"
     #[kani::proof]
     #[kani::stub(PageTable::zero, zero_stub)]
     fn c02_translate_page_1gib_table_entry_hi() {
@@ -852,10 +1029,11 @@ mod verif_c01_step_read {
         kani::cover!(true, "c02_translate_page_1gib_table_entry_hi: reachable");
     }
 
-    //@ obligation C02 C02.translate_page_1gib.shape_table_entry.no_success_for_nonexistent_size tier=thorough bounded="pool of 7 tables (4 path + 3 allocatable); tree-shaped sparse pre-state (target path, one neighbour word per path table, garbage in allocatable frames); page-table indices (255,511,0,1)"
-    //@ obligation C02 C02.translate_page_1gib.shape_table_entry.documented_outcome tier=thorough bounded="pool of 7 tables (4 path + 3 allocatable); tree-shaped sparse pre-state (target path, one neighbour word per path table, garbage in allocatable frames); page-table indices (255,511,0,1)"
-    //@ obligation C09 C09.translate_page_1gib.shape_table_entry.writes_nothing tier=thorough bounded="pool of 7 tables (4 path + 3 allocatable); tree-shaped sparse pre-state (target path, one neighbour word per path table, garbage in allocatable frames); page-table indices (255,511,0,1)"
-    //@ obligation C09 C09.translate_page_1gib.shape_table_entry.no_frames_requested_or_zeroed tier=thorough bounded="pool of 7 tables (4 path + 3 allocatable); tree-shaped sparse pre-state (target path, one neighbour word per path table, garbage in allocatable frames); page-table indices (255,511,0,1)"
+    //@ obligation C02 C02.translate_page_1gib.shape_table_entry.no_success_for_nonexistent_size tier=thorough bounded="pool of 7 tables (4 path + 3 allocatable); tree-shaped sparse pre-state (target path, one neighbour word per path table, garbage in allocatable frames); page-table indices (255,511,0,256)"
+    //@ obligation C02 C02.translate_page_1gib.shape_table_entry.documented_outcome tier=thorough bounded="pool of 7 tables (4 path + 3 allocatable); tree-shaped sparse pre-state (target path, one neighbour word per path table, garbage in allocatable frames); page-table indices (255,511,0,256)"
+    //@ obligation C09 C09.translate_page_1gib.shape_table_entry.writes_nothing tier=thorough bounded="pool of 7 tables (4 path + 3 allocatable); tree-shaped sparse pre-state (target path, one neighbour word per path table, garbage in allocatable frames); page-table indices (255,511,0,256)"
+    //@ obligation C09 C09.translate_page_1gib.shape_table_entry.no_frames_requested_or_zeroed tier=thorough bounded="pool of 7 tables (4 path + 3 allocatable); tree-shaped sparse pre-state (target path, one neighbour word per path table, garbage in allocatable frames); page-table indices (255,511,0,256)"
+    //@ obligation C09 C09.translate_page_1gib.shape_table_entry.no_access_outside_page_tables tier=thorough bounded="pool of 7 tables (4 path + 3 allocatable); tree-shaped sparse pre-state (target path, one neighbour word per path table, garbage in allocatable frames); page-table indices (255,511,0,256)"
     #[kani::proof]
     #[kani::stub(PageTable::zero, zero_stub)]
     fn c02_translate_page_1gib_table_entry_mid() {
@@ -863,10 +1041,11 @@ mod verif_c01_step_read {
         kani::cover!(true, "c02_translate_page_1gib_table_entry_mid: reachable");
     }
 
-    //@ obligation C02 C02.translate_page_1gib.shape_table_entry.no_success_for_nonexistent_size bounded="pool of 7 tables (4 path + 3 allocatable); tree-shaped sparse pre-state (target path, one neighbour word per path table, garbage in allocatable frames); page-table indices (256,1,510,255)"
-    //@ obligation C02 C02.translate_page_1gib.shape_table_entry.documented_outcome bounded="pool of 7 tables (4 path + 3 allocatable); tree-shaped sparse pre-state (target path, one neighbour word per path table, garbage in allocatable frames); page-table indices (256,1,510,255)"
-    //@ obligation C09 C09.translate_page_1gib.shape_table_entry.writes_nothing bounded="pool of 7 tables (4 path + 3 allocatable); tree-shaped sparse pre-state (target path, one neighbour word per path table, garbage in allocatable frames); page-table indices (256,1,510,255)"
-    //@ obligation C09 C09.translate_page_1gib.shape_table_entry.no_frames_requested_or_zeroed bounded="pool of 7 tables (4 path + 3 allocatable); tree-shaped sparse pre-state (target path, one neighbour word per path table, garbage in allocatable frames); page-table indices (256,1,510,255)"
+    //@ obligation C02 C02.translate_page_1gib.shape_table_entry.no_success_for_nonexistent_size bounded="pool of 7 tables (4 path + 3 allocatable); tree-shaped sparse pre-state (target path, one neighbour word per path table, garbage in allocatable frames); page-table indices (256,0,510,511)"
+    //@ obligation C02 C02.translate_page_1gib.shape_table_entry.documented_outcome bounded="pool of 7 tables (4 path + 3 allocatable); tree-shaped sparse pre-state (target path, one neighbour word per path table, garbage in allocatable frames); page-table indices (256,0,510,511)"
+    //@ obligation C09 C09.translate_page_1gib.shape_table_entry.writes_nothing bounded="pool of 7 tables (4 path + 3 allocatable); tree-shaped sparse pre-state (target path, one neighbour word per path table, garbage in allocatable frames); page-table indices (256,0,510,511)"
+    //@ obligation C09 C09.translate_page_1gib.shape_table_entry.no_frames_requested_or_zeroed bounded="pool of 7 tables (4 path + 3 allocatable); tree-shaped sparse pre-state (target path, one neighbour word per path table, garbage in allocatable frames); page-table indices (256,0,510,511)"
+    //@ obligation C09 C09.translate_page_1gib.shape_table_entry.no_access_outside_page_tables bounded="pool of 7 tables (4 path + 3 allocatable); tree-shaped sparse pre-state (target path, one neighbour word per path table, garbage in allocatable frames); page-table indices (256,0,510,511)"
     #[kani::proof]
     #[kani::stub(PageTable::zero, zero_stub)]
     fn c02_translate_page_1gib_table_entry_up() {
@@ -874,11 +1053,60 @@ mod verif_c01_step_read {
         kani::cover!(true, "c02_translate_page_1gib_table_entry_up: reachable");
     }
 
-    //@ obligation C01 C01.translate_any.shape_p4_absent.target_agrees_with_walk tier=thorough bounded="pool of 7 tables (4 path + 3 allocatable); tree-shaped sparse pre-state (target path, one neighbour word per path table, garbage in allocatable frames); page-table indices (0,0,0,0)"
-    //@ obligation C01 C01.translate_any.shape_p4_absent.probe_agrees_with_walk tier=thorough bounded="pool of 7 tables (4 path + 3 allocatable); tree-shaped sparse pre-state (target path, one neighbour word per path table, garbage in allocatable frames); page-table indices (0,0,0,0)"
-    //@ obligation C01 C01.translate_addr_any.shape_p4_absent.agrees_with_walk tier=thorough bounded="pool of 7 tables (4 path + 3 allocatable); tree-shaped sparse pre-state (target path, one neighbour word per path table, garbage in allocatable frames); page-table indices (0,0,0,0)"
-    //@ obligation C09 C09.translate_any.shape_p4_absent.writes_nothing tier=thorough bounded="pool of 7 tables (4 path + 3 allocatable); tree-shaped sparse pre-state (target path, one neighbour word per path table, garbage in allocatable frames); page-table indices (0,0,0,0)"
-    //@ obligation C09 C09.translate_any.shape_p4_absent.no_frames_requested_or_zeroed tier=thorough bounded="pool of 7 tables (4 path + 3 allocatable); tree-shaped sparse pre-state (target path, one neighbour word per path table, garbage in allocatable frames); page-table indices (0,0,0,0)"
+    //@ obligation C01 C01.translate_page_1gib.shape_sym.agrees_with_walk tier=thorough bounded="pool of 7 tables (4 path + 3 allocatable); tree-shaped sparse pre-state (target path, one neighbour word per path table, garbage in allocatable frames); page-table indices (0,1,511,2)"
+    //@ obligation C02 C02.translate_page_1gib.shape_sym.documented_outcome tier=thorough bounded="pool of 7 tables (4 path + 3 allocatable); tree-shaped sparse pre-state (target path, one neighbour word per path table, garbage in allocatable frames); page-table indices (0,1,511,2)"
+    //@ obligation C09 C09.translate_page_1gib.shape_sym.writes_nothing tier=thorough bounded="pool of 7 tables (4 path + 3 allocatable); tree-shaped sparse pre-state (target path, one neighbour word per path table, garbage in allocatable frames); page-table indices (0,1,511,2)"
+    //@ obligation C09 C09.translate_page_1gib.shape_sym.no_frames_requested_or_zeroed tier=thorough bounded="pool of 7 tables (4 path + 3 allocatable); tree-shaped sparse pre-state (target path, one neighbour word per path table, garbage in allocatable frames); page-table indices (0,1,511,2)"
+    //@ obligation C09 C09.translate_page_1gib.shape_sym.no_access_outside_page_tables tier=thorough bounded="pool of 7 tables (4 path + 3 allocatable); tree-shaped sparse pre-state (target path, one neighbour word per path table, garbage in allocatable frames); page-table indices (0,1,511,2)"
+    #[kani::proof]
+    #[kani::stub(PageTable::zero, zero_stub)]
+    fn c01_translate_page_1gib_sym_lo() {
+        translate_page_step!(Size1GiB, "1gib", "sym", P3_SYM, IDX_LO);
+        kani::cover!(true, "c01_translate_page_1gib_sym_lo: reachable");
+    }
+
+    //@ obligation C01 C01.translate_page_1gib.shape_sym.agrees_with_walk tier=thorough bounded="pool of 7 tables (4 path + 3 allocatable); tree-shaped sparse pre-state (target path, one neighbour word per path table, garbage in allocatable frames); page-table indices (511,510,1,0)"
+    //@ obligation C02 C02.translate_page_1gib.shape_sym.documented_outcome tier=thorough bounded="pool of 7 tables (4 path + 3 allocatable); tree-shaped sparse pre-state (target path, one neighbour word per path table, garbage in allocatable frames); page-table indices (511,510,1,0)"
+    //@ obligation C09 C09.translate_page_1gib.shape_sym.writes_nothing tier=thorough bounded="pool of 7 tables (4 path + 3 allocatable); tree-shaped sparse pre-state (target path, one neighbour word per path table, garbage in allocatable frames); page-table indices (511,510,1,0)"
+    //@ obligation C09 C09.translate_page_1gib.shape_sym.no_frames_requested_or_zeroed tier=thorough bounded="pool of 7 tables (4 path + 3 allocatable); tree-shaped sparse pre-state (target path, one neighbour word per path table, garbage in allocatable frames); page-table indices (511,510,1,0)"
+    //@ obligation C09 C09.translate_page_1gib.shape_sym.no_access_outside_page_tables tier=thorough bounded="pool of 7 tables (4 path + 3 allocatable); tree-shaped sparse pre-state (target path, one neighbour word per path table, garbage in allocatable frames); page-table indices (511,510,1,0)"
+    #[kani::proof]
+    #[kani::stub(PageTable::zero, zero_stub)]
+    fn c01_translate_page_1gib_sym_hi() {
+        translate_page_step!(Size1GiB, "1gib", "sym", P3_SYM, IDX_HI);
+        kani::cover!(true, "c01_translate_page_1gib_sym_hi: reachable");
+    }
+
+    //@ obligation C01 C01.translate_page_1gib.shape_sym.agrees_with_walk tier=thorough bounded="pool of 7 tables (4 path + 3 allocatable); tree-shaped sparse pre-state (target path, one neighbour word per path table, garbage in allocatable frames); page-table indices (255,511,0,256)"
+    //@ obligation C02 C02.translate_page_1gib.shape_sym.documented_outcome tier=thorough bounded="pool of 7 tables (4 path + 3 allocatable); tree-shaped sparse pre-state (target path, one neighbour word per path table, garbage in allocatable frames); page-table indices (255,511,0,256)"
+    //@ obligation C09 C09.translate_page_1gib.shape_sym.writes_nothing tier=thorough bounded="pool of 7 tables (4 path + 3 allocatable); tree-shaped sparse pre-state (target path, one neighbour word per path table, garbage in allocatable frames); page-table indices (255,511,0,256)"
+    //@ obligation C09 C09.translate_page_1gib.shape_sym.no_frames_requested_or_zeroed tier=thorough bounded="pool of 7 tables (4 path + 3 allocatable); tree-shaped sparse pre-state (target path, one neighbour word per path table, garbage in allocatable frames); page-table indices (255,511,0,256)"
+    //@ obligation C09 C09.translate_page_1gib.shape_sym.no_access_outside_page_tables tier=thorough bounded="pool of 7 tables (4 path + 3 allocatable); tree-shaped sparse pre-state (target path, one neighbour word per path table, garbage in allocatable frames); page-table indices (255,511,0,256)"
+    #[kani::proof]
+    #[kani::stub(PageTable::zero, zero_stub)]
+    fn c01_translate_page_1gib_sym_mid() {
+        translate_page_step!(Size1GiB, "1gib", "sym", P3_SYM, IDX_MID);
+        kani::cover!(true, "c01_translate_page_1gib_sym_mid: reachable");
+    }
+
+    //@ obligation C01 C01.translate_page_1gib.shape_sym.agrees_with_walk tier=thorough bounded="pool of 7 tables (4 path + 3 allocatable); tree-shaped sparse pre-state (target path, one neighbour word per path table, garbage in allocatable frames); page-table indices (256,0,510,511)"
+    //@ obligation C02 C02.translate_page_1gib.shape_sym.documented_outcome tier=thorough bounded="pool of 7 tables (4 path + 3 allocatable); tree-shaped sparse pre-state (target path, one neighbour word per path table, garbage in allocatable frames); page-table indices (256,0,510,511)"
+    //@ obligation C09 C09.translate_page_1gib.shape_sym.writes_nothing tier=thorough bounded="pool of 7 tables (4 path + 3 allocatable); tree-shaped sparse pre-state (target path, one neighbour word per path table, garbage in allocatable frames); page-table indices (256,0,510,511)"
+    //@ obligation C09 C09.translate_page_1gib.shape_sym.no_frames_requested_or_zeroed tier=thorough bounded="pool of 7 tables (4 path + 3 allocatable); tree-shaped sparse pre-state (target path, one neighbour word per path table, garbage in allocatable frames); page-table indices (256,0,510,511)"
+    //@ obligation C09 C09.translate_page_1gib.shape_sym.no_access_outside_page_tables tier=thorough bounded="pool of 7 tables (4 path + 3 allocatable); tree-shaped sparse pre-state (target path, one neighbour word per path table, garbage in allocatable frames); page-table indices (256,0,510,511)"
+    #[kani::proof]
+    #[kani::stub(PageTable::zero, zero_stub)]
+    fn c01_translate_page_1gib_sym_up() {
+        translate_page_step!(Size1GiB, "1gib", "sym", P3_SYM, IDX_UP);
+        kani::cover!(true, "c01_translate_page_1gib_sym_up: reachable");
+    }
+
+    //@ obligation C01 C01.translate_any.shape_p4_absent.target_agrees_with_walk tier=thorough bounded="pool of 7 tables (4 path + 3 allocatable); tree-shaped sparse pre-state (target path, one neighbour word per path table, garbage in allocatable frames); page-table indices (0,1,511,2)"
+    //@ obligation C01 C01.translate_any.shape_p4_absent.probe_agrees_with_walk tier=thorough bounded="pool of 7 tables (4 path + 3 allocatable); tree-shaped sparse pre-state (target path, one neighbour word per path table, garbage in allocatable frames); page-table indices (0,1,511,2)"
+    //@ obligation C01 C01.translate_addr_any.shape_p4_absent.agrees_with_walk tier=thorough bounded="pool of 7 tables (4 path + 3 allocatable); tree-shaped sparse pre-state (target path, one neighbour word per path table, garbage in allocatable frames); page-table indices (0,1,511,2)"
+    //@ obligation C09 C09.translate_any.shape_p4_absent.writes_nothing tier=thorough bounded="pool of 7 tables (4 path + 3 allocatable); tree-shaped sparse pre-state (target path, one neighbour word per path table, garbage in allocatable frames); page-table indices (0,1,511,2)"
+    //@ obligation C09 C09.translate_any.shape_p4_absent.no_frames_requested_or_zeroed tier=thorough bounded="pool of 7 tables (4 path + 3 allocatable); tree-shaped sparse pre-state (target path, one neighbour word per path table, garbage in allocatable frames); page-table indices (0,1,511,2)"
+    //@ obligation C09 C09.translate_any.shape_p4_absent.no_access_outside_page_tables tier=thorough bounded="pool of 7 tables (4 path + 3 allocatable); tree-shaped sparse pre-state (target path, one neighbour word per path table, garbage in allocatable frames); page-table indices (0,1,511,2)"
     #[kani::proof]
     #[kani::stub(PageTable::zero, zero_stub)]
     fn c01_translate_any_p4_absent_lo() {
@@ -886,11 +1114,12 @@ mod verif_c01_step_read {
         kani::cover!(true, "c01_translate_any_p4_absent_lo: reachable");
     }
 
-    //@ obligation C01 C01.translate_any.shape_p4_absent.target_agrees_with_walk tier=thorough bounded="pool of 7 tables (4 path + 3 allocatable); tree-shaped sparse pre-state (target path, one neighbour word per path table, garbage in allocatable frames); page-table indices (511,511,511,511)"
-    //@ obligation C01 C01.translate_any.shape_p4_absent.probe_agrees_with_walk tier=thorough bounded="pool of 7 tables (4 path + 3 allocatable); tree-shaped sparse pre-state (target path, one neighbour word per path table, garbage in allocatable frames); page-table indices (511,511,511,511)"
-    //@ obligation C01 C01.translate_addr_any.shape_p4_absent.agrees_with_walk tier=thorough bounded="pool of 7 tables (4 path + 3 allocatable); tree-shaped sparse pre-state (target path, one neighbour word per path table, garbage in allocatable frames); page-table indices (511,511,511,511)"
-    //@ obligation C09 C09.translate_any.shape_p4_absent.writes_nothing tier=thorough bounded="pool of 7 tables (4 path + 3 allocatable); tree-shaped sparse pre-state (target path, one neighbour word per path table, garbage in allocatable frames); page-table indices (511,511,511,511)"
-    //@ obligation C09 C09.translate_any.shape_p4_absent.no_frames_requested_or_zeroed tier=thorough bounded="pool of 7 tables (4 path + 3 allocatable); tree-shaped sparse pre-state (target path, one neighbour word per path table, garbage in allocatable frames); page-table indices (511,511,511,511)"
+    //@ obligation C01 C01.translate_any.shape_p4_absent.target_agrees_with_walk tier=thorough bounded="pool of 7 tables (4 path + 3 allocatable); tree-shaped sparse pre-state (target path, one neighbour word per path table, garbage in allocatable frames); page-table indices (511,510,1,0)"
+    //@ obligation C01 C01.translate_any.shape_p4_absent.probe_agrees_with_walk tier=thorough bounded="pool of 7 tables (4 path + 3 allocatable); tree-shaped sparse pre-state (target path, one neighbour word per path table, garbage in allocatable frames); page-table indices (511,510,1,0)"
+    //@ obligation C01 C01.translate_addr_any.shape_p4_absent.agrees_with_walk tier=thorough bounded="pool of 7 tables (4 path + 3 allocatable); tree-shaped sparse pre-state (target path, one neighbour word per path table, garbage in allocatable frames); page-table indices (511,510,1,0)"
+    //@ obligation C09 C09.translate_any.shape_p4_absent.writes_nothing tier=thorough bounded="pool of 7 tables (4 path + 3 allocatable); tree-shaped sparse pre-state (target path, one neighbour word per path table, garbage in allocatable frames); page-table indices (511,510,1,0)"
+    //@ obligation C09 C09.translate_any.shape_p4_absent.no_frames_requested_or_zeroed tier=thorough bounded="pool of 7 tables (4 path + 3 allocatable); tree-shaped sparse pre-state (target path, one neighbour word per path table, garbage in allocatable frames); page-table indices (511,510,1,0)"
+    //@ obligation C09 C09.translate_any.shape_p4_absent.no_access_outside_page_tables tier=thorough bounded="pool of 7 tables (4 path + 3 allocatable); tree-shaped sparse pre-state (target path, one neighbour word per path table, garbage in allocatable frames); page-table indices (511,510,1,0)"
     #[kani::proof]
     #[kani::stub(PageTable::zero, zero_stub)]
     fn c01_translate_any_p4_absent_hi() {
@@ -898,11 +1127,12 @@ mod verif_c01_step_read {
         kani::cover!(true, "c01_translate_any_p4_absent_hi: reachable");
     }
 
-    //@ obligation C01 C01.translate_any.shape_p4_absent.target_agrees_with_walk tier=thorough bounded="pool of 7 tables (4 path + 3 allocatable); tree-shaped sparse pre-state (target path, one neighbour word per path table, garbage in allocatable frames); page-table indices (255,511,0,1)"
-    //@ obligation C01 C01.translate_any.shape_p4_absent.probe_agrees_with_walk tier=thorough bounded="pool of 7 tables (4 path + 3 allocatable); tree-shaped sparse pre-state (target path, one neighbour word per path table, garbage in allocatable frames); page-table indices (255,511,0,1)"
-    //@ obligation C01 C01.translate_addr_any.shape_p4_absent.agrees_with_walk tier=thorough bounded="pool of 7 tables (4 path + 3 allocatable); tree-shaped sparse pre-state (target path, one neighbour word per path table, garbage in allocatable frames); page-table indices (255,511,0,1)"
-    //@ obligation C09 C09.translate_any.shape_p4_absent.writes_nothing tier=thorough bounded="pool of 7 tables (4 path + 3 allocatable); tree-shaped sparse pre-state (target path, one neighbour word per path table, garbage in allocatable frames); page-table indices (255,511,0,1)"
-    //@ obligation C09 C09.translate_any.shape_p4_absent.no_frames_requested_or_zeroed tier=thorough bounded="pool of 7 tables (4 path + 3 allocatable); tree-shaped sparse pre-state (target path, one neighbour word per path table, garbage in allocatable frames); page-table indices (255,511,0,1)"
+    //@ obligation C01 C01.translate_any.shape_p4_absent.target_agrees_with_walk tier=thorough bounded="pool of 7 tables (4 path + 3 allocatable); tree-shaped sparse pre-state (target path, one neighbour word per path table, garbage in allocatable frames); page-table indices (255,511,0,256)"
+    //@ obligation C01 C01.translate_any.shape_p4_absent.probe_agrees_with_walk tier=thorough bounded="pool of 7 tables (4 path + 3 allocatable); tree-shaped sparse pre-state (target path, one neighbour word per path table, garbage in allocatable frames); page-table indices (255,511,0,256)"
+    //@ obligation C01 C01.translate_addr_any.shape_p4_absent.agrees_with_walk tier=thorough bounded="pool of 7 tables (4 path + 3 allocatable); tree-shaped sparse pre-state (target path, one neighbour word per path table, garbage in allocatable frames); page-table indices (255,511,0,256)"
+    //@ obligation C09 C09.translate_any.shape_p4_absent.writes_nothing tier=thorough bounded="pool of 7 tables (4 path + 3 allocatable); tree-shaped sparse pre-state (target path, one neighbour word per path table, garbage in allocatable frames); page-table indices (255,511,0,256)"
+    //@ obligation C09 C09.translate_any.shape_p4_absent.no_frames_requested_or_zeroed tier=thorough bounded="pool of 7 tables (4 path + 3 allocatable); tree-shaped sparse pre-state (target path, one neighbour word per path table, garbage in allocatable frames); page-table indices (255,511,0,256)"
+    //@ obligation C09 C09.translate_any.shape_p4_absent.no_access_outside_page_tables tier=thorough bounded="pool of 7 tables (4 path + 3 allocatable); tree-shaped sparse pre-state (target path, one neighbour word per path table, garbage in allocatable frames); page-table indices (255,511,0,256)"
     #[kani::proof]
     #[kani::stub(PageTable::zero, zero_stub)]
     fn c01_translate_any_p4_absent_mid() {
@@ -910,11 +1140,12 @@ mod verif_c01_step_read {
         kani::cover!(true, "c01_translate_any_p4_absent_mid: reachable");
     }
 
-    //@ obligation C01 C01.translate_any.shape_p4_absent.target_agrees_with_walk tier=thorough bounded="pool of 7 tables (4 path + 3 allocatable); tree-shaped sparse pre-state (target path, one neighbour word per path table, garbage in allocatable frames); page-table indices (256,1,510,255)"
-    //@ obligation C01 C01.translate_any.shape_p4_absent.probe_agrees_with_walk tier=thorough bounded="pool of 7 tables (4 path + 3 allocatable); tree-shaped sparse pre-state (target path, one neighbour word per path table, garbage in allocatable frames); page-table indices (256,1,510,255)"
-    //@ obligation C01 C01.translate_addr_any.shape_p4_absent.agrees_with_walk tier=thorough bounded="pool of 7 tables (4 path + 3 allocatable); tree-shaped sparse pre-state (target path, one neighbour word per path table, garbage in allocatable frames); page-table indices (256,1,510,255)"
-    //@ obligation C09 C09.translate_any.shape_p4_absent.writes_nothing tier=thorough bounded="pool of 7 tables (4 path + 3 allocatable); tree-shaped sparse pre-state (target path, one neighbour word per path table, garbage in allocatable frames); page-table indices (256,1,510,255)"
-    //@ obligation C09 C09.translate_any.shape_p4_absent.no_frames_requested_or_zeroed tier=thorough bounded="pool of 7 tables (4 path + 3 allocatable); tree-shaped sparse pre-state (target path, one neighbour word per path table, garbage in allocatable frames); page-table indices (256,1,510,255)"
+    //@ obligation C01 C01.translate_any.shape_p4_absent.target_agrees_with_walk tier=thorough bounded="pool of 7 tables (4 path + 3 allocatable); tree-shaped sparse pre-state (target path, one neighbour word per path table, garbage in allocatable frames); page-table indices (256,0,510,511)"
+    //@ obligation C01 C01.translate_any.shape_p4_absent.probe_agrees_with_walk tier=thorough bounded="pool of 7 tables (4 path + 3 allocatable); tree-shaped sparse pre-state (target path, one neighbour word per path table, garbage in allocatable frames); page-table indices (256,0,510,511)"
+    //@ obligation C01 C01.translate_addr_any.shape_p4_absent.agrees_with_walk tier=thorough bounded="pool of 7 tables (4 path + 3 allocatable); tree-shaped sparse pre-state (target path, one neighbour word per path table, garbage in allocatable frames); page-table indices (256,0,510,511)"
+    //@ obligation C09 C09.translate_any.shape_p4_absent.writes_nothing tier=thorough bounded="pool of 7 tables (4 path + 3 allocatable); tree-shaped sparse pre-state (target path, one neighbour word per path table, garbage in allocatable frames); page-table indices (256,0,510,511)"
+    //@ obligation C09 C09.translate_any.shape_p4_absent.no_frames_requested_or_zeroed tier=thorough bounded="pool of 7 tables (4 path + 3 allocatable); tree-shaped sparse pre-state (target path, one neighbour word per path table, garbage in allocatable frames); page-table indices (256,0,510,511)"
+    //@ obligation C09 C09.translate_any.shape_p4_absent.no_access_outside_page_tables tier=thorough bounded="pool of 7 tables (4 path + 3 allocatable); tree-shaped sparse pre-state (target path, one neighbour word per path table, garbage in allocatable frames); page-table indices (256,0,510,511)"
     #[kani::proof]
     #[kani::stub(PageTable::zero, zero_stub)]
     fn c01_translate_any_p4_absent_up() {
@@ -922,11 +1153,12 @@ mod verif_c01_step_read {
         kani::cover!(true, "c01_translate_any_p4_absent_up: reachable");
     }
 
-    //@ obligation C01 C01.translate_any.shape_p3_absent.target_agrees_with_walk tier=thorough bounded="pool of 7 tables (4 path + 3 allocatable); tree-shaped sparse pre-state (target path, one neighbour word per path table, garbage in allocatable frames); page-table indices (0,0,0,0)"
-    //@ obligation C01 C01.translate_any.shape_p3_absent.probe_agrees_with_walk tier=thorough bounded="pool of 7 tables (4 path + 3 allocatable); tree-shaped sparse pre-state (target path, one neighbour word per path table, garbage in allocatable frames); page-table indices (0,0,0,0)"
-    //@ obligation C01 C01.translate_addr_any.shape_p3_absent.agrees_with_walk tier=thorough bounded="pool of 7 tables (4 path + 3 allocatable); tree-shaped sparse pre-state (target path, one neighbour word per path table, garbage in allocatable frames); page-table indices (0,0,0,0)"
-    //@ obligation C09 C09.translate_any.shape_p3_absent.writes_nothing tier=thorough bounded="pool of 7 tables (4 path + 3 allocatable); tree-shaped sparse pre-state (target path, one neighbour word per path table, garbage in allocatable frames); page-table indices (0,0,0,0)"
-    //@ obligation C09 C09.translate_any.shape_p3_absent.no_frames_requested_or_zeroed tier=thorough bounded="pool of 7 tables (4 path + 3 allocatable); tree-shaped sparse pre-state (target path, one neighbour word per path table, garbage in allocatable frames); page-table indices (0,0,0,0)"
+    //@ obligation C01 C01.translate_any.shape_p3_absent.target_agrees_with_walk tier=thorough bounded="pool of 7 tables (4 path + 3 allocatable); tree-shaped sparse pre-state (target path, one neighbour word per path table, garbage in allocatable frames); page-table indices (0,1,511,2)"
+    //@ obligation C01 C01.translate_any.shape_p3_absent.probe_agrees_with_walk tier=thorough bounded="pool of 7 tables (4 path + 3 allocatable); tree-shaped sparse pre-state (target path, one neighbour word per path table, garbage in allocatable frames); page-table indices (0,1,511,2)"
+    //@ obligation C01 C01.translate_addr_any.shape_p3_absent.agrees_with_walk tier=thorough bounded="pool of 7 tables (4 path + 3 allocatable); tree-shaped sparse pre-state (target path, one neighbour word per path table, garbage in allocatable frames); page-table indices (0,1,511,2)"
+    //@ obligation C09 C09.translate_any.shape_p3_absent.writes_nothing tier=thorough bounded="pool of 7 tables (4 path + 3 allocatable); tree-shaped sparse pre-state (target path, one neighbour word per path table, garbage in allocatable frames); page-table indices (0,1,511,2)"
+    //@ obligation C09 C09.translate_any.shape_p3_absent.no_frames_requested_or_zeroed tier=thorough bounded="pool of 7 tables (4 path + 3 allocatable); tree-shaped sparse pre-state (target path, one neighbour word per path table, garbage in allocatable frames); page-table indices (0,1,511,2)"
+    //@ obligation C09 C09.translate_any.shape_p3_absent.no_access_outside_page_tables tier=thorough bounded="pool of 7 tables (4 path + 3 allocatable); tree-shaped sparse pre-state (target path, one neighbour word per path table, garbage in allocatable frames); page-table indices (0,1,511,2)"
     #[kani::proof]
     #[kani::stub(PageTable::zero, zero_stub)]
     fn c01_translate_any_p3_absent_lo() {
@@ -934,11 +1166,12 @@ mod verif_c01_step_read {
         kani::cover!(true, "c01_translate_any_p3_absent_lo: reachable");
     }
 
-    //@ obligation C01 C01.translate_any.shape_p3_absent.target_agrees_with_walk tier=thorough bounded="pool of 7 tables (4 path + 3 allocatable); tree-shaped sparse pre-state (target path, one neighbour word per path table, garbage in allocatable frames); page-table indices (511,511,511,511)"
-    //@ obligation C01 C01.translate_any.shape_p3_absent.probe_agrees_with_walk tier=thorough bounded="pool of 7 tables (4 path + 3 allocatable); tree-shaped sparse pre-state (target path, one neighbour word per path table, garbage in allocatable frames); page-table indices (511,511,511,511)"
-    //@ obligation C01 C01.translate_addr_any.shape_p3_absent.agrees_with_walk tier=thorough bounded="pool of 7 tables (4 path + 3 allocatable); tree-shaped sparse pre-state (target path, one neighbour word per path table, garbage in allocatable frames); page-table indices (511,511,511,511)"
-    //@ obligation C09 C09.translate_any.shape_p3_absent.writes_nothing tier=thorough bounded="pool of 7 tables (4 path + 3 allocatable); tree-shaped sparse pre-state (target path, one neighbour word per path table, garbage in allocatable frames); page-table indices (511,511,511,511)"
-    //@ obligation C09 C09.translate_any.shape_p3_absent.no_frames_requested_or_zeroed tier=thorough bounded="pool of 7 tables (4 path + 3 allocatable); tree-shaped sparse pre-state (target path, one neighbour word per path table, garbage in allocatable frames); page-table indices (511,511,511,511)"
+    //@ obligation C01 C01.translate_any.shape_p3_absent.target_agrees_with_walk tier=thorough bounded="pool of 7 tables (4 path + 3 allocatable); tree-shaped sparse pre-state (target path, one neighbour word per path table, garbage in allocatable frames); page-table indices (511,510,1,0)"
+    //@ obligation C01 C01.translate_any.shape_p3_absent.probe_agrees_with_walk tier=thorough bounded="pool of 7 tables (4 path + 3 allocatable); tree-shaped sparse pre-state (target path, one neighbour word per path table, garbage in allocatable frames); page-table indices (511,510,1,0)"
+    //@ obligation C01 C01.translate_addr_any.shape_p3_absent.agrees_with_walk tier=thorough bounded="pool of 7 tables (4 path + 3 allocatable); tree-shaped sparse pre-state (target path, one neighbour word per path table, garbage in allocatable frames); page-table indices (511,510,1,0)"
+    //@ obligation C09 C09.translate_any.shape_p3_absent.writes_nothing tier=thorough bounded="pool of 7 tables (4 path + 3 allocatable); tree-shaped sparse pre-state (target path, one neighbour word per path table, garbage in allocatable frames); page-table indices (511,510,1,0)"
+    //@ obligation C09 C09.translate_any.shape_p3_absent.no_frames_requested_or_zeroed tier=thorough bounded="pool of 7 tables (4 path + 3 allocatable); tree-shaped sparse pre-state (target path, one neighbour word per path table, garbage in allocatable frames); page-table indices (511,510,1,0)"
+    //@ obligation C09 C09.translate_any.shape_p3_absent.no_access_outside_page_tables tier=thorough bounded="pool of 7 tables (4 path + 3 allocatable); tree-shaped sparse pre-state (target path, one neighbour word per path table, garbage in allocatable frames); page-table indices (511,510,1,0)"
     #[kani::proof]
     #[kani::stub(PageTable::zero, zero_stub)]
     fn c01_translate_any_p3_absent_hi() {
@@ -946,11 +1179,12 @@ mod verif_c01_step_read {
         kani::cover!(true, "c01_translate_any_p3_absent_hi: reachable");
     }
 
-    //@ obligation C01 C01.translate_any.shape_p3_absent.target_agrees_with_walk tier=thorough bounded="pool of 7 tables (4 path + 3 allocatable); tree-shaped sparse pre-state (target path, one neighbour word per path table, garbage in allocatable frames); page-table indices (255,511,0,1)"
-    //@ obligation C01 C01.translate_any.shape_p3_absent.probe_agrees_with_walk tier=thorough bounded="pool of 7 tables (4 path + 3 allocatable); tree-shaped sparse pre-state (target path, one neighbour word per path table, garbage in allocatable frames); page-table indices (255,511,0,1)"
-    //@ obligation C01 C01.translate_addr_any.shape_p3_absent.agrees_with_walk tier=thorough bounded="pool of 7 tables (4 path + 3 allocatable); tree-shaped sparse pre-state (target path, one neighbour word per path table, garbage in allocatable frames); page-table indices (255,511,0,1)"
-    //@ obligation C09 C09.translate_any.shape_p3_absent.writes_nothing tier=thorough bounded="pool of 7 tables (4 path + 3 allocatable); tree-shaped sparse pre-state (target path, one neighbour word per path table, garbage in allocatable frames); page-table indices (255,511,0,1)"
-    //@ obligation C09 C09.translate_any.shape_p3_absent.no_frames_requested_or_zeroed tier=thorough bounded="pool of 7 tables (4 path + 3 allocatable); tree-shaped sparse pre-state (target path, one neighbour word per path table, garbage in allocatable frames); page-table indices (255,511,0,1)"
+    //@ obligation C01 C01.translate_any.shape_p3_absent.target_agrees_with_walk tier=thorough bounded="pool of 7 tables (4 path + 3 allocatable); tree-shaped sparse pre-state (target path, one neighbour word per path table, garbage in allocatable frames); page-table indices (255,511,0,256)"
+    //@ obligation C01 C01.translate_any.shape_p3_absent.probe_agrees_with_walk tier=thorough bounded="pool of 7 tables (4 path + 3 allocatable); tree-shaped sparse pre-state (target path, one neighbour word per path table, garbage in allocatable frames); page-table indices (255,511,0,256)"
+    //@ obligation C01 C01.translate_addr_any.shape_p3_absent.agrees_with_walk tier=thorough bounded="pool of 7 tables (4 path + 3 allocatable); tree-shaped sparse pre-state (target path, one neighbour word per path table, garbage in allocatable frames); page-table indices (255,511,0,256)"
+    //@ obligation C09 C09.translate_any.shape_p3_absent.writes_nothing tier=thorough bounded="pool of 7 tables (4 path + 3 allocatable); tree-shaped sparse pre-state (target path, one neighbour word per path table, garbage in allocatable frames); page-table indices (255,511,0,256)"
+    //@ obligation C09 C09.translate_any.shape_p3_absent.no_frames_requested_or_zeroed tier=thorough bounded="pool of 7 tables (4 path + 3 allocatable); tree-shaped sparse pre-state (target path, one neighbour word per path table, garbage in allocatable frames); page-table indices (255,511,0,256)"
+    //@ obligation C09 C09.translate_any.shape_p3_absent.no_access_outside_page_tables tier=thorough bounded="pool of 7 tables (4 path + 3 allocatable); tree-shaped sparse pre-state (target path, one neighbour word per path table, garbage in allocatable frames); page-table indices (255,511,0,256)"
     #[kani::proof]
     #[kani::stub(PageTable::zero, zero_stub)]
     fn c01_translate_any_p3_absent_mid() {
@@ -958,11 +1192,12 @@ mod verif_c01_step_read {
         kani::cover!(true, "c01_translate_any_p3_absent_mid: reachable");
     }
 
-    //@ obligation C01 C01.translate_any.shape_p3_absent.target_agrees_with_walk bounded="pool of 7 tables (4 path + 3 allocatable); tree-shaped sparse pre-state (target path, one neighbour word per path table, garbage in allocatable frames); page-table indices (256,1,510,255)"
-    //@ obligation C01 C01.translate_any.shape_p3_absent.probe_agrees_with_walk bounded="pool of 7 tables (4 path + 3 allocatable); tree-shaped sparse pre-state (target path, one neighbour word per path table, garbage in allocatable frames); page-table indices (256,1,510,255)"
-    //@ obligation C01 C01.translate_addr_any.shape_p3_absent.agrees_with_walk bounded="pool of 7 tables (4 path + 3 allocatable); tree-shaped sparse pre-state (target path, one neighbour word per path table, garbage in allocatable frames); page-table indices (256,1,510,255)"
-    //@ obligation C09 C09.translate_any.shape_p3_absent.writes_nothing bounded="pool of 7 tables (4 path + 3 allocatable); tree-shaped sparse pre-state (target path, one neighbour word per path table, garbage in allocatable frames); page-table indices (256,1,510,255)"
-    //@ obligation C09 C09.translate_any.shape_p3_absent.no_frames_requested_or_zeroed bounded="pool of 7 tables (4 path + 3 allocatable); tree-shaped sparse pre-state (target path, one neighbour word per path table, garbage in allocatable frames); page-table indices (256,1,510,255)"
+    //@ obligation C01 C01.translate_any.shape_p3_absent.target_agrees_with_walk bounded="pool of 7 tables (4 path + 3 allocatable); tree-shaped sparse pre-state (target path, one neighbour word per path table, garbage in allocatable frames); page-table indices (256,0,510,511)"
+    //@ obligation C01 C01.translate_any.shape_p3_absent.probe_agrees_with_walk bounded="pool of 7 tables (4 path + 3 allocatable); tree-shaped sparse pre-state (target path, one neighbour word per path table, garbage in allocatable frames); page-table indices (256,0,510,511)"
+    //@ obligation C01 C01.translate_addr_any.shape_p3_absent.agrees_with_walk bounded="pool of 7 tables (4 path + 3 allocatable); tree-shaped sparse pre-state (target path, one neighbour word per path table, garbage in allocatable frames); page-table indices (256,0,510,511)"
+    //@ obligation C09 C09.translate_any.shape_p3_absent.writes_nothing bounded="pool of 7 tables (4 path + 3 allocatable); tree-shaped sparse pre-state (target path, one neighbour word per path table, garbage in allocatable frames); page-table indices (256,0,510,511)"
+    //@ obligation C09 C09.translate_any.shape_p3_absent.no_frames_requested_or_zeroed bounded="pool of 7 tables (4 path + 3 allocatable); tree-shaped sparse pre-state (target path, one neighbour word per path table, garbage in allocatable frames); page-table indices (256,0,510,511)"
+    //@ obligation C09 C09.translate_any.shape_p3_absent.no_access_outside_page_tables bounded="pool of 7 tables (4 path + 3 allocatable); tree-shaped sparse pre-state (target path, one neighbour word per path table, garbage in allocatable frames); page-table indices (256,0,510,511)"
     #[kani::proof]
     #[kani::stub(PageTable::zero, zero_stub)]
     fn c01_translate_any_p3_absent_up() {
@@ -970,11 +1205,12 @@ mod verif_c01_step_read {
         kani::cover!(true, "c01_translate_any_p3_absent_up: reachable");
     }
 
-    //@ obligation C01 C01.translate_any.shape_p3_huge.target_agrees_with_walk tier=thorough bounded="pool of 7 tables (4 path + 3 allocatable); tree-shaped sparse pre-state (target path, one neighbour word per path table, garbage in allocatable frames); page-table indices (0,0,0,0)"
-    //@ obligation C01 C01.translate_any.shape_p3_huge.probe_agrees_with_walk tier=thorough bounded="pool of 7 tables (4 path + 3 allocatable); tree-shaped sparse pre-state (target path, one neighbour word per path table, garbage in allocatable frames); page-table indices (0,0,0,0)"
-    //@ obligation C01 C01.translate_addr_any.shape_p3_huge.agrees_with_walk tier=thorough bounded="pool of 7 tables (4 path + 3 allocatable); tree-shaped sparse pre-state (target path, one neighbour word per path table, garbage in allocatable frames); page-table indices (0,0,0,0)"
-    //@ obligation C09 C09.translate_any.shape_p3_huge.writes_nothing tier=thorough bounded="pool of 7 tables (4 path + 3 allocatable); tree-shaped sparse pre-state (target path, one neighbour word per path table, garbage in allocatable frames); page-table indices (0,0,0,0)"
-    //@ obligation C09 C09.translate_any.shape_p3_huge.no_frames_requested_or_zeroed tier=thorough bounded="pool of 7 tables (4 path + 3 allocatable); tree-shaped sparse pre-state (target path, one neighbour word per path table, garbage in allocatable frames); page-table indices (0,0,0,0)"
+    //@ obligation C01 C01.translate_any.shape_p3_huge.target_agrees_with_walk tier=thorough bounded="pool of 7 tables (4 path + 3 allocatable); tree-shaped sparse pre-state (target path, one neighbour word per path table, garbage in allocatable frames); page-table indices (0,1,511,2)"
+    //@ obligation C01 C01.translate_any.shape_p3_huge.probe_agrees_with_walk tier=thorough bounded="pool of 7 tables (4 path + 3 allocatable); tree-shaped sparse pre-state (target path, one neighbour word per path table, garbage in allocatable frames); page-table indices (0,1,511,2)"
+    //@ obligation C01 C01.translate_addr_any.shape_p3_huge.agrees_with_walk tier=thorough bounded="pool of 7 tables (4 path + 3 allocatable); tree-shaped sparse pre-state (target path, one neighbour word per path table, garbage in allocatable frames); page-table indices (0,1,511,2)"
+    //@ obligation C09 C09.translate_any.shape_p3_huge.writes_nothing tier=thorough bounded="pool of 7 tables (4 path + 3 allocatable); tree-shaped sparse pre-state (target path, one neighbour word per path table, garbage in allocatable frames); page-table indices (0,1,511,2)"
+    //@ obligation C09 C09.translate_any.shape_p3_huge.no_frames_requested_or_zeroed tier=thorough bounded="pool of 7 tables (4 path + 3 allocatable); tree-shaped sparse pre-state (target path, one neighbour word per path table, garbage in allocatable frames); page-table indices (0,1,511,2)"
+    //@ obligation C09 C09.translate_any.shape_p3_huge.no_access_outside_page_tables tier=thorough bounded="pool of 7 tables (4 path + 3 allocatable); tree-shaped sparse pre-state (target path, one neighbour word per path table, garbage in allocatable frames); page-table indices (0,1,511,2)"
     #[kani::proof]
     #[kani::stub(PageTable::zero, zero_stub)]
     fn c01_translate_any_p3_huge_lo() {
@@ -982,11 +1218,12 @@ mod verif_c01_step_read {
         kani::cover!(true, "c01_translate_any_p3_huge_lo: reachable");
     }
 
-    //@ obligation C01 C01.translate_any.shape_p3_huge.target_agrees_with_walk tier=thorough bounded="pool of 7 tables (4 path + 3 allocatable); tree-shaped sparse pre-state (target path, one neighbour word per path table, garbage in allocatable frames); page-table indices (511,511,511,511)"
-    //@ obligation C01 C01.translate_any.shape_p3_huge.probe_agrees_with_walk tier=thorough bounded="pool of 7 tables (4 path + 3 allocatable); tree-shaped sparse pre-state (target path, one neighbour word per path table, garbage in allocatable frames); page-table indices (511,511,511,511)"
-    //@ obligation C01 C01.translate_addr_any.shape_p3_huge.agrees_with_walk tier=thorough bounded="pool of 7 tables (4 path + 3 allocatable); tree-shaped sparse pre-state (target path, one neighbour word per path table, garbage in allocatable frames); page-table indices (511,511,511,511)"
-    //@ obligation C09 C09.translate_any.shape_p3_huge.writes_nothing tier=thorough bounded="pool of 7 tables (4 path + 3 allocatable); tree-shaped sparse pre-state (target path, one neighbour word per path table, garbage in allocatable frames); page-table indices (511,511,511,511)"
-    //@ obligation C09 C09.translate_any.shape_p3_huge.no_frames_requested_or_zeroed tier=thorough bounded="pool of 7 tables (4 path + 3 allocatable); tree-shaped sparse pre-state (target path, one neighbour word per path table, garbage in allocatable frames); page-table indices (511,511,511,511)"
+    //@ obligation C01 C01.translate_any.shape_p3_huge.target_agrees_with_walk tier=thorough bounded="pool of 7 tables (4 path + 3 allocatable); tree-shaped sparse pre-state (target path, one neighbour word per path table, garbage in allocatable frames); page-table indices (511,510,1,0)"
+    //@ obligation C01 C01.translate_any.shape_p3_huge.probe_agrees_with_walk tier=thorough bounded="pool of 7 tables (4 path + 3 allocatable); tree-shaped sparse pre-state (target path, one neighbour word per path table, garbage in allocatable frames); page-table indices (511,510,1,0)"
+    //@ obligation C01 C01.translate_addr_any.shape_p3_huge.agrees_with_walk tier=thorough bounded="pool of 7 tables (4 path + 3 allocatable); tree-shaped sparse pre-state (target path, one neighbour word per path table, garbage in allocatable frames); page-table indices (511,510,1,0)"
+    //@ obligation C09 C09.translate_any.shape_p3_huge.writes_nothing tier=thorough bounded="pool of 7 tables (4 path + 3 allocatable); tree-shaped sparse pre-state (target path, one neighbour word per path table, garbage in allocatable frames); page-table indices (511,510,1,0)"
+    //@ obligation C09 C09.translate_any.shape_p3_huge.no_frames_requested_or_zeroed tier=thorough bounded="pool of 7 tables (4 path + 3 allocatable); tree-shaped sparse pre-state (target path, one neighbour word per path table, garbage in allocatable frames); page-table indices (511,510,1,0)"
+    //@ obligation C09 C09.translate_any.shape_p3_huge.no_access_outside_page_tables tier=thorough bounded="pool of 7 tables (4 path + 3 allocatable); tree-shaped sparse pre-state (target path, one neighbour word per path table, garbage in allocatable frames); page-table indices (511,510,1,0)"
     #[kani::proof]
     #[kani::stub(PageTable::zero, zero_stub)]
     fn c01_translate_any_p3_huge_hi() {
@@ -994,11 +1231,12 @@ mod verif_c01_step_read {
         kani::cover!(true, "c01_translate_any_p3_huge_hi: reachable");
     }
 
-    //@ obligation C01 C01.translate_any.shape_p3_huge.target_agrees_with_walk bounded="pool of 7 tables (4 path + 3 allocatable); tree-shaped sparse pre-state (target path, one neighbour word per path table, garbage in allocatable frames); page-table indices (255,511,0,1)"
-    //@ obligation C01 C01.translate_any.shape_p3_huge.probe_agrees_with_walk bounded="pool of 7 tables (4 path + 3 allocatable); tree-shaped sparse pre-state (target path, one neighbour word per path table, garbage in allocatable frames); page-table indices (255,511,0,1)"
-    //@ obligation C01 C01.translate_addr_any.shape_p3_huge.agrees_with_walk bounded="pool of 7 tables (4 path + 3 allocatable); tree-shaped sparse pre-state (target path, one neighbour word per path table, garbage in allocatable frames); page-table indices (255,511,0,1)"
-    //@ obligation C09 C09.translate_any.shape_p3_huge.writes_nothing bounded="pool of 7 tables (4 path + 3 allocatable); tree-shaped sparse pre-state (target path, one neighbour word per path table, garbage in allocatable frames); page-table indices (255,511,0,1)"
-    //@ obligation C09 C09.translate_any.shape_p3_huge.no_frames_requested_or_zeroed bounded="pool of 7 tables (4 path + 3 allocatable); tree-shaped sparse pre-state (target path, one neighbour word per path table, garbage in allocatable frames); page-table indices (255,511,0,1)"
+    //@ obligation C01 C01.translate_any.shape_p3_huge.target_agrees_with_walk bounded="pool of 7 tables (4 path + 3 allocatable); tree-shaped sparse pre-state (target path, one neighbour word per path table, garbage in allocatable frames); page-table indices (255,511,0,256)"
+    //@ obligation C01 C01.translate_any.shape_p3_huge.probe_agrees_with_walk bounded="pool of 7 tables (4 path + 3 allocatable); tree-shaped sparse pre-state (target path, one neighbour word per path table, garbage in allocatable frames); page-table indices (255,511,0,256)"
+    //@ obligation C01 C01.translate_addr_any.shape_p3_huge.agrees_with_walk bounded="pool of 7 tables (4 path + 3 allocatable); tree-shaped sparse pre-state (target path, one neighbour word per path table, garbage in allocatable frames); page-table indices (255,511,0,256)"
+    //@ obligation C09 C09.translate_any.shape_p3_huge.writes_nothing bounded="pool of 7 tables (4 path + 3 allocatable); tree-shaped sparse pre-state (target path, one neighbour word per path table, garbage in allocatable frames); page-table indices (255,511,0,256)"
+    //@ obligation C09 C09.translate_any.shape_p3_huge.no_frames_requested_or_zeroed bounded="pool of 7 tables (4 path + 3 allocatable); tree-shaped sparse pre-state (target path, one neighbour word per path table, garbage in allocatable frames); page-table indices (255,511,0,256)"
+    //@ obligation C09 C09.translate_any.shape_p3_huge.no_access_outside_page_tables bounded="pool of 7 tables (4 path + 3 allocatable); tree-shaped sparse pre-state (target path, one neighbour word per path table, garbage in allocatable frames); page-table indices (255,511,0,256)"
     #[kani::proof]
     #[kani::stub(PageTable::zero, zero_stub)]
     fn c01_translate_any_p3_huge_mid() {
@@ -1006,11 +1244,12 @@ mod verif_c01_step_read {
         kani::cover!(true, "c01_translate_any_p3_huge_mid: reachable");
     }
 
-    //@ obligation C01 C01.translate_any.shape_p3_huge.target_agrees_with_walk tier=thorough bounded="pool of 7 tables (4 path + 3 allocatable); tree-shaped sparse pre-state (target path, one neighbour word per path table, garbage in allocatable frames); page-table indices (256,1,510,255)"
-    //@ obligation C01 C01.translate_any.shape_p3_huge.probe_agrees_with_walk tier=thorough bounded="pool of 7 tables (4 path + 3 allocatable); tree-shaped sparse pre-state (target path, one neighbour word per path table, garbage in allocatable frames); page-table indices (256,1,510,255)"
-    //@ obligation C01 C01.translate_addr_any.shape_p3_huge.agrees_with_walk tier=thorough bounded="pool of 7 tables (4 path + 3 allocatable); tree-shaped sparse pre-state (target path, one neighbour word per path table, garbage in allocatable frames); page-table indices (256,1,510,255)"
-    //@ obligation C09 C09.translate_any.shape_p3_huge.writes_nothing tier=thorough bounded="pool of 7 tables (4 path + 3 allocatable); tree-shaped sparse pre-state (target path, one neighbour word per path table, garbage in allocatable frames); page-table indices (256,1,510,255)"
-    //@ obligation C09 C09.translate_any.shape_p3_huge.no_frames_requested_or_zeroed tier=thorough bounded="pool of 7 tables (4 path + 3 allocatable); tree-shaped sparse pre-state (target path, one neighbour word per path table, garbage in allocatable frames); page-table indices (256,1,510,255)"
+    //@ obligation C01 C01.translate_any.shape_p3_huge.target_agrees_with_walk tier=thorough bounded="pool of 7 tables (4 path + 3 allocatable); tree-shaped sparse pre-state (target path, one neighbour word per path table, garbage in allocatable frames); page-table indices (256,0,510,511)"
+    //@ obligation C01 C01.translate_any.shape_p3_huge.probe_agrees_with_walk tier=thorough bounded="pool of 7 tables (4 path + 3 allocatable); tree-shaped sparse pre-state (target path, one neighbour word per path table, garbage in allocatable frames); page-table indices (256,0,510,511)"
+    //@ obligation C01 C01.translate_addr_any.shape_p3_huge.agrees_with_walk tier=thorough bounded="pool of 7 tables (4 path + 3 allocatable); tree-shaped sparse pre-state (target path, one neighbour word per path table, garbage in allocatable frames); page-table indices (256,0,510,511)"
+    //@ obligation C09 C09.translate_any.shape_p3_huge.writes_nothing tier=thorough bounded="pool of 7 tables (4 path + 3 allocatable); tree-shaped sparse pre-state (target path, one neighbour word per path table, garbage in allocatable frames); page-table indices (256,0,510,511)"
+    //@ obligation C09 C09.translate_any.shape_p3_huge.no_frames_requested_or_zeroed tier=thorough bounded="pool of 7 tables (4 path + 3 allocatable); tree-shaped sparse pre-state (target path, one neighbour word per path table, garbage in allocatable frames); page-table indices (256,0,510,511)"
+    //@ obligation C09 C09.translate_any.shape_p3_huge.no_access_outside_page_tables tier=thorough bounded="pool of 7 tables (4 path + 3 allocatable); tree-shaped sparse pre-state (target path, one neighbour word per path table, garbage in allocatable frames); page-table indices (256,0,510,511)"
     #[kani::proof]
     #[kani::stub(PageTable::zero, zero_stub)]
     fn c01_translate_any_p3_huge_up() {
@@ -1018,11 +1257,12 @@ mod verif_c01_step_read {
         kani::cover!(true, "c01_translate_any_p3_huge_up: reachable");
     }
 
-    //@ obligation C01 C01.translate_any.shape_p2_absent.target_agrees_with_walk tier=thorough bounded="pool of 7 tables (4 path + 3 allocatable); tree-shaped sparse pre-state (target path, one neighbour word per path table, garbage in allocatable frames); page-table indices (0,0,0,0)"
-    //@ obligation C01 C01.translate_any.shape_p2_absent.probe_agrees_with_walk tier=thorough bounded="pool of 7 tables (4 path + 3 allocatable); tree-shaped sparse pre-state (target path, one neighbour word per path table, garbage in allocatable frames); page-table indices (0,0,0,0)"
-    //@ obligation C01 C01.translate_addr_any.shape_p2_absent.agrees_with_walk tier=thorough bounded="pool of 7 tables (4 path + 3 allocatable); tree-shaped sparse pre-state (target path, one neighbour word per path table, garbage in allocatable frames); page-table indices (0,0,0,0)"
-    //@ obligation C09 C09.translate_any.shape_p2_absent.writes_nothing tier=thorough bounded="pool of 7 tables (4 path + 3 allocatable); tree-shaped sparse pre-state (target path, one neighbour word per path table, garbage in allocatable frames); page-table indices (0,0,0,0)"
-    //@ obligation C09 C09.translate_any.shape_p2_absent.no_frames_requested_or_zeroed tier=thorough bounded="pool of 7 tables (4 path + 3 allocatable); tree-shaped sparse pre-state (target path, one neighbour word per path table, garbage in allocatable frames); page-table indices (0,0,0,0)"
+    //@ obligation C01 C01.translate_any.shape_p2_absent.target_agrees_with_walk tier=thorough bounded="pool of 7 tables (4 path + 3 allocatable); tree-shaped sparse pre-state (target path, one neighbour word per path table, garbage in allocatable frames); page-table indices (0,1,511,2)"
+    //@ obligation C01 C01.translate_any.shape_p2_absent.probe_agrees_with_walk tier=thorough bounded="pool of 7 tables (4 path + 3 allocatable); tree-shaped sparse pre-state (target path, one neighbour word per path table, garbage in allocatable frames); page-table indices (0,1,511,2)"
+    //@ obligation C01 C01.translate_addr_any.shape_p2_absent.agrees_with_walk tier=thorough bounded="pool of 7 tables (4 path + 3 allocatable); tree-shaped sparse pre-state (target path, one neighbour word per path table, garbage in allocatable frames); page-table indices (0,1,511,2)"
+    //@ obligation C09 C09.translate_any.shape_p2_absent.writes_nothing tier=thorough bounded="pool of 7 tables (4 path + 3 allocatable); tree-shaped sparse pre-state (target path, one neighbour word per path table, garbage in allocatable frames); page-table indices (0,1,511,2)"
+    //@ obligation C09 C09.translate_any.shape_p2_absent.no_frames_requested_or_zeroed tier=thorough bounded="pool of 7 tables (4 path + 3 allocatable); tree-shaped sparse pre-state (target path, one neighbour word per path table, garbage in allocatable frames); page-table indices (0,1,511,2)"
+    //@ obligation C09 C09.translate_any.shape_p2_absent.no_access_outside_page_tables tier=thorough bounded="pool of 7 tables (4 path + 3 allocatable); tree-shaped sparse pre-state (target path, one neighbour word per path table, garbage in allocatable frames); page-table indices (0,1,511,2)"
     #[kani::proof]
     #[kani::stub(PageTable::zero, zero_stub)]
     fn c01_translate_any_p2_absent_lo() {
@@ -1030,11 +1270,12 @@ mod verif_c01_step_read {
         kani::cover!(true, "c01_translate_any_p2_absent_lo: reachable");
     }
 
-    //@ obligation C01 C01.translate_any.shape_p2_absent.target_agrees_with_walk tier=thorough bounded="pool of 7 tables (4 path + 3 allocatable); tree-shaped sparse pre-state (target path, one neighbour word per path table, garbage in allocatable frames); page-table indices (511,511,511,511)"
-    //@ obligation C01 C01.translate_any.shape_p2_absent.probe_agrees_with_walk tier=thorough bounded="pool of 7 tables (4 path + 3 allocatable); tree-shaped sparse pre-state (target path, one neighbour word per path table, garbage in allocatable frames); page-table indices (511,511,511,511)"
-    //@ obligation C01 C01.translate_addr_any.shape_p2_absent.agrees_with_walk tier=thorough bounded="pool of 7 tables (4 path + 3 allocatable); tree-shaped sparse pre-state (target path, one neighbour word per path table, garbage in allocatable frames); page-table indices (511,511,511,511)"
-    //@ obligation C09 C09.translate_any.shape_p2_absent.writes_nothing tier=thorough bounded="pool of 7 tables (4 path + 3 allocatable); tree-shaped sparse pre-state (target path, one neighbour word per path table, garbage in allocatable frames); page-table indices (511,511,511,511)"
-    //@ obligation C09 C09.translate_any.shape_p2_absent.no_frames_requested_or_zeroed tier=thorough bounded="pool of 7 tables (4 path + 3 allocatable); tree-shaped sparse pre-state (target path, one neighbour word per path table, garbage in allocatable frames); page-table indices (511,511,511,511)"
+    //@ obligation C01 C01.translate_any.shape_p2_absent.target_agrees_with_walk tier=thorough bounded="pool of 7 tables (4 path + 3 allocatable); tree-shaped sparse pre-state (target path, one neighbour word per path table, garbage in allocatable frames); page-table indices (511,510,1,0)"
+    //@ obligation C01 C01.translate_any.shape_p2_absent.probe_agrees_with_walk tier=thorough bounded="pool of 7 tables (4 path + 3 allocatable); tree-shaped sparse pre-state (target path, one neighbour word per path table, garbage in allocatable frames); page-table indices (511,510,1,0)"
+    //@ obligation C01 C01.translate_addr_any.shape_p2_absent.agrees_with_walk tier=thorough bounded="pool of 7 tables (4 path + 3 allocatable); tree-shaped sparse pre-state (target path, one neighbour word per path table, garbage in allocatable frames); page-table indices (511,510,1,0)"
+    //@ obligation C09 C09.translate_any.shape_p2_absent.writes_nothing tier=thorough bounded="pool of 7 tables (4 path + 3 allocatable); tree-shaped sparse pre-state (target path, one neighbour word per path table, garbage in allocatable frames); page-table indices (511,510,1,0)"
+    //@ obligation C09 C09.translate_any.shape_p2_absent.no_frames_requested_or_zeroed tier=thorough bounded="pool of 7 tables (4 path + 3 allocatable); tree-shaped sparse pre-state (target path, one neighbour word per path table, garbage in allocatable frames); page-table indices (511,510,1,0)"
+    //@ obligation C09 C09.translate_any.shape_p2_absent.no_access_outside_page_tables tier=thorough bounded="pool of 7 tables (4 path + 3 allocatable); tree-shaped sparse pre-state (target path, one neighbour word per path table, garbage in allocatable frames); page-table indices (511,510,1,0)"
     #[kani::proof]
     #[kani::stub(PageTable::zero, zero_stub)]
     fn c01_translate_any_p2_absent_hi() {
@@ -1042,11 +1283,12 @@ mod verif_c01_step_read {
         kani::cover!(true, "c01_translate_any_p2_absent_hi: reachable");
     }
 
-    //@ obligation C01 C01.translate_any.shape_p2_absent.target_agrees_with_walk tier=thorough bounded="pool of 7 tables (4 path + 3 allocatable); tree-shaped sparse pre-state (target path, one neighbour word per path table, garbage in allocatable frames); page-table indices (255,511,0,1)"
-    //@ obligation C01 C01.translate_any.shape_p2_absent.probe_agrees_with_walk tier=thorough bounded="pool of 7 tables (4 path + 3 allocatable); tree-shaped sparse pre-state (target path, one neighbour word per path table, garbage in allocatable frames); page-table indices (255,511,0,1)"
-    //@ obligation C01 C01.translate_addr_any.shape_p2_absent.agrees_with_walk tier=thorough bounded="pool of 7 tables (4 path + 3 allocatable); tree-shaped sparse pre-state (target path, one neighbour word per path table, garbage in allocatable frames); page-table indices (255,511,0,1)"
-    //@ obligation C09 C09.translate_any.shape_p2_absent.writes_nothing tier=thorough bounded="pool of 7 tables (4 path + 3 allocatable); tree-shaped sparse pre-state (target path, one neighbour word per path table, garbage in allocatable frames); page-table indices (255,511,0,1)"
-    //@ obligation C09 C09.translate_any.shape_p2_absent.no_frames_requested_or_zeroed tier=thorough bounded="pool of 7 tables (4 path + 3 allocatable); tree-shaped sparse pre-state (target path, one neighbour word per path table, garbage in allocatable frames); page-table indices (255,511,0,1)"
+    //@ obligation C01 C01.translate_any.shape_p2_absent.target_agrees_with_walk tier=thorough bounded="pool of 7 tables (4 path + 3 allocatable); tree-shaped sparse pre-state (target path, one neighbour word per path table, garbage in allocatable frames); page-table indices (255,511,0,256)"
+    //@ obligation C01 C01.translate_any.shape_p2_absent.probe_agrees_with_walk tier=thorough bounded="pool of 7 tables (4 path + 3 allocatable); tree-shaped sparse pre-state (target path, one neighbour word per path table, garbage in allocatable frames); page-table indices (255,511,0,256)"
+    //@ obligation C01 C01.translate_addr_any.shape_p2_absent.agrees_with_walk tier=thorough bounded="pool of 7 tables (4 path + 3 allocatable); tree-shaped sparse pre-state (target path, one neighbour word per path table, garbage in allocatable frames); page-table indices (255,511,0,256)"
+    //@ obligation C09 C09.translate_any.shape_p2_absent.writes_nothing tier=thorough bounded="pool of 7 tables (4 path + 3 allocatable); tree-shaped sparse pre-state (target path, one neighbour word per path table, garbage in allocatable frames); page-table indices (255,511,0,256)"
+    //@ obligation C09 C09.translate_any.shape_p2_absent.no_frames_requested_or_zeroed tier=thorough bounded="pool of 7 tables (4 path + 3 allocatable); tree-shaped sparse pre-state (target path, one neighbour word per path table, garbage in allocatable frames); page-table indices (255,511,0,256)"
+    //@ obligation C09 C09.translate_any.shape_p2_absent.no_access_outside_page_tables tier=thorough bounded="pool of 7 tables (4 path + 3 allocatable); tree-shaped sparse pre-state (target path, one neighbour word per path table, garbage in allocatable frames); page-table indices (255,511,0,256)"
     #[kani::proof]
     #[kani::stub(PageTable::zero, zero_stub)]
     fn c01_translate_any_p2_absent_mid() {
@@ -1054,11 +1296,12 @@ mod verif_c01_step_read {
         kani::cover!(true, "c01_translate_any_p2_absent_mid: reachable");
     }
 
-    //@ obligation C01 C01.translate_any.shape_p2_absent.target_agrees_with_walk tier=thorough bounded="pool of 7 tables (4 path + 3 allocatable); tree-shaped sparse pre-state (target path, one neighbour word per path table, garbage in allocatable frames); page-table indices (256,1,510,255)"
-    //@ obligation C01 C01.translate_any.shape_p2_absent.probe_agrees_with_walk tier=thorough bounded="pool of 7 tables (4 path + 3 allocatable); tree-shaped sparse pre-state (target path, one neighbour word per path table, garbage in allocatable frames); page-table indices (256,1,510,255)"
-    //@ obligation C01 C01.translate_addr_any.shape_p2_absent.agrees_with_walk tier=thorough bounded="pool of 7 tables (4 path + 3 allocatable); tree-shaped sparse pre-state (target path, one neighbour word per path table, garbage in allocatable frames); page-table indices (256,1,510,255)"
-    //@ obligation C09 C09.translate_any.shape_p2_absent.writes_nothing tier=thorough bounded="pool of 7 tables (4 path + 3 allocatable); tree-shaped sparse pre-state (target path, one neighbour word per path table, garbage in allocatable frames); page-table indices (256,1,510,255)"
-    //@ obligation C09 C09.translate_any.shape_p2_absent.no_frames_requested_or_zeroed tier=thorough bounded="pool of 7 tables (4 path + 3 allocatable); tree-shaped sparse pre-state (target path, one neighbour word per path table, garbage in allocatable frames); page-table indices (256,1,510,255)"
+    //@ obligation C01 C01.translate_any.shape_p2_absent.target_agrees_with_walk tier=thorough bounded="pool of 7 tables (4 path + 3 allocatable); tree-shaped sparse pre-state (target path, one neighbour word per path table, garbage in allocatable frames); page-table indices (256,0,510,511)"
+    //@ obligation C01 C01.translate_any.shape_p2_absent.probe_agrees_with_walk tier=thorough bounded="pool of 7 tables (4 path + 3 allocatable); tree-shaped sparse pre-state (target path, one neighbour word per path table, garbage in allocatable frames); page-table indices (256,0,510,511)"
+    //@ obligation C01 C01.translate_addr_any.shape_p2_absent.agrees_with_walk tier=thorough bounded="pool of 7 tables (4 path + 3 allocatable); tree-shaped sparse pre-state (target path, one neighbour word per path table, garbage in allocatable frames); page-table indices (256,0,510,511)"
+    //@ obligation C09 C09.translate_any.shape_p2_absent.writes_nothing tier=thorough bounded="pool of 7 tables (4 path + 3 allocatable); tree-shaped sparse pre-state (target path, one neighbour word per path table, garbage in allocatable frames); page-table indices (256,0,510,511)"
+    //@ obligation C09 C09.translate_any.shape_p2_absent.no_frames_requested_or_zeroed tier=thorough bounded="pool of 7 tables (4 path + 3 allocatable); tree-shaped sparse pre-state (target path, one neighbour word per path table, garbage in allocatable frames); page-table indices (256,0,510,511)"
+    //@ obligation C09 C09.translate_any.shape_p2_absent.no_access_outside_page_tables tier=thorough bounded="pool of 7 tables (4 path + 3 allocatable); tree-shaped sparse pre-state (target path, one neighbour word per path table, garbage in allocatable frames); page-table indices (256,0,510,511)"
     #[kani::proof]
     #[kani::stub(PageTable::zero, zero_stub)]
     fn c01_translate_any_p2_absent_up() {
@@ -1066,11 +1309,12 @@ mod verif_c01_step_read {
         kani::cover!(true, "c01_translate_any_p2_absent_up: reachable");
     }
 
-    //@ obligation C01 C01.translate_any.shape_p2_huge.target_agrees_with_walk tier=thorough bounded="pool of 7 tables (4 path + 3 allocatable); tree-shaped sparse pre-state (target path, one neighbour word per path table, garbage in allocatable frames); page-table indices (0,0,0,0)"
-    //@ obligation C01 C01.translate_any.shape_p2_huge.probe_agrees_with_walk tier=thorough bounded="pool of 7 tables (4 path + 3 allocatable); tree-shaped sparse pre-state (target path, one neighbour word per path table, garbage in allocatable frames); page-table indices (0,0,0,0)"
-    //@ obligation C01 C01.translate_addr_any.shape_p2_huge.agrees_with_walk tier=thorough bounded="pool of 7 tables (4 path + 3 allocatable); tree-shaped sparse pre-state (target path, one neighbour word per path table, garbage in allocatable frames); page-table indices (0,0,0,0)"
-    //@ obligation C09 C09.translate_any.shape_p2_huge.writes_nothing tier=thorough bounded="pool of 7 tables (4 path + 3 allocatable); tree-shaped sparse pre-state (target path, one neighbour word per path table, garbage in allocatable frames); page-table indices (0,0,0,0)"
-    //@ obligation C09 C09.translate_any.shape_p2_huge.no_frames_requested_or_zeroed tier=thorough bounded="pool of 7 tables (4 path + 3 allocatable); tree-shaped sparse pre-state (target path, one neighbour word per path table, garbage in allocatable frames); page-table indices (0,0,0,0)"
+    //@ obligation C01 C01.translate_any.shape_p2_huge.target_agrees_with_walk tier=thorough bounded="pool of 7 tables (4 path + 3 allocatable); tree-shaped sparse pre-state (target path, one neighbour word per path table, garbage in allocatable frames); page-table indices (0,1,511,2)"
+    //@ obligation C01 C01.translate_any.shape_p2_huge.probe_agrees_with_walk tier=thorough bounded="pool of 7 tables (4 path + 3 allocatable); tree-shaped sparse pre-state (target path, one neighbour word per path table, garbage in allocatable frames); page-table indices (0,1,511,2)"
+    //@ obligation C01 C01.translate_addr_any.shape_p2_huge.agrees_with_walk tier=thorough bounded="pool of 7 tables (4 path + 3 allocatable); tree-shaped sparse pre-state (target path, one neighbour word per path table, garbage in allocatable frames); page-table indices (0,1,511,2)"
+    //@ obligation C09 C09.translate_any.shape_p2_huge.writes_nothing tier=thorough bounded="pool of 7 tables (4 path + 3 allocatable); tree-shaped sparse pre-state (target path, one neighbour word per path table, garbage in allocatable frames); page-table indices (0,1,511,2)"
+    //@ obligation C09 C09.translate_any.shape_p2_huge.no_frames_requested_or_zeroed tier=thorough bounded="pool of 7 tables (4 path + 3 allocatable); tree-shaped sparse pre-state (target path, one neighbour word per path table, garbage in allocatable frames); page-table indices (0,1,511,2)"
+    //@ obligation C09 C09.translate_any.shape_p2_huge.no_access_outside_page_tables tier=thorough bounded="pool of 7 tables (4 path + 3 allocatable); tree-shaped sparse pre-state (target path, one neighbour word per path table, garbage in allocatable frames); page-table indices (0,1,511,2)"
     #[kani::proof]
     #[kani::stub(PageTable::zero, zero_stub)]
     fn c01_translate_any_p2_huge_lo() {
@@ -1078,11 +1322,12 @@ mod verif_c01_step_read {
         kani::cover!(true, "c01_translate_any_p2_huge_lo: reachable");
     }
 
-    //@ obligation C01 C01.translate_any.shape_p2_huge.target_agrees_with_walk tier=thorough bounded="pool of 7 tables (4 path + 3 allocatable); tree-shaped sparse pre-state (target path, one neighbour word per path table, garbage in allocatable frames); page-table indices (511,511,511,511)"
-    //@ obligation C01 C01.translate_any.shape_p2_huge.probe_agrees_with_walk tier=thorough bounded="pool of 7 tables (4 path + 3 allocatable); tree-shaped sparse pre-state (target path, one neighbour word per path table, garbage in allocatable frames); page-table indices (511,511,511,511)"
-    //@ obligation C01 C01.translate_addr_any.shape_p2_huge.agrees_with_walk tier=thorough bounded="pool of 7 tables (4 path + 3 allocatable); tree-shaped sparse pre-state (target path, one neighbour word per path table, garbage in allocatable frames); page-table indices (511,511,511,511)"
-    //@ obligation C09 C09.translate_any.shape_p2_huge.writes_nothing tier=thorough bounded="pool of 7 tables (4 path + 3 allocatable); tree-shaped sparse pre-state (target path, one neighbour word per path table, garbage in allocatable frames); page-table indices (511,511,511,511)"
-    //@ obligation C09 C09.translate_any.shape_p2_huge.no_frames_requested_or_zeroed tier=thorough bounded="pool of 7 tables (4 path + 3 allocatable); tree-shaped sparse pre-state (target path, one neighbour word per path table, garbage in allocatable frames); page-table indices (511,511,511,511)"
+    //@ obligation C01 C01.translate_any.shape_p2_huge.target_agrees_with_walk tier=thorough bounded="pool of 7 tables (4 path + 3 allocatable); tree-shaped sparse pre-state (target path, one neighbour word per path table, garbage in allocatable frames); page-table indices (511,510,1,0)"
+    //@ obligation C01 C01.translate_any.shape_p2_huge.probe_agrees_with_walk tier=thorough bounded="pool of 7 tables (4 path + 3 allocatable); tree-shaped sparse pre-state (target path, one neighbour word per path table, garbage in allocatable frames); page-table indices (511,510,1,0)"
+    //@ obligation C01 C01.translate_addr_any.shape_p2_huge.agrees_with_walk tier=thorough bounded="pool of 7 tables (4 path + 3 allocatable); tree-shaped sparse pre-state (target path, one neighbour word per path table, garbage in allocatable frames); page-table indices (511,510,1,0)"
+    //@ obligation C09 C09.translate_any.shape_p2_huge.writes_nothing tier=thorough bounded="pool of 7 tables (4 path + 3 allocatable); tree-shaped sparse pre-state (target path, one neighbour word per path table, garbage in allocatable frames); page-table indices (511,510,1,0)"
+    //@ obligation C09 C09.translate_any.shape_p2_huge.no_frames_requested_or_zeroed tier=thorough bounded="pool of 7 tables (4 path + 3 allocatable); tree-shaped sparse pre-state (target path, one neighbour word per path table, garbage in allocatable frames); page-table indices (511,510,1,0)"
+    //@ obligation C09 C09.translate_any.shape_p2_huge.no_access_outside_page_tables tier=thorough bounded="pool of 7 tables (4 path + 3 allocatable); tree-shaped sparse pre-state (target path, one neighbour word per path table, garbage in allocatable frames); page-table indices (511,510,1,0)"
     #[kani::proof]
     #[kani::stub(PageTable::zero, zero_stub)]
     fn c01_translate_any_p2_huge_hi() {
@@ -1090,11 +1335,12 @@ mod verif_c01_step_read {
         kani::cover!(true, "c01_translate_any_p2_huge_hi: reachable");
     }
 
-    //@ obligation C01 C01.translate_any.shape_p2_huge.target_agrees_with_walk tier=thorough bounded="pool of 7 tables (4 path + 3 allocatable); tree-shaped sparse pre-state (target path, one neighbour word per path table, garbage in allocatable frames); page-table indices (255,511,0,1)"
-    //@ obligation C01 C01.translate_any.shape_p2_huge.probe_agrees_with_walk tier=thorough bounded="pool of 7 tables (4 path + 3 allocatable); tree-shaped sparse pre-state (target path, one neighbour word per path table, garbage in allocatable frames); page-table indices (255,511,0,1)"
-    //@ obligation C01 C01.translate_addr_any.shape_p2_huge.agrees_with_walk tier=thorough bounded="pool of 7 tables (4 path + 3 allocatable); tree-shaped sparse pre-state (target path, one neighbour word per path table, garbage in allocatable frames); page-table indices (255,511,0,1)"
-    //@ obligation C09 C09.translate_any.shape_p2_huge.writes_nothing tier=thorough bounded="pool of 7 tables (4 path + 3 allocatable); tree-shaped sparse pre-state (target path, one neighbour word per path table, garbage in allocatable frames); page-table indices (255,511,0,1)"
-    //@ obligation C09 C09.translate_any.shape_p2_huge.no_frames_requested_or_zeroed tier=thorough bounded="pool of 7 tables (4 path + 3 allocatable); tree-shaped sparse pre-state (target path, one neighbour word per path table, garbage in allocatable frames); page-table indices (255,511,0,1)"
+    //@ obligation C01 C01.translate_any.shape_p2_huge.target_agrees_with_walk tier=thorough bounded="pool of 7 tables (4 path + 3 allocatable); tree-shaped sparse pre-state (target path, one neighbour word per path table, garbage in allocatable frames); page-table indices (255,511,0,256)"
+    //@ obligation C01 C01.translate_any.shape_p2_huge.probe_agrees_with_walk tier=thorough bounded="pool of 7 tables (4 path + 3 allocatable); tree-shaped sparse pre-state (target path, one neighbour word per path table, garbage in allocatable frames); page-table indices (255,511,0,256)"
+    //@ obligation C01 C01.translate_addr_any.shape_p2_huge.agrees_with_walk tier=thorough bounded="pool of 7 tables (4 path + 3 allocatable); tree-shaped sparse pre-state (target path, one neighbour word per path table, garbage in allocatable frames); page-table indices (255,511,0,256)"
+    //@ obligation C09 C09.translate_any.shape_p2_huge.writes_nothing tier=thorough bounded="pool of 7 tables (4 path + 3 allocatable); tree-shaped sparse pre-state (target path, one neighbour word per path table, garbage in allocatable frames); page-table indices (255,511,0,256)"
+    //@ obligation C09 C09.translate_any.shape_p2_huge.no_frames_requested_or_zeroed tier=thorough bounded="pool of 7 tables (4 path + 3 allocatable); tree-shaped sparse pre-state (target path, one neighbour word per path table, garbage in allocatable frames); page-table indices (255,511,0,256)"
+    //@ obligation C09 C09.translate_any.shape_p2_huge.no_access_outside_page_tables tier=thorough bounded="pool of 7 tables (4 path + 3 allocatable); tree-shaped sparse pre-state (target path, one neighbour word per path table, garbage in allocatable frames); page-table indices (255,511,0,256)"
     #[kani::proof]
     #[kani::stub(PageTable::zero, zero_stub)]
     fn c01_translate_any_p2_huge_mid() {
@@ -1102,11 +1348,12 @@ mod verif_c01_step_read {
         kani::cover!(true, "c01_translate_any_p2_huge_mid: reachable");
     }
 
-    //@ obligation C01 C01.translate_any.shape_p2_huge.target_agrees_with_walk bounded="pool of 7 tables (4 path + 3 allocatable); tree-shaped sparse pre-state (target path, one neighbour word per path table, garbage in allocatable frames); page-table indices (256,1,510,255)"
-    //@ obligation C01 C01.translate_any.shape_p2_huge.probe_agrees_with_walk bounded="pool of 7 tables (4 path + 3 allocatable); tree-shaped sparse pre-state (target path, one neighbour word per path table, garbage in allocatable frames); page-table indices (256,1,510,255)"
-    //@ obligation C01 C01.translate_addr_any.shape_p2_huge.agrees_with_walk bounded="pool of 7 tables (4 path + 3 allocatable); tree-shaped sparse pre-state (target path, one neighbour word per path table, garbage in allocatable frames); page-table indices (256,1,510,255)"
-    //@ obligation C09 C09.translate_any.shape_p2_huge.writes_nothing bounded="pool of 7 tables (4 path + 3 allocatable); tree-shaped sparse pre-state (target path, one neighbour word per path table, garbage in allocatable frames); page-table indices (256,1,510,255)"
-    //@ obligation C09 C09.translate_any.shape_p2_huge.no_frames_requested_or_zeroed bounded="pool of 7 tables (4 path + 3 allocatable); tree-shaped sparse pre-state (target path, one neighbour word per path table, garbage in allocatable frames); page-table indices (256,1,510,255)"
+    //@ obligation C01 C01.translate_any.shape_p2_huge.target_agrees_with_walk bounded="pool of 7 tables (4 path + 3 allocatable); tree-shaped sparse pre-state (target path, one neighbour word per path table, garbage in allocatable frames); page-table indices (256,0,510,511)"
+    //@ obligation C01 C01.translate_any.shape_p2_huge.probe_agrees_with_walk bounded="pool of 7 tables (4 path + 3 allocatable); tree-shaped sparse pre-state (target path, one neighbour word per path table, garbage in allocatable frames); page-table indices (256,0,510,511)"
+    //@ obligation C01 C01.translate_addr_any.shape_p2_huge.agrees_with_walk bounded="pool of 7 tables (4 path + 3 allocatable); tree-shaped sparse pre-state (target path, one neighbour word per path table, garbage in allocatable frames); page-table indices (256,0,510,511)"
+    //@ obligation C09 C09.translate_any.shape_p2_huge.writes_nothing bounded="pool of 7 tables (4 path + 3 allocatable); tree-shaped sparse pre-state (target path, one neighbour word per path table, garbage in allocatable frames); page-table indices (256,0,510,511)"
+    //@ obligation C09 C09.translate_any.shape_p2_huge.no_frames_requested_or_zeroed bounded="pool of 7 tables (4 path + 3 allocatable); tree-shaped sparse pre-state (target path, one neighbour word per path table, garbage in allocatable frames); page-table indices (256,0,510,511)"
+    //@ obligation C09 C09.translate_any.shape_p2_huge.no_access_outside_page_tables bounded="pool of 7 tables (4 path + 3 allocatable); tree-shaped sparse pre-state (target path, one neighbour word per path table, garbage in allocatable frames); page-table indices (256,0,510,511)"
     #[kani::proof]
     #[kani::stub(PageTable::zero, zero_stub)]
     fn c01_translate_any_p2_huge_up() {
@@ -1114,11 +1361,12 @@ mod verif_c01_step_read {
         kani::cover!(true, "c01_translate_any_p2_huge_up: reachable");
     }
 
-    //@ obligation C01 C01.translate_any.shape_p1_absent.target_agrees_with_walk tier=thorough bounded="pool of 7 tables (4 path + 3 allocatable); tree-shaped sparse pre-state (target path, one neighbour word per path table, garbage in allocatable frames); page-table indices (0,0,0,0)"
-    //@ obligation C01 C01.translate_any.shape_p1_absent.probe_agrees_with_walk tier=thorough bounded="pool of 7 tables (4 path + 3 allocatable); tree-shaped sparse pre-state (target path, one neighbour word per path table, garbage in allocatable frames); page-table indices (0,0,0,0)"
-    //@ obligation C01 C01.translate_addr_any.shape_p1_absent.agrees_with_walk tier=thorough bounded="pool of 7 tables (4 path + 3 allocatable); tree-shaped sparse pre-state (target path, one neighbour word per path table, garbage in allocatable frames); page-table indices (0,0,0,0)"
-    //@ obligation C09 C09.translate_any.shape_p1_absent.writes_nothing tier=thorough bounded="pool of 7 tables (4 path + 3 allocatable); tree-shaped sparse pre-state (target path, one neighbour word per path table, garbage in allocatable frames); page-table indices (0,0,0,0)"
-    //@ obligation C09 C09.translate_any.shape_p1_absent.no_frames_requested_or_zeroed tier=thorough bounded="pool of 7 tables (4 path + 3 allocatable); tree-shaped sparse pre-state (target path, one neighbour word per path table, garbage in allocatable frames); page-table indices (0,0,0,0)"
+    //@ obligation C01 C01.translate_any.shape_p1_absent.target_agrees_with_walk tier=thorough bounded="pool of 7 tables (4 path + 3 allocatable); tree-shaped sparse pre-state (target path, one neighbour word per path table, garbage in allocatable frames); page-table indices (0,1,511,2)"
+    //@ obligation C01 C01.translate_any.shape_p1_absent.probe_agrees_with_walk tier=thorough bounded="pool of 7 tables (4 path + 3 allocatable); tree-shaped sparse pre-state (target path, one neighbour word per path table, garbage in allocatable frames); page-table indices (0,1,511,2)"
+    //@ obligation C01 C01.translate_addr_any.shape_p1_absent.agrees_with_walk tier=thorough bounded="pool of 7 tables (4 path + 3 allocatable); tree-shaped sparse pre-state (target path, one neighbour word per path table, garbage in allocatable frames); page-table indices (0,1,511,2)"
+    //@ obligation C09 C09.translate_any.shape_p1_absent.writes_nothing tier=thorough bounded="pool of 7 tables (4 path + 3 allocatable); tree-shaped sparse pre-state (target path, one neighbour word per path table, garbage in allocatable frames); page-table indices (0,1,511,2)"
+    //@ obligation C09 C09.translate_any.shape_p1_absent.no_frames_requested_or_zeroed tier=thorough bounded="pool of 7 tables (4 path + 3 allocatable); tree-shaped sparse pre-state (target path, one neighbour word per path table, garbage in allocatable frames); page-table indices (0,1,511,2)"
+    //@ obligation C09 C09.translate_any.shape_p1_absent.no_access_outside_page_tables tier=thorough bounded="pool of 7 tables (4 path + 3 allocatable); tree-shaped sparse pre-state (target path, one neighbour word per path table, garbage in allocatable frames); page-table indices (0,1,511,2)"
     #[kani::proof]
     #[kani::stub(PageTable::zero, zero_stub)]
     fn c01_translate_any_p1_absent_lo() {
@@ -1126,11 +1374,12 @@ mod verif_c01_step_read {
         kani::cover!(true, "c01_translate_any_p1_absent_lo: reachable");
     }
 
-    //@ obligation C01 C01.translate_any.shape_p1_absent.target_agrees_with_walk tier=thorough bounded="pool of 7 tables (4 path + 3 allocatable); tree-shaped sparse pre-state (target path, one neighbour word per path table, garbage in allocatable frames); page-table indices (511,511,511,511)"
-    //@ obligation C01 C01.translate_any.shape_p1_absent.probe_agrees_with_walk tier=thorough bounded="pool of 7 tables (4 path + 3 allocatable); tree-shaped sparse pre-state (target path, one neighbour word per path table, garbage in allocatable frames); page-table indices (511,511,511,511)"
-    //@ obligation C01 C01.translate_addr_any.shape_p1_absent.agrees_with_walk tier=thorough bounded="pool of 7 tables (4 path + 3 allocatable); tree-shaped sparse pre-state (target path, one neighbour word per path table, garbage in allocatable frames); page-table indices (511,511,511,511)"
-    //@ obligation C09 C09.translate_any.shape_p1_absent.writes_nothing tier=thorough bounded="pool of 7 tables (4 path + 3 allocatable); tree-shaped sparse pre-state (target path, one neighbour word per path table, garbage in allocatable frames); page-table indices (511,511,511,511)"
-    //@ obligation C09 C09.translate_any.shape_p1_absent.no_frames_requested_or_zeroed tier=thorough bounded="pool of 7 tables (4 path + 3 allocatable); tree-shaped sparse pre-state (target path, one neighbour word per path table, garbage in allocatable frames); page-table indices (511,511,511,511)"
+    //@ obligation C01 C01.translate_any.shape_p1_absent.target_agrees_with_walk tier=thorough bounded="pool of 7 tables (4 path + 3 allocatable); tree-shaped sparse pre-state (target path, one neighbour word per path table, garbage in allocatable frames); page-table indices (511,510,1,0)"
+    //@ obligation C01 C01.translate_any.shape_p1_absent.probe_agrees_with_walk tier=thorough bounded="pool of 7 tables (4 path + 3 allocatable); tree-shaped sparse pre-state (target path, one neighbour word per path table, garbage in allocatable frames); page-table indices (511,510,1,0)"
+    //@ obligation C01 C01.translate_addr_any.shape_p1_absent.agrees_with_walk tier=thorough bounded="pool of 7 tables (4 path + 3 allocatable); tree-shaped sparse pre-state (target path, one neighbour word per path table, garbage in allocatable frames); page-table indices (511,510,1,0)"
+    //@ obligation C09 C09.translate_any.shape_p1_absent.writes_nothing tier=thorough bounded="pool of 7 tables (4 path + 3 allocatable); tree-shaped sparse pre-state (target path, one neighbour word per path table, garbage in allocatable frames); page-table indices (511,510,1,0)"
+    //@ obligation C09 C09.translate_any.shape_p1_absent.no_frames_requested_or_zeroed tier=thorough bounded="pool of 7 tables (4 path + 3 allocatable); tree-shaped sparse pre-state (target path, one neighbour word per path table, garbage in allocatable frames); page-table indices (511,510,1,0)"
+    //@ obligation C09 C09.translate_any.shape_p1_absent.no_access_outside_page_tables tier=thorough bounded="pool of 7 tables (4 path + 3 allocatable); tree-shaped sparse pre-state (target path, one neighbour word per path table, garbage in allocatable frames); page-table indices (511,510,1,0)"
     #[kani::proof]
     #[kani::stub(PageTable::zero, zero_stub)]
     fn c01_translate_any_p1_absent_hi() {
@@ -1138,11 +1387,12 @@ mod verif_c01_step_read {
         kani::cover!(true, "c01_translate_any_p1_absent_hi: reachable");
     }
 
-    //@ obligation C01 C01.translate_any.shape_p1_absent.target_agrees_with_walk tier=thorough bounded="pool of 7 tables (4 path + 3 allocatable); tree-shaped sparse pre-state (target path, one neighbour word per path table, garbage in allocatable frames); page-table indices (255,511,0,1)"
-    //@ obligation C01 C01.translate_any.shape_p1_absent.probe_agrees_with_walk tier=thorough bounded="pool of 7 tables (4 path + 3 allocatable); tree-shaped sparse pre-state (target path, one neighbour word per path table, garbage in allocatable frames); page-table indices (255,511,0,1)"
-    //@ obligation C01 C01.translate_addr_any.shape_p1_absent.agrees_with_walk tier=thorough bounded="pool of 7 tables (4 path + 3 allocatable); tree-shaped sparse pre-state (target path, one neighbour word per path table, garbage in allocatable frames); page-table indices (255,511,0,1)"
-    //@ obligation C09 C09.translate_any.shape_p1_absent.writes_nothing tier=thorough bounded="pool of 7 tables (4 path + 3 allocatable); tree-shaped sparse pre-state (target path, one neighbour word per path table, garbage in allocatable frames); page-table indices (255,511,0,1)"
-    //@ obligation C09 C09.translate_any.shape_p1_absent.no_frames_requested_or_zeroed tier=thorough bounded="pool of 7 tables (4 path + 3 allocatable); tree-shaped sparse pre-state (target path, one neighbour word per path table, garbage in allocatable frames); page-table indices (255,511,0,1)"
+    //@ obligation C01 C01.translate_any.shape_p1_absent.target_agrees_with_walk tier=thorough bounded="pool of 7 tables (4 path + 3 allocatable); tree-shaped sparse pre-state (target path, one neighbour word per path table, garbage in allocatable frames); page-table indices (255,511,0,256)"
+    //@ obligation C01 C01.translate_any.shape_p1_absent.probe_agrees_with_walk tier=thorough bounded="pool of 7 tables (4 path + 3 allocatable); tree-shaped sparse pre-state (target path, one neighbour word per path table, garbage in allocatable frames); page-table indices (255,511,0,256)"
+    //@ obligation C01 C01.translate_addr_any.shape_p1_absent.agrees_with_walk tier=thorough bounded="pool of 7 tables (4 path + 3 allocatable); tree-shaped sparse pre-state (target path, one neighbour word per path table, garbage in allocatable frames); page-table indices (255,511,0,256)"
+    //@ obligation C09 C09.translate_any.shape_p1_absent.writes_nothing tier=thorough bounded="pool of 7 tables (4 path + 3 allocatable); tree-shaped sparse pre-state (target path, one neighbour word per path table, garbage in allocatable frames); page-table indices (255,511,0,256)"
+    //@ obligation C09 C09.translate_any.shape_p1_absent.no_frames_requested_or_zeroed tier=thorough bounded="pool of 7 tables (4 path + 3 allocatable); tree-shaped sparse pre-state (target path, one neighbour word per path table, garbage in allocatable frames); page-table indices (255,511,0,256)"
+    //@ obligation C09 C09.translate_any.shape_p1_absent.no_access_outside_page_tables tier=thorough bounded="pool of 7 tables (4 path + 3 allocatable); tree-shaped sparse pre-state (target path, one neighbour word per path table, garbage in allocatable frames); page-table indices (255,511,0,256)"
     #[kani::proof]
     #[kani::stub(PageTable::zero, zero_stub)]
     fn c01_translate_any_p1_absent_mid() {
@@ -1150,11 +1400,12 @@ mod verif_c01_step_read {
         kani::cover!(true, "c01_translate_any_p1_absent_mid: reachable");
     }
 
-    //@ obligation C01 C01.translate_any.shape_p1_absent.target_agrees_with_walk tier=thorough bounded="pool of 7 tables (4 path + 3 allocatable); tree-shaped sparse pre-state (target path, one neighbour word per path table, garbage in allocatable frames); page-table indices (256,1,510,255)"
-    //@ obligation C01 C01.translate_any.shape_p1_absent.probe_agrees_with_walk tier=thorough bounded="pool of 7 tables (4 path + 3 allocatable); tree-shaped sparse pre-state (target path, one neighbour word per path table, garbage in allocatable frames); page-table indices (256,1,510,255)"
-    //@ obligation C01 C01.translate_addr_any.shape_p1_absent.agrees_with_walk tier=thorough bounded="pool of 7 tables (4 path + 3 allocatable); tree-shaped sparse pre-state (target path, one neighbour word per path table, garbage in allocatable frames); page-table indices (256,1,510,255)"
-    //@ obligation C09 C09.translate_any.shape_p1_absent.writes_nothing tier=thorough bounded="pool of 7 tables (4 path + 3 allocatable); tree-shaped sparse pre-state (target path, one neighbour word per path table, garbage in allocatable frames); page-table indices (256,1,510,255)"
-    //@ obligation C09 C09.translate_any.shape_p1_absent.no_frames_requested_or_zeroed tier=thorough bounded="pool of 7 tables (4 path + 3 allocatable); tree-shaped sparse pre-state (target path, one neighbour word per path table, garbage in allocatable frames); page-table indices (256,1,510,255)"
+    //@ obligation C01 C01.translate_any.shape_p1_absent.target_agrees_with_walk tier=thorough bounded="pool of 7 tables (4 path + 3 allocatable); tree-shaped sparse pre-state (target path, one neighbour word per path table, garbage in allocatable frames); page-table indices (256,0,510,511)"
+    //@ obligation C01 C01.translate_any.shape_p1_absent.probe_agrees_with_walk tier=thorough bounded="pool of 7 tables (4 path + 3 allocatable); tree-shaped sparse pre-state (target path, one neighbour word per path table, garbage in allocatable frames); page-table indices (256,0,510,511)"
+    //@ obligation C01 C01.translate_addr_any.shape_p1_absent.agrees_with_walk tier=thorough bounded="pool of 7 tables (4 path + 3 allocatable); tree-shaped sparse pre-state (target path, one neighbour word per path table, garbage in allocatable frames); page-table indices (256,0,510,511)"
+    //@ obligation C09 C09.translate_any.shape_p1_absent.writes_nothing tier=thorough bounded="pool of 7 tables (4 path + 3 allocatable); tree-shaped sparse pre-state (target path, one neighbour word per path table, garbage in allocatable frames); page-table indices (256,0,510,511)"
+    //@ obligation C09 C09.translate_any.shape_p1_absent.no_frames_requested_or_zeroed tier=thorough bounded="pool of 7 tables (4 path + 3 allocatable); tree-shaped sparse pre-state (target path, one neighbour word per path table, garbage in allocatable frames); page-table indices (256,0,510,511)"
+    //@ obligation C09 C09.translate_any.shape_p1_absent.no_access_outside_page_tables tier=thorough bounded="pool of 7 tables (4 path + 3 allocatable); tree-shaped sparse pre-state (target path, one neighbour word per path table, garbage in allocatable frames); page-table indices (256,0,510,511)"
     #[kani::proof]
     #[kani::stub(PageTable::zero, zero_stub)]
     fn c01_translate_any_p1_absent_up() {
@@ -1162,11 +1413,12 @@ mod verif_c01_step_read {
         kani::cover!(true, "c01_translate_any_p1_absent_up: reachable");
     }
 
-    //@ obligation C01 C01.translate_any.shape_p1_leaf.target_agrees_with_walk tier=thorough bounded="pool of 7 tables (4 path + 3 allocatable); tree-shaped sparse pre-state (target path, one neighbour word per path table, garbage in allocatable frames); page-table indices (0,0,0,0)"
-    //@ obligation C01 C01.translate_any.shape_p1_leaf.probe_agrees_with_walk tier=thorough bounded="pool of 7 tables (4 path + 3 allocatable); tree-shaped sparse pre-state (target path, one neighbour word per path table, garbage in allocatable frames); page-table indices (0,0,0,0)"
-    //@ obligation C01 C01.translate_addr_any.shape_p1_leaf.agrees_with_walk tier=thorough bounded="pool of 7 tables (4 path + 3 allocatable); tree-shaped sparse pre-state (target path, one neighbour word per path table, garbage in allocatable frames); page-table indices (0,0,0,0)"
-    //@ obligation C09 C09.translate_any.shape_p1_leaf.writes_nothing tier=thorough bounded="pool of 7 tables (4 path + 3 allocatable); tree-shaped sparse pre-state (target path, one neighbour word per path table, garbage in allocatable frames); page-table indices (0,0,0,0)"
-    //@ obligation C09 C09.translate_any.shape_p1_leaf.no_frames_requested_or_zeroed tier=thorough bounded="pool of 7 tables (4 path + 3 allocatable); tree-shaped sparse pre-state (target path, one neighbour word per path table, garbage in allocatable frames); page-table indices (0,0,0,0)"
+    //@ obligation C01 C01.translate_any.shape_p1_leaf.target_agrees_with_walk tier=thorough bounded="pool of 7 tables (4 path + 3 allocatable); tree-shaped sparse pre-state (target path, one neighbour word per path table, garbage in allocatable frames); page-table indices (0,1,511,2)"
+    //@ obligation C01 C01.translate_any.shape_p1_leaf.probe_agrees_with_walk tier=thorough bounded="pool of 7 tables (4 path + 3 allocatable); tree-shaped sparse pre-state (target path, one neighbour word per path table, garbage in allocatable frames); page-table indices (0,1,511,2)"
+    //@ obligation C01 C01.translate_addr_any.shape_p1_leaf.agrees_with_walk tier=thorough bounded="pool of 7 tables (4 path + 3 allocatable); tree-shaped sparse pre-state (target path, one neighbour word per path table, garbage in allocatable frames); page-table indices (0,1,511,2)"
+    //@ obligation C09 C09.translate_any.shape_p1_leaf.writes_nothing tier=thorough bounded="pool of 7 tables (4 path + 3 allocatable); tree-shaped sparse pre-state (target path, one neighbour word per path table, garbage in allocatable frames); page-table indices (0,1,511,2)"
+    //@ obligation C09 C09.translate_any.shape_p1_leaf.no_frames_requested_or_zeroed tier=thorough bounded="pool of 7 tables (4 path + 3 allocatable); tree-shaped sparse pre-state (target path, one neighbour word per path table, garbage in allocatable frames); page-table indices (0,1,511,2)"
+    //@ obligation C09 C09.translate_any.shape_p1_leaf.no_access_outside_page_tables tier=thorough bounded="pool of 7 tables (4 path + 3 allocatable); tree-shaped sparse pre-state (target path, one neighbour word per path table, garbage in allocatable frames); page-table indices (0,1,511,2)"
     #[kani::proof]
     #[kani::stub(PageTable::zero, zero_stub)]
     fn c01_translate_any_p1_leaf_lo() {
@@ -1174,11 +1426,12 @@ mod verif_c01_step_read {
         kani::cover!(true, "c01_translate_any_p1_leaf_lo: reachable");
     }
 
-    //@ obligation C01 C01.translate_any.shape_p1_leaf.target_agrees_with_walk tier=thorough bounded="pool of 7 tables (4 path + 3 allocatable); tree-shaped sparse pre-state (target path, one neighbour word per path table, garbage in allocatable frames); page-table indices (511,511,511,511)"
-    //@ obligation C01 C01.translate_any.shape_p1_leaf.probe_agrees_with_walk tier=thorough bounded="pool of 7 tables (4 path + 3 allocatable); tree-shaped sparse pre-state (target path, one neighbour word per path table, garbage in allocatable frames); page-table indices (511,511,511,511)"
-    //@ obligation C01 C01.translate_addr_any.shape_p1_leaf.agrees_with_walk tier=thorough bounded="pool of 7 tables (4 path + 3 allocatable); tree-shaped sparse pre-state (target path, one neighbour word per path table, garbage in allocatable frames); page-table indices (511,511,511,511)"
-    //@ obligation C09 C09.translate_any.shape_p1_leaf.writes_nothing tier=thorough bounded="pool of 7 tables (4 path + 3 allocatable); tree-shaped sparse pre-state (target path, one neighbour word per path table, garbage in allocatable frames); page-table indices (511,511,511,511)"
-    //@ obligation C09 C09.translate_any.shape_p1_leaf.no_frames_requested_or_zeroed tier=thorough bounded="pool of 7 tables (4 path + 3 allocatable); tree-shaped sparse pre-state (target path, one neighbour word per path table, garbage in allocatable frames); page-table indices (511,511,511,511)"
+    //@ obligation C01 C01.translate_any.shape_p1_leaf.target_agrees_with_walk tier=thorough bounded="pool of 7 tables (4 path + 3 allocatable); tree-shaped sparse pre-state (target path, one neighbour word per path table, garbage in allocatable frames); page-table indices (511,510,1,0)"
+    //@ obligation C01 C01.translate_any.shape_p1_leaf.probe_agrees_with_walk tier=thorough bounded="pool of 7 tables (4 path + 3 allocatable); tree-shaped sparse pre-state (target path, one neighbour word per path table, garbage in allocatable frames); page-table indices (511,510,1,0)"
+    //@ obligation C01 C01.translate_addr_any.shape_p1_leaf.agrees_with_walk tier=thorough bounded="pool of 7 tables (4 path + 3 allocatable); tree-shaped sparse pre-state (target path, one neighbour word per path table, garbage in allocatable frames); page-table indices (511,510,1,0)"
+    //@ obligation C09 C09.translate_any.shape_p1_leaf.writes_nothing tier=thorough bounded="pool of 7 tables (4 path + 3 allocatable); tree-shaped sparse pre-state (target path, one neighbour word per path table, garbage in allocatable frames); page-table indices (511,510,1,0)"
+    //@ obligation C09 C09.translate_any.shape_p1_leaf.no_frames_requested_or_zeroed tier=thorough bounded="pool of 7 tables (4 path + 3 allocatable); tree-shaped sparse pre-state (target path, one neighbour word per path table, garbage in allocatable frames); page-table indices (511,510,1,0)"
+    //@ obligation C09 C09.translate_any.shape_p1_leaf.no_access_outside_page_tables tier=thorough bounded="pool of 7 tables (4 path + 3 allocatable); tree-shaped sparse pre-state (target path, one neighbour word per path table, garbage in allocatable frames); page-table indices (511,510,1,0)"
     #[kani::proof]
     #[kani::stub(PageTable::zero, zero_stub)]
     fn c01_translate_any_p1_leaf_hi() {
@@ -1186,11 +1439,12 @@ mod verif_c01_step_read {
         kani::cover!(true, "c01_translate_any_p1_leaf_hi: reachable");
     }
 
-    //@ obligation C01 C01.translate_any.shape_p1_leaf.target_agrees_with_walk bounded="pool of 7 tables (4 path + 3 allocatable); tree-shaped sparse pre-state (target path, one neighbour word per path table, garbage in allocatable frames); page-table indices (255,511,0,1)"
-    //@ obligation C01 C01.translate_any.shape_p1_leaf.probe_agrees_with_walk bounded="pool of 7 tables (4 path + 3 allocatable); tree-shaped sparse pre-state (target path, one neighbour word per path table, garbage in allocatable frames); page-table indices (255,511,0,1)"
-    //@ obligation C01 C01.translate_addr_any.shape_p1_leaf.agrees_with_walk bounded="pool of 7 tables (4 path + 3 allocatable); tree-shaped sparse pre-state (target path, one neighbour word per path table, garbage in allocatable frames); page-table indices (255,511,0,1)"
-    //@ obligation C09 C09.translate_any.shape_p1_leaf.writes_nothing bounded="pool of 7 tables (4 path + 3 allocatable); tree-shaped sparse pre-state (target path, one neighbour word per path table, garbage in allocatable frames); page-table indices (255,511,0,1)"
-    //@ obligation C09 C09.translate_any.shape_p1_leaf.no_frames_requested_or_zeroed bounded="pool of 7 tables (4 path + 3 allocatable); tree-shaped sparse pre-state (target path, one neighbour word per path table, garbage in allocatable frames); page-table indices (255,511,0,1)"
+    //@ obligation C01 C01.translate_any.shape_p1_leaf.target_agrees_with_walk bounded="pool of 7 tables (4 path + 3 allocatable); tree-shaped sparse pre-state (target path, one neighbour word per path table, garbage in allocatable frames); page-table indices (255,511,0,256)"
+    //@ obligation C01 C01.translate_any.shape_p1_leaf.probe_agrees_with_walk bounded="pool of 7 tables (4 path + 3 allocatable); tree-shaped sparse pre-state (target path, one neighbour word per path table, garbage in allocatable frames); page-table indices (255,511,0,256)"
+    //@ obligation C01 C01.translate_addr_any.shape_p1_leaf.agrees_with_walk bounded="pool of 7 tables (4 path + 3 allocatable); tree-shaped sparse pre-state (target path, one neighbour word per path table, garbage in allocatable frames); page-table indices (255,511,0,256)"
+    //@ obligation C09 C09.translate_any.shape_p1_leaf.writes_nothing bounded="pool of 7 tables (4 path + 3 allocatable); tree-shaped sparse pre-state (target path, one neighbour word per path table, garbage in allocatable frames); page-table indices (255,511,0,256)"
+    //@ obligation C09 C09.translate_any.shape_p1_leaf.no_frames_requested_or_zeroed bounded="pool of 7 tables (4 path + 3 allocatable); tree-shaped sparse pre-state (target path, one neighbour word per path table, garbage in allocatable frames); page-table indices (255,511,0,256)"
+    //@ obligation C09 C09.translate_any.shape_p1_leaf.no_access_outside_page_tables bounded="pool of 7 tables (4 path + 3 allocatable); tree-shaped sparse pre-state (target path, one neighbour word per path table, garbage in allocatable frames); page-table indices (255,511,0,256)"
     #[kani::proof]
     #[kani::stub(PageTable::zero, zero_stub)]
     fn c01_translate_any_p1_leaf_mid() {
@@ -1198,11 +1452,12 @@ mod verif_c01_step_read {
         kani::cover!(true, "c01_translate_any_p1_leaf_mid: reachable");
     }
 
-    //@ obligation C01 C01.translate_any.shape_p1_leaf.target_agrees_with_walk tier=thorough bounded="pool of 7 tables (4 path + 3 allocatable); tree-shaped sparse pre-state (target path, one neighbour word per path table, garbage in allocatable frames); page-table indices (256,1,510,255)"
-    //@ obligation C01 C01.translate_any.shape_p1_leaf.probe_agrees_with_walk tier=thorough bounded="pool of 7 tables (4 path + 3 allocatable); tree-shaped sparse pre-state (target path, one neighbour word per path table, garbage in allocatable frames); page-table indices (256,1,510,255)"
-    //@ obligation C01 C01.translate_addr_any.shape_p1_leaf.agrees_with_walk tier=thorough bounded="pool of 7 tables (4 path + 3 allocatable); tree-shaped sparse pre-state (target path, one neighbour word per path table, garbage in allocatable frames); page-table indices (256,1,510,255)"
-    //@ obligation C09 C09.translate_any.shape_p1_leaf.writes_nothing tier=thorough bounded="pool of 7 tables (4 path + 3 allocatable); tree-shaped sparse pre-state (target path, one neighbour word per path table, garbage in allocatable frames); page-table indices (256,1,510,255)"
-    //@ obligation C09 C09.translate_any.shape_p1_leaf.no_frames_requested_or_zeroed tier=thorough bounded="pool of 7 tables (4 path + 3 allocatable); tree-shaped sparse pre-state (target path, one neighbour word per path table, garbage in allocatable frames); page-table indices (256,1,510,255)"
+    //@ obligation C01 C01.translate_any.shape_p1_leaf.target_agrees_with_walk tier=thorough bounded="pool of 7 tables (4 path + 3 allocatable); tree-shaped sparse pre-state (target path, one neighbour word per path table, garbage in allocatable frames); page-table indices (256,0,510,511)"
+    //@ obligation C01 C01.translate_any.shape_p1_leaf.probe_agrees_with_walk tier=thorough bounded="pool of 7 tables (4 path + 3 allocatable); tree-shaped sparse pre-state (target path, one neighbour word per path table, garbage in allocatable frames); page-table indices (256,0,510,511)"
+    //@ obligation C01 C01.translate_addr_any.shape_p1_leaf.agrees_with_walk tier=thorough bounded="pool of 7 tables (4 path + 3 allocatable); tree-shaped sparse pre-state (target path, one neighbour word per path table, garbage in allocatable frames); page-table indices (256,0,510,511)"
+    //@ obligation C09 C09.translate_any.shape_p1_leaf.writes_nothing tier=thorough bounded="pool of 7 tables (4 path + 3 allocatable); tree-shaped sparse pre-state (target path, one neighbour word per path table, garbage in allocatable frames); page-table indices (256,0,510,511)"
+    //@ obligation C09 C09.translate_any.shape_p1_leaf.no_frames_requested_or_zeroed tier=thorough bounded="pool of 7 tables (4 path + 3 allocatable); tree-shaped sparse pre-state (target path, one neighbour word per path table, garbage in allocatable frames); page-table indices (256,0,510,511)"
+    //@ obligation C09 C09.translate_any.shape_p1_leaf.no_access_outside_page_tables tier=thorough bounded="pool of 7 tables (4 path + 3 allocatable); tree-shaped sparse pre-state (target path, one neighbour word per path table, garbage in allocatable frames); page-table indices (256,0,510,511)"
     #[kani::proof]
     #[kani::stub(PageTable::zero, zero_stub)]
     fn c01_translate_any_p1_leaf_up() {
